@@ -111,6 +111,7 @@ variables
   nextPoll = [p \in Pipes |-> 1],
   ppItem = [j \in Ops |-> 0],
   pjLive = [j \in Ops |-> FALSE],
+  ppStage = [j \in Ops |-> 0],
   h = InitH;
 
 define {
@@ -434,7 +435,14 @@ z_rj:
     if (jkind[jj] = "syncdrain") { sdres[jj] := TRUE; };
     rv[self] := 0; return;
   }
-  else if (K(jj) = "pipepoll") { call PipePoll(jj, OpTab[jj].p); goto z_pp_gc; }
+  else if (K(jj) = "pipepoll") {
+    \* a poll job suspended in the processing future of an item is resumed only once its gate has fired
+    if (ppStage[jj] = 1 /\ OpTab[PipeOp(OpTab[jj].p)].g \notin gfired) {
+      gwaker[OpTab[PipeOp(OpTab[jj].p)].g] := jwk;
+      gwhist[OpTab[PipeOp(OpTab[jj].p)].g] := Append(gwhist[OpTab[PipeOp(OpTab[jj].p)].g], jwk);
+      rv[self] := 5; return;
+    } else { call PipePoll(jj, OpTab[jj].p, jwk); goto z_pp_gc; }
+  }
   else if (K(jj) = "chute_dropfn") {
     if (chuteFn[OpTab[jj].p]) { h := PFlag(PFlag(h, OpTab[jj].p, "in_dropped"), OpTab[jj].p, "closure_dropped"); chuteFn[OpTab[jj].p] := FALSE; };
     rv[self] := 0; return;
@@ -802,7 +810,9 @@ z_pcr3:
 }
 
 \* ---- the poll job of a pipe: PipeContext::poll's future_desync job running the poll function
-procedure PipePoll(kj, pp) {
+procedure PipePoll(kj, pp, pwk) {
+z_pp_entry:
+  if (ppStage[kj] = 1) { goto pp_resumed; };
 pp_fn:       \* [pipe] lock the poll function
   if (~pollFn[pp]) { rv[self] := 0; return; }
   else if (K(PipeOp(pp)) = "pipe_in") { goto pi_in; }
@@ -842,7 +852,20 @@ pp_closed:   \* [pcore] the output stream was closed
   goto pp_dealloc;
 pp_proc:     \* [pipe] lock the processing function and call it
   h := ObsProcStart(h, self, pp, ppItem[kj]);
-pp_body:     \* [body]
+pp_body:     \* [body] the processing future may await an external event
+  if (OpTab[PipeOp(pp)].g # 0 /\ OpTab[PipeOp(pp)].g \notin gfired) {
+    gwaker[OpTab[PipeOp(pp)].g] := pwk;
+    gwhist[OpTab[PipeOp(pp)].g] := Append(gwhist[OpTab[PipeOp(pp)].g], pwk);
+    ppStage[kj] := 1;
+    rv[self] := 5;
+    return;
+  } else if (OpTab[PipeOp(pp)].g # 0) { ppStage[kj] := 1; goto pp_resumed; }
+  else {
+    h := ObsProcEnd(h, self, pp, ppItem[kj]);
+    if (K(PipeOp(pp)) = "pipe_in") { goto pi_in; } else { goto pp_push; }
+  };
+pp_resumed:  \* [resumed]
+  ppStage[kj] := 0;
   h := ObsProcEnd(h, self, pp, ppItem[kj]);
   if (K(PipeOp(pp)) = "pipe_in") { goto pi_in; };
 pp_push:     \* [pcore] push the output and wake the consumer
@@ -1028,7 +1051,7 @@ VARIABLES pc, qstate, qpoll, jobs, wakeBlocked, schedule, pthreads, nspawned,
           dnState, dnWaker, parkTok, rv, rwb, rneed, dsl, atomic, strong, 
           ppPending, ppClosed, ppNotify, ppNC, ppBP, ppDepth, ppAlive, ppHeld, 
           inItems, inClosed, inWaker, pollFn, chuteFn, pwTaken, nextPoll, 
-          ppItem, pjLive, h, stack
+          ppItem, pjLive, ppStage, h, stack
 
 (* define statement *)
 RECURSIVE NTR(_)
@@ -1067,8 +1090,8 @@ CtxAlive(p) == \/ HoldsCtx(inWaker[p])
 
 VARIABLES dead, sti, rq, sq, sj, ww, rsq, bown, bwk, bi, bcur, bw, bsp, jq, 
           jj, jwk, fj, dq, dj, oq, oop, omode, oj, yq, yop, tq, top, af, wf, 
-          wop, sf, sctx, xf, cop, kj, pp, np, nbp, nres, dp, pf, pctx, pq, pj, 
-          pd, nq
+          wop, sf, sctx, xf, cop, kj, pp, pwk, np, nbp, nres, dp, pf, pctx, 
+          pq, pj, pd, nq
 
 vars == << pc, qstate, qpoll, jobs, wakeBlocked, schedule, pthreads, nspawned, 
            palive, busy, busyLocked, inbox, chanOpen, pfin, thrHeld, 
@@ -1078,10 +1101,10 @@ vars == << pc, qstate, qpoll, jobs, wakeBlocked, schedule, pthreads, nspawned,
            dnState, dnWaker, parkTok, rv, rwb, rneed, dsl, atomic, strong, 
            ppPending, ppClosed, ppNotify, ppNC, ppBP, ppDepth, ppAlive, 
            ppHeld, inItems, inClosed, inWaker, pollFn, chuteFn, pwTaken, 
-           nextPoll, ppItem, pjLive, h, stack, dead, sti, rq, sq, sj, ww, rsq, 
-           bown, bwk, bi, bcur, bw, bsp, jq, jj, jwk, fj, dq, dj, oq, oop, 
-           omode, oj, yq, yop, tq, top, af, wf, wop, sf, sctx, xf, cop, kj, 
-           pp, np, nbp, nres, dp, pf, pctx, pq, pj, pd, nq >>
+           nextPoll, ppItem, pjLive, ppStage, h, stack, dead, sti, rq, sq, sj, 
+           ww, rsq, bown, bwk, bi, bcur, bw, bsp, jq, jj, jwk, fj, dq, dj, oq, 
+           oop, omode, oj, yq, yop, tq, top, af, wf, wop, sf, sctx, xf, cop, 
+           kj, pp, pwk, np, nbp, nres, dp, pf, pctx, pq, pj, pd, nq >>
 
 ProcSet == (Threads) \cup (PoolSet)
 
@@ -1151,6 +1174,7 @@ Init == (* Global variables *)
         /\ nextPoll = [p \in Pipes |-> 1]
         /\ ppItem = [j \in Ops |-> 0]
         /\ pjLive = [j \in Ops |-> FALSE]
+        /\ ppStage = [j \in Ops |-> 0]
         /\ h = InitH
         (* Procedure ScheduleThread *)
         /\ dead = [ self \in ProcSet |-> << >>]
@@ -1205,6 +1229,7 @@ Init == (* Global variables *)
         (* Procedure PipePoll *)
         /\ kj = [ self \in ProcSet |-> defaultInitValue]
         /\ pp = [ self \in ProcSet |-> defaultInitValue]
+        /\ pwk = [ self \in ProcSet |-> defaultInitValue]
         (* Procedure PipeNext *)
         /\ np = [ self \in ProcSet |-> defaultInitValue]
         /\ nbp = [ self \in ProcSet |-> NoW]
@@ -1241,12 +1266,12 @@ st_reap(self) == /\ pc[self] = "st_reap"
                                  dsl, atomic, strong, ppPending, ppClosed, 
                                  ppNotify, ppNC, ppBP, ppDepth, ppAlive, 
                                  ppHeld, inItems, inClosed, inWaker, pollFn, 
-                                 chuteFn, pwTaken, nextPoll, ppItem, pjLive, h, 
-                                 stack, sti, rq, sq, sj, ww, rsq, bown, bwk, 
-                                 bi, bcur, bw, bsp, jq, jj, jwk, fj, dq, dj, 
-                                 oq, oop, omode, oj, yq, yop, tq, top, af, wf, 
-                                 wop, sf, sctx, xf, cop, kj, pp, np, nbp, nres, 
-                                 dp, pf, pctx, pq, pj, pd, nq >>
+                                 chuteFn, pwTaken, nextPoll, ppItem, pjLive, 
+                                 ppStage, h, stack, sti, rq, sq, sj, ww, rsq, 
+                                 bown, bwk, bi, bcur, bw, bsp, jq, jj, jwk, fj, 
+                                 dq, dj, oq, oop, omode, oj, yq, yop, tq, top, 
+                                 af, wf, wop, sf, sctx, xf, cop, kj, pp, pwk, 
+                                 np, nbp, nres, dp, pf, pctx, pq, pj, pd, nq >>
 
 st_join(self) == /\ pc[self] = "st_join"
                  /\ dead' = [dead EXCEPT ![self] = Tail(dead[self])]
@@ -1264,12 +1289,12 @@ st_join(self) == /\ pc[self] = "st_join"
                                  dsl, atomic, strong, ppPending, ppClosed, 
                                  ppNotify, ppNC, ppBP, ppDepth, ppAlive, 
                                  ppHeld, inItems, inClosed, inWaker, pollFn, 
-                                 chuteFn, pwTaken, nextPoll, ppItem, pjLive, h, 
-                                 stack, sti, rq, sq, sj, ww, rsq, bown, bwk, 
-                                 bi, bcur, bw, bsp, jq, jj, jwk, fj, dq, dj, 
-                                 oq, oop, omode, oj, yq, yop, tq, top, af, wf, 
-                                 wop, sf, sctx, xf, cop, kj, pp, np, nbp, nres, 
-                                 dp, pf, pctx, pq, pj, pd, nq >>
+                                 chuteFn, pwTaken, nextPoll, ppItem, pjLive, 
+                                 ppStage, h, stack, sti, rq, sq, sj, ww, rsq, 
+                                 bown, bwk, bi, bcur, bw, bsp, jq, jj, jwk, fj, 
+                                 dq, dj, oq, oop, omode, oj, yq, yop, tq, top, 
+                                 af, wf, wop, sf, sctx, xf, cop, kj, pp, pwk, 
+                                 np, nbp, nres, dp, pf, pctx, pq, pj, pd, nq >>
 
 st_dormant(self) == /\ pc[self] = "st_dormant"
                     /\ (thrHeld = "" \/ thrHeld = self) /\ (thrHeld = self => ~busyLocked[pthreads[sti[self]]])
@@ -1302,12 +1327,12 @@ st_dormant(self) == /\ pc[self] = "st_dormant"
                                     ppClosed, ppNotify, ppNC, ppBP, ppDepth, 
                                     ppAlive, ppHeld, inItems, inClosed, 
                                     inWaker, pollFn, chuteFn, pwTaken, 
-                                    nextPoll, ppItem, pjLive, h, rq, sq, sj, 
-                                    ww, rsq, bown, bwk, bi, bcur, bw, bsp, jq, 
-                                    jj, jwk, fj, dq, dj, oq, oop, omode, oj, 
-                                    yq, yop, tq, top, af, wf, wop, sf, sctx, 
-                                    xf, cop, kj, pp, np, nbp, nres, dp, pf, 
-                                    pctx, pq, pj, pd, nq >>
+                                    nextPoll, ppItem, pjLive, ppStage, h, rq, 
+                                    sq, sj, ww, rsq, bown, bwk, bi, bcur, bw, 
+                                    bsp, jq, jj, jwk, fj, dq, dj, oq, oop, 
+                                    omode, oj, yq, yop, tq, top, af, wf, wop, 
+                                    sf, sctx, xf, cop, kj, pp, pwk, np, nbp, 
+                                    nres, dp, pf, pctx, pq, pj, pd, nq >>
 
 st_max(self) == /\ pc[self] = "st_max"
                 /\ TRUE
@@ -1323,12 +1348,12 @@ st_max(self) == /\ pc[self] = "st_max"
                                 atomic, strong, ppPending, ppClosed, ppNotify, 
                                 ppNC, ppBP, ppDepth, ppAlive, ppHeld, inItems, 
                                 inClosed, inWaker, pollFn, chuteFn, pwTaken, 
-                                nextPoll, ppItem, pjLive, h, stack, dead, sti, 
-                                rq, sq, sj, ww, rsq, bown, bwk, bi, bcur, bw, 
-                                bsp, jq, jj, jwk, fj, dq, dj, oq, oop, omode, 
-                                oj, yq, yop, tq, top, af, wf, wop, sf, sctx, 
-                                xf, cop, kj, pp, np, nbp, nres, dp, pf, pctx, 
-                                pq, pj, pd, nq >>
+                                nextPoll, ppItem, pjLive, ppStage, h, stack, 
+                                dead, sti, rq, sq, sj, ww, rsq, bown, bwk, bi, 
+                                bcur, bw, bsp, jq, jj, jwk, fj, dq, dj, oq, 
+                                oop, omode, oj, yq, yop, tq, top, af, wf, wop, 
+                                sf, sctx, xf, cop, kj, pp, pwk, np, nbp, nres, 
+                                dp, pf, pctx, pq, pj, pd, nq >>
 
 st_spawn(self) == /\ pc[self] = "st_spawn"
                   /\ thrHeld = ""
@@ -1357,11 +1382,12 @@ st_spawn(self) == /\ pc[self] = "st_spawn"
                                   ppPending, ppClosed, ppNotify, ppNC, ppBP, 
                                   ppDepth, ppAlive, ppHeld, inItems, inClosed, 
                                   inWaker, pollFn, chuteFn, pwTaken, nextPoll, 
-                                  ppItem, pjLive, rq, sq, sj, ww, rsq, bown, 
-                                  bwk, bi, bcur, bw, bsp, jq, jj, jwk, fj, dq, 
-                                  dj, oq, oop, omode, oj, yq, yop, tq, top, af, 
-                                  wf, wop, sf, sctx, xf, cop, kj, pp, np, nbp, 
-                                  nres, dp, pf, pctx, pq, pj, pd, nq >>
+                                  ppItem, pjLive, ppStage, rq, sq, sj, ww, rsq, 
+                                  bown, bwk, bi, bcur, bw, bsp, jq, jj, jwk, 
+                                  fj, dq, dj, oq, oop, omode, oj, yq, yop, tq, 
+                                  top, af, wf, wop, sf, sctx, xf, cop, kj, pp, 
+                                  pwk, np, nbp, nres, dp, pf, pctx, pq, pj, pd, 
+                                  nq >>
 
 ScheduleThread(self) == st_reap(self) \/ st_join(self) \/ st_dormant(self)
                            \/ st_max(self) \/ st_spawn(self)
@@ -1400,11 +1426,12 @@ rq_core(self) == /\ pc[self] = "rq_core"
                                  ppClosed, ppNotify, ppNC, ppBP, ppDepth, 
                                  ppAlive, ppHeld, inItems, inClosed, inWaker, 
                                  pollFn, chuteFn, pwTaken, nextPoll, ppItem, 
-                                 pjLive, h, dead, sti, sq, sj, ww, rsq, bown, 
-                                 bwk, bi, bcur, bw, bsp, jq, jj, jwk, fj, dq, 
-                                 dj, oq, oop, omode, oj, yq, yop, tq, top, af, 
-                                 wf, wop, sf, sctx, xf, cop, kj, pp, np, nbp, 
-                                 nres, dp, pf, pctx, pq, pj, pd, nq >>
+                                 pjLive, ppStage, h, dead, sti, sq, sj, ww, 
+                                 rsq, bown, bwk, bi, bcur, bw, bsp, jq, jj, 
+                                 jwk, fj, dq, dj, oq, oop, omode, oj, yq, yop, 
+                                 tq, top, af, wf, wop, sf, sctx, xf, cop, kj, 
+                                 pp, pwk, np, nbp, nres, dp, pf, pctx, pq, pj, 
+                                 pd, nq >>
 
 rq_notify(self) == /\ pc[self] = "rq_notify"
                    /\ cnotif' = [cnotif EXCEPT ![Head(rwb[self])] = cwait[Head(rwb[self])]]
@@ -1430,11 +1457,12 @@ rq_notify(self) == /\ pc[self] = "rq_notify"
                                    ppClosed, ppNotify, ppNC, ppBP, ppDepth, 
                                    ppAlive, ppHeld, inItems, inClosed, inWaker, 
                                    pollFn, chuteFn, pwTaken, nextPoll, ppItem, 
-                                   pjLive, h, dead, sti, sq, sj, ww, rsq, bown, 
-                                   bwk, bi, bcur, bw, bsp, jq, jj, jwk, fj, dq, 
-                                   dj, oq, oop, omode, oj, yq, yop, tq, top, 
-                                   af, wf, wop, sf, sctx, xf, cop, kj, pp, np, 
-                                   nbp, nres, dp, pf, pctx, pq, pj, pd, nq >>
+                                   pjLive, ppStage, h, dead, sti, sq, sj, ww, 
+                                   rsq, bown, bwk, bi, bcur, bw, bsp, jq, jj, 
+                                   jwk, fj, dq, dj, oq, oop, omode, oj, yq, 
+                                   yop, tq, top, af, wf, wop, sf, sctx, xf, 
+                                   cop, kj, pp, pwk, np, nbp, nres, dp, pf, 
+                                   pctx, pq, pj, pd, nq >>
 
 rq_sched(self) == /\ pc[self] = "rq_sched"
                   /\ schedule' = Append(schedule, rq[self])
@@ -1458,11 +1486,11 @@ rq_sched(self) == /\ pc[self] = "rq_sched"
                                   ppNotify, ppNC, ppBP, ppDepth, ppAlive, 
                                   ppHeld, inItems, inClosed, inWaker, pollFn, 
                                   chuteFn, pwTaken, nextPoll, ppItem, pjLive, 
-                                  h, rq, sq, sj, ww, rsq, bown, bwk, bi, bcur, 
-                                  bw, bsp, jq, jj, jwk, fj, dq, dj, oq, oop, 
-                                  omode, oj, yq, yop, tq, top, af, wf, wop, sf, 
-                                  sctx, xf, cop, kj, pp, np, nbp, nres, dp, pf, 
-                                  pctx, pq, pj, pd, nq >>
+                                  ppStage, h, rq, sq, sj, ww, rsq, bown, bwk, 
+                                  bi, bcur, bw, bsp, jq, jj, jwk, fj, dq, dj, 
+                                  oq, oop, omode, oj, yq, yop, tq, top, af, wf, 
+                                  wop, sf, sctx, xf, cop, kj, pp, pwk, np, nbp, 
+                                  nres, dp, pf, pctx, pq, pj, pd, nq >>
 
 Reschedule(self) == rq_core(self) \/ rq_notify(self) \/ rq_sched(self)
 
@@ -1495,12 +1523,12 @@ sj_push(self) == /\ pc[self] = "sj_push"
                                  atomic, strong, ppPending, ppClosed, ppNotify, 
                                  ppNC, ppBP, ppDepth, ppAlive, ppHeld, inItems, 
                                  inClosed, inWaker, pollFn, chuteFn, pwTaken, 
-                                 nextPoll, ppItem, pjLive, h, dead, sti, rq, 
-                                 ww, rsq, bown, bwk, bi, bcur, bw, bsp, jq, jj, 
-                                 jwk, fj, dq, dj, oq, oop, omode, oj, yq, yop, 
-                                 tq, top, af, wf, wop, sf, sctx, xf, cop, kj, 
-                                 pp, np, nbp, nres, dp, pf, pctx, pq, pj, pd, 
-                                 nq >>
+                                 nextPoll, ppItem, pjLive, ppStage, h, dead, 
+                                 sti, rq, ww, rsq, bown, bwk, bi, bcur, bw, 
+                                 bsp, jq, jj, jwk, fj, dq, dj, oq, oop, omode, 
+                                 oj, yq, yop, tq, top, af, wf, wop, sf, sctx, 
+                                 xf, cop, kj, pp, pwk, np, nbp, nres, dp, pf, 
+                                 pctx, pq, pj, pd, nq >>
 
 sj_sched(self) == /\ pc[self] = "sj_sched"
                   /\ schedule' = Append(schedule, sq[self])
@@ -1524,11 +1552,11 @@ sj_sched(self) == /\ pc[self] = "sj_sched"
                                   ppNotify, ppNC, ppBP, ppDepth, ppAlive, 
                                   ppHeld, inItems, inClosed, inWaker, pollFn, 
                                   chuteFn, pwTaken, nextPoll, ppItem, pjLive, 
-                                  h, rq, sq, sj, ww, rsq, bown, bwk, bi, bcur, 
-                                  bw, bsp, jq, jj, jwk, fj, dq, dj, oq, oop, 
-                                  omode, oj, yq, yop, tq, top, af, wf, wop, sf, 
-                                  sctx, xf, cop, kj, pp, np, nbp, nres, dp, pf, 
-                                  pctx, pq, pj, pd, nq >>
+                                  ppStage, h, rq, sq, sj, ww, rsq, bown, bwk, 
+                                  bi, bcur, bw, bsp, jq, jj, jwk, fj, dq, dj, 
+                                  oq, oop, omode, oj, yq, yop, tq, top, af, wf, 
+                                  wop, sf, sctx, xf, cop, kj, pp, pwk, np, nbp, 
+                                  nres, dp, pf, pctx, pq, pj, pd, nq >>
 
 z_sj_ret(self) == /\ pc[self] = "z_sj_ret"
                   /\ rv' = [rv EXCEPT ![self] = 0]
@@ -1548,11 +1576,11 @@ z_sj_ret(self) == /\ pc[self] = "z_sj_ret"
                                   ppNotify, ppNC, ppBP, ppDepth, ppAlive, 
                                   ppHeld, inItems, inClosed, inWaker, pollFn, 
                                   chuteFn, pwTaken, nextPoll, ppItem, pjLive, 
-                                  h, dead, sti, rq, ww, rsq, bown, bwk, bi, 
-                                  bcur, bw, bsp, jq, jj, jwk, fj, dq, dj, oq, 
-                                  oop, omode, oj, yq, yop, tq, top, af, wf, 
-                                  wop, sf, sctx, xf, cop, kj, pp, np, nbp, 
-                                  nres, dp, pf, pctx, pq, pj, pd, nq >>
+                                  ppStage, h, dead, sti, rq, ww, rsq, bown, 
+                                  bwk, bi, bcur, bw, bsp, jq, jj, jwk, fj, dq, 
+                                  dj, oq, oop, omode, oj, yq, yop, tq, top, af, 
+                                  wf, wop, sf, sctx, xf, cop, kj, pp, pwk, np, 
+                                  nbp, nres, dp, pf, pctx, pq, pj, pd, nq >>
 
 ScheduleJob(self) == sj_push(self) \/ sj_sched(self) \/ z_sj_ret(self)
 
@@ -1688,11 +1716,11 @@ wk_lock(self) == /\ pc[self] = "wk_lock"
                                  rneed, dsl, atomic, ppPending, ppClosed, 
                                  ppNotify, ppNC, ppBP, ppDepth, ppAlive, 
                                  ppHeld, inItems, inClosed, inWaker, pollFn, 
-                                 chuteFn, ppItem, h, dead, sti, rsq, bown, bwk, 
-                                 bi, bcur, bw, bsp, jq, jj, jwk, fj, dq, dj, 
-                                 oq, oop, omode, oj, yq, yop, tq, top, af, wf, 
-                                 wop, sf, sctx, xf, cop, kj, pp, np, nbp, nres, 
-                                 dp, pf, pctx, pq, pj, pd, nq >>
+                                 chuteFn, ppItem, ppStage, h, dead, sti, rsq, 
+                                 bown, bwk, bi, bcur, bw, bsp, jq, jj, jwk, fj, 
+                                 dq, dj, oq, oop, omode, oj, yq, yop, tq, top, 
+                                 af, wf, wop, sf, sctx, xf, cop, kj, pp, pwk, 
+                                 np, nbp, nres, dp, pf, pctx, pq, pj, pd, nq >>
 
 z_wk_second(self) == /\ pc[self] = "z_wk_second"
                      /\ IF IsLocking(dblW2[ww[self].d])
@@ -1716,12 +1744,12 @@ z_wk_second(self) == /\ pc[self] = "z_wk_second"
                                      ppNotify, ppNC, ppBP, ppDepth, ppAlive, 
                                      ppHeld, inItems, inClosed, inWaker, 
                                      pollFn, chuteFn, pwTaken, nextPoll, 
-                                     ppItem, pjLive, h, dead, sti, rq, sq, sj, 
-                                     rsq, bown, bwk, bi, bcur, bw, bsp, jq, jj, 
-                                     jwk, fj, dq, dj, oq, oop, omode, oj, yq, 
-                                     yop, tq, top, af, wf, wop, sf, sctx, xf, 
-                                     cop, kj, pp, np, nbp, nres, dp, pf, pctx, 
-                                     pq, pj, pd, nq >>
+                                     ppItem, pjLive, ppStage, h, dead, sti, rq, 
+                                     sq, sj, rsq, bown, bwk, bi, bcur, bw, bsp, 
+                                     jq, jj, jwk, fj, dq, dj, oq, oop, omode, 
+                                     oj, yq, yop, tq, top, af, wf, wop, sf, 
+                                     sctx, xf, cop, kj, pp, pwk, np, nbp, nres, 
+                                     dp, pf, pctx, pq, pj, pd, nq >>
 
 z_pw_after(self) == /\ pc[self] = "z_pw_after"
                     /\ strong' = [strong EXCEPT ![O(ww[self].d)] = strong[O(ww[self].d)] - 1]
@@ -1751,12 +1779,12 @@ z_pw_after(self) == /\ pc[self] = "z_pw_after"
                                     ppPending, ppClosed, ppNotify, ppNC, ppBP, 
                                     ppDepth, ppAlive, ppHeld, inItems, 
                                     inClosed, inWaker, pollFn, chuteFn, 
-                                    pwTaken, nextPoll, ppItem, pjLive, h, dead, 
-                                    sti, rq, sq, sj, rsq, bown, bwk, bi, bcur, 
-                                    bw, bsp, jq, jj, jwk, fj, dq, dj, oq, oop, 
-                                    omode, oj, tq, top, af, wf, wop, sf, sctx, 
-                                    xf, cop, kj, pp, np, nbp, nres, dp, pf, 
-                                    pctx, pq, pj, pd, nq >>
+                                    pwTaken, nextPoll, ppItem, pjLive, ppStage, 
+                                    h, dead, sti, rq, sq, sj, rsq, bown, bwk, 
+                                    bi, bcur, bw, bsp, jq, jj, jwk, fj, dq, dj, 
+                                    oq, oop, omode, oj, tq, top, af, wf, wop, 
+                                    sf, sctx, xf, cop, kj, pp, pwk, np, nbp, 
+                                    nres, dp, pf, pctx, pq, pj, pd, nq >>
 
 pw_take(self) == /\ pc[self] = "pw_take"
                  /\ chuteFn' = [chuteFn EXCEPT ![OpTab[ww[self].d].p] = pollFn[OpTab[ww[self].d].p]]
@@ -1781,12 +1809,12 @@ pw_take(self) == /\ pc[self] = "pw_take"
                                  dsl, atomic, strong, ppPending, ppClosed, 
                                  ppNotify, ppNC, ppBP, ppDepth, ppAlive, 
                                  ppHeld, inItems, inClosed, inWaker, pwTaken, 
-                                 nextPoll, ppItem, pjLive, h, dead, sti, rq, 
-                                 ww, rsq, bown, bwk, bi, bcur, bw, bsp, jq, jj, 
-                                 jwk, fj, dq, dj, oq, oop, omode, oj, yq, yop, 
-                                 tq, top, af, wf, wop, sf, sctx, xf, cop, kj, 
-                                 pp, np, nbp, nres, dp, pf, pctx, pq, pj, pd, 
-                                 nq >>
+                                 nextPoll, ppItem, pjLive, ppStage, h, dead, 
+                                 sti, rq, ww, rsq, bown, bwk, bi, bcur, bw, 
+                                 bsp, jq, jj, jwk, fj, dq, dj, oq, oop, omode, 
+                                 oj, yq, yop, tq, top, af, wf, wop, sf, sctx, 
+                                 xf, cop, kj, pp, pwk, np, nbp, nres, dp, pf, 
+                                 pctx, pq, pj, pd, nq >>
 
 z_wk_ret(self) == /\ pc[self] = "z_wk_ret"
                   /\ pc' = [pc EXCEPT ![self] = Head(stack[self]).pc]
@@ -1804,11 +1832,11 @@ z_wk_ret(self) == /\ pc[self] = "z_wk_ret"
                                   ppNotify, ppNC, ppBP, ppDepth, ppAlive, 
                                   ppHeld, inItems, inClosed, inWaker, pollFn, 
                                   chuteFn, pwTaken, nextPoll, ppItem, pjLive, 
-                                  h, dead, sti, rq, sq, sj, rsq, bown, bwk, bi, 
-                                  bcur, bw, bsp, jq, jj, jwk, fj, dq, dj, oq, 
-                                  oop, omode, oj, yq, yop, tq, top, af, wf, 
-                                  wop, sf, sctx, xf, cop, kj, pp, np, nbp, 
-                                  nres, dp, pf, pctx, pq, pj, pd, nq >>
+                                  ppStage, h, dead, sti, rq, sq, sj, rsq, bown, 
+                                  bwk, bi, bcur, bw, bsp, jq, jj, jwk, fj, dq, 
+                                  dj, oq, oop, omode, oj, yq, yop, tq, top, af, 
+                                  wf, wop, sf, sctx, xf, cop, kj, pp, pwk, np, 
+                                  nbp, nres, dp, pf, pctx, pq, pj, pd, nq >>
 
 Wake(self) == wk_lock(self) \/ z_wk_second(self) \/ z_pw_after(self)
                  \/ pw_take(self) \/ z_wk_ret(self)
@@ -1843,11 +1871,11 @@ rb_step(self) == /\ pc[self] = "rb_step"
                                  ppNotify, ppNC, ppBP, ppDepth, ppAlive, 
                                  ppHeld, inItems, inClosed, inWaker, pollFn, 
                                  chuteFn, pwTaken, nextPoll, ppItem, pjLive, 
-                                 stack, dead, sti, rq, sq, sj, ww, rsq, bown, 
-                                 bwk, bw, bsp, jq, jj, jwk, fj, dq, dj, oq, 
-                                 oop, omode, oj, yq, yop, tq, top, af, wf, wop, 
-                                 sf, sctx, xf, cop, kj, pp, np, nbp, nres, dp, 
-                                 pf, pctx, pq, pj, pd, nq >>
+                                 ppStage, stack, dead, sti, rq, sq, sj, ww, 
+                                 rsq, bown, bwk, bw, bsp, jq, jj, jwk, fj, dq, 
+                                 dj, oq, oop, omode, oj, yq, yop, tq, top, af, 
+                                 wf, wop, sf, sctx, xf, cop, kj, pp, pwk, np, 
+                                 nbp, nres, dp, pf, pctx, pq, pj, pd, nq >>
 
 z_finish(self) == /\ pc[self] = "z_finish"
                   /\ IF bown[self] = 0
@@ -1943,11 +1971,11 @@ z_finish(self) == /\ pc[self] = "z_finish"
                                   ppClosed, ppNotify, ppNC, ppBP, ppDepth, 
                                   ppAlive, ppHeld, inItems, inClosed, inWaker, 
                                   pollFn, chuteFn, pwTaken, nextPoll, ppItem, 
-                                  pjLive, dead, sti, rq, sq, sj, ww, jq, jj, 
-                                  jwk, fj, dq, dj, oq, oop, omode, oj, yq, yop, 
-                                  tq, top, af, wf, wop, sf, sctx, xf, cop, kj, 
-                                  pp, np, nbp, nres, dp, pf, pctx, pq, pj, pd, 
-                                  nq >>
+                                  pjLive, ppStage, dead, sti, rq, sq, sj, ww, 
+                                  jq, jj, jwk, fj, dq, dj, oq, oop, omode, oj, 
+                                  yq, yop, tq, top, af, wf, wop, sf, sctx, xf, 
+                                  cop, kj, pp, pwk, np, nbp, nres, dp, pf, 
+                                  pctx, pq, pj, pd, nq >>
 
 z_pollaw(self) == /\ pc[self] = "z_pollaw"
                   /\ IF K(0 - AwItem(bown[self])) = "fsync"
@@ -1987,10 +2015,11 @@ z_pollaw(self) == /\ pc[self] = "z_pollaw"
                                   ppNotify, ppNC, ppBP, ppDepth, ppAlive, 
                                   ppHeld, inItems, inClosed, inWaker, pollFn, 
                                   chuteFn, pwTaken, nextPoll, ppItem, pjLive, 
-                                  h, dead, sti, rq, sq, sj, ww, rsq, bown, bwk, 
-                                  bi, bcur, bw, bsp, jq, jj, jwk, fj, dq, dj, 
-                                  oq, oop, omode, oj, yq, yop, tq, top, af, wf, 
-                                  wop, xf, cop, kj, pp, np, nbp, nres, dp, nq >>
+                                  ppStage, h, dead, sti, rq, sq, sj, ww, rsq, 
+                                  bown, bwk, bi, bcur, bw, bsp, jq, jj, jwk, 
+                                  fj, dq, dj, oq, oop, omode, oj, yq, yop, tq, 
+                                  top, af, wf, wop, xf, cop, kj, pp, pwk, np, 
+                                  nbp, nres, dp, nq >>
 
 z_pollaw_after(self) == /\ pc[self] = "z_pollaw_after"
                         /\ IF rv[self] = 5
@@ -2025,11 +2054,12 @@ z_pollaw_after(self) == /\ pc[self] = "z_pollaw_after"
                                         ppNC, ppBP, ppDepth, ppAlive, ppHeld, 
                                         inItems, inClosed, inWaker, pollFn, 
                                         chuteFn, pwTaken, nextPoll, ppItem, 
-                                        pjLive, dead, sti, rq, sq, sj, ww, jq, 
-                                        jj, jwk, fj, dq, dj, oq, oop, omode, 
-                                        oj, yq, yop, tq, top, af, wf, wop, sf, 
-                                        sctx, xf, cop, kj, pp, np, nbp, nres, 
-                                        dp, pf, pctx, pq, pj, pd, nq >>
+                                        pjLive, ppStage, dead, sti, rq, sq, sj, 
+                                        ww, jq, jj, jwk, fj, dq, dj, oq, oop, 
+                                        omode, oj, yq, yop, tq, top, af, wf, 
+                                        wop, sf, sctx, xf, cop, kj, pp, pwk, 
+                                        np, nbp, nres, dp, pf, pctx, pq, pj, 
+                                        pd, nq >>
 
 rb_block(self) == /\ pc[self] = "rb_block"
                   /\ parkTok[self]
@@ -2047,11 +2077,12 @@ rb_block(self) == /\ pc[self] = "rb_block"
                                   ppNotify, ppNC, ppBP, ppDepth, ppAlive, 
                                   ppHeld, inItems, inClosed, inWaker, pollFn, 
                                   chuteFn, pwTaken, nextPoll, ppItem, pjLive, 
-                                  h, stack, dead, sti, rq, sq, sj, ww, rsq, 
-                                  bown, bwk, bi, bcur, bw, bsp, jq, jj, jwk, 
-                                  fj, dq, dj, oq, oop, omode, oj, yq, yop, tq, 
-                                  top, af, wf, wop, sf, sctx, xf, cop, kj, pp, 
-                                  np, nbp, nres, dp, pf, pctx, pq, pj, pd, nq >>
+                                  ppStage, h, stack, dead, sti, rq, sq, sj, ww, 
+                                  rsq, bown, bwk, bi, bcur, bw, bsp, jq, jj, 
+                                  jwk, fj, dq, dj, oq, oop, omode, oj, yq, yop, 
+                                  tq, top, af, wf, wop, sf, sctx, xf, cop, kj, 
+                                  pp, pwk, np, nbp, nres, dp, pf, pctx, pq, pj, 
+                                  pd, nq >>
 
 z_dispatch(self) == /\ pc[self] = "z_dispatch"
                     /\ IF K(bcur[self]) = "desync"
@@ -2622,10 +2653,10 @@ z_dispatch(self) == /\ pc[self] = "z_dispatch"
                                     dnState, dnWaker, rwb, rneed, dsl, atomic, 
                                     ppPending, ppClosed, ppNotify, ppNC, ppBP, 
                                     ppDepth, ppAlive, ppHeld, pollFn, chuteFn, 
-                                    pwTaken, nextPoll, ppItem, pjLive, dead, 
-                                    sti, rq, rsq, bown, bwk, bi, bcur, jq, jj, 
-                                    jwk, fj, dq, dj, oq, oop, omode, oj, kj, 
-                                    pp, nq >>
+                                    pwTaken, nextPoll, ppItem, pjLive, ppStage, 
+                                    dead, sti, rq, rsq, bown, bwk, bi, bcur, 
+                                    jq, jj, jwk, fj, dq, dj, oq, oop, omode, 
+                                    oj, kj, pp, pwk, nq >>
 
 z_then(self) == /\ pc[self] = "z_then"
                 /\ IF rv[self] = 0 /\ OpTab[bcur[self]].then = "await"
@@ -2657,11 +2688,12 @@ z_then(self) == /\ pc[self] = "z_then"
                                 atomic, strong, ppPending, ppClosed, ppNotify, 
                                 ppNC, ppBP, ppDepth, ppAlive, ppHeld, inItems, 
                                 inClosed, inWaker, pollFn, chuteFn, pwTaken, 
-                                nextPoll, ppItem, pjLive, h, dead, sti, rq, sq, 
-                                sj, ww, rsq, bown, bwk, bi, bcur, bw, bsp, jq, 
-                                jj, jwk, fj, dq, dj, oq, oop, omode, oj, yq, 
-                                yop, tq, top, wf, wop, sf, sctx, cop, kj, pp, 
-                                np, nbp, nres, dp, pf, pctx, pq, pj, pd, nq >>
+                                nextPoll, ppItem, pjLive, ppStage, h, dead, 
+                                sti, rq, sq, sj, ww, rsq, bown, bwk, bi, bcur, 
+                                bw, bsp, jq, jj, jwk, fj, dq, dj, oq, oop, 
+                                omode, oj, yq, yop, tq, top, wf, wop, sf, sctx, 
+                                cop, kj, pp, pwk, np, nbp, nres, dp, pf, pctx, 
+                                pq, pj, pd, nq >>
 
 z_polled(self) == /\ pc[self] = "z_polled"
                   /\ IF rv[self] \in {0, 3, 4}
@@ -2681,11 +2713,12 @@ z_polled(self) == /\ pc[self] = "z_polled"
                                   ppNotify, ppNC, ppBP, ppDepth, ppAlive, 
                                   ppHeld, inItems, inClosed, inWaker, pollFn, 
                                   chuteFn, pwTaken, nextPoll, ppItem, pjLive, 
-                                  stack, dead, sti, rq, sq, sj, ww, rsq, bown, 
-                                  bwk, bi, bcur, bw, bsp, jq, jj, jwk, fj, dq, 
-                                  dj, oq, oop, omode, oj, yq, yop, tq, top, af, 
-                                  wf, wop, sf, sctx, xf, cop, kj, pp, np, nbp, 
-                                  nres, dp, pf, pctx, pq, pj, pd, nq >>
+                                  ppStage, stack, dead, sti, rq, sq, sj, ww, 
+                                  rsq, bown, bwk, bi, bcur, bw, bsp, jq, jj, 
+                                  jwk, fj, dq, dj, oq, oop, omode, oj, yq, yop, 
+                                  tq, top, af, wf, wop, sf, sctx, xf, cop, kj, 
+                                  pp, pwk, np, nbp, nres, dp, pf, pctx, pq, pj, 
+                                  pd, nq >>
 
 pp_setdepth(self) == /\ pc[self] = "pp_setdepth"
                      /\ ppDepth' = [ppDepth EXCEPT ![OpTab[bcur[self]].p] = OpTab[bcur[self]].n]
@@ -2704,12 +2737,12 @@ pp_setdepth(self) == /\ pc[self] = "pp_setdepth"
                                      ppNotify, ppNC, ppBP, ppAlive, ppHeld, 
                                      inItems, inClosed, inWaker, pollFn, 
                                      chuteFn, pwTaken, nextPoll, ppItem, 
-                                     pjLive, h, stack, dead, sti, rq, sq, sj, 
-                                     ww, rsq, bown, bwk, bi, bcur, bw, bsp, jq, 
-                                     jj, jwk, fj, dq, dj, oq, oop, omode, oj, 
-                                     yq, yop, tq, top, af, wf, wop, sf, sctx, 
-                                     xf, cop, kj, pp, np, nbp, nres, dp, pf, 
-                                     pctx, pq, pj, pd, nq >>
+                                     pjLive, ppStage, h, stack, dead, sti, rq, 
+                                     sq, sj, ww, rsq, bown, bwk, bi, bcur, bw, 
+                                     bsp, jq, jj, jwk, fj, dq, dj, oq, oop, 
+                                     omode, oj, yq, yop, tq, top, af, wf, wop, 
+                                     sf, sctx, xf, cop, kj, pp, pwk, np, nbp, 
+                                     nres, dp, pf, pctx, pq, pj, pd, nq >>
 
 z_spur(self) == /\ pc[self] = "z_spur"
                 /\ IF bsp[self] = << >>
@@ -2739,11 +2772,12 @@ z_spur(self) == /\ pc[self] = "z_spur"
                                 strong, ppPending, ppClosed, ppNotify, ppNC, 
                                 ppBP, ppDepth, ppAlive, ppHeld, inItems, 
                                 inClosed, inWaker, pollFn, chuteFn, pwTaken, 
-                                nextPoll, ppItem, pjLive, h, dead, sti, rq, sq, 
-                                sj, rsq, bown, bwk, bi, bcur, jq, jj, jwk, fj, 
-                                dq, dj, oq, oop, omode, oj, yq, yop, tq, top, 
-                                af, wf, wop, sf, sctx, xf, cop, kj, pp, np, 
-                                nbp, nres, dp, pf, pctx, pq, pj, pd, nq >>
+                                nextPoll, ppItem, pjLive, ppStage, h, dead, 
+                                sti, rq, sq, sj, rsq, bown, bwk, bi, bcur, jq, 
+                                jj, jwk, fj, dq, dj, oq, oop, omode, oj, yq, 
+                                yop, tq, top, af, wf, wop, sf, sctx, xf, cop, 
+                                kj, pp, pwk, np, nbp, nres, dp, pf, pctx, pq, 
+                                pj, pd, nq >>
 
 rb_wait(self) == /\ pc[self] = "rb_wait"
                  /\ parkTok[self]
@@ -2764,12 +2798,12 @@ rb_wait(self) == /\ pc[self] = "rb_wait"
                                  strong, ppPending, ppClosed, ppNotify, ppNC, 
                                  ppBP, ppDepth, ppAlive, ppHeld, inItems, 
                                  inClosed, inWaker, pollFn, chuteFn, pwTaken, 
-                                 nextPoll, ppItem, pjLive, h, stack, dead, sti, 
-                                 rq, sq, sj, ww, rsq, bown, bwk, bi, bcur, bw, 
-                                 bsp, jq, jj, jwk, fj, dq, dj, oq, oop, omode, 
-                                 oj, yq, yop, tq, top, af, wf, wop, sf, sctx, 
-                                 xf, cop, kj, pp, np, nbp, nres, dp, pf, pctx, 
-                                 pq, pj, pd, nq >>
+                                 nextPoll, ppItem, pjLive, ppStage, h, stack, 
+                                 dead, sti, rq, sq, sj, ww, rsq, bown, bwk, bi, 
+                                 bcur, bw, bsp, jq, jj, jwk, fj, dq, dj, oq, 
+                                 oop, omode, oj, yq, yop, tq, top, af, wf, wop, 
+                                 sf, sctx, xf, cop, kj, pp, pwk, np, nbp, nres, 
+                                 dp, pf, pctx, pq, pj, pd, nq >>
 
 mx_set(self) == /\ pc[self] = "mx_set"
                 /\ maxThreads' = OpTab[bcur[self]].n
@@ -2787,12 +2821,12 @@ mx_set(self) == /\ pc[self] = "mx_set"
                                 strong, ppPending, ppClosed, ppNotify, ppNC, 
                                 ppBP, ppDepth, ppAlive, ppHeld, inItems, 
                                 inClosed, inWaker, pollFn, chuteFn, pwTaken, 
-                                nextPoll, ppItem, pjLive, stack, dead, sti, rq, 
-                                sq, sj, ww, rsq, bown, bwk, bi, bcur, bw, bsp, 
-                                jq, jj, jwk, fj, dq, dj, oq, oop, omode, oj, 
-                                yq, yop, tq, top, af, wf, wop, sf, sctx, xf, 
-                                cop, kj, pp, np, nbp, nres, dp, pf, pctx, pq, 
-                                pj, pd, nq >>
+                                nextPoll, ppItem, pjLive, ppStage, stack, dead, 
+                                sti, rq, sq, sj, ww, rsq, bown, bwk, bi, bcur, 
+                                bw, bsp, jq, jj, jwk, fj, dq, dj, oq, oop, 
+                                omode, oj, yq, yop, tq, top, af, wf, wop, sf, 
+                                sctx, xf, cop, kj, pp, pwk, np, nbp, nres, dp, 
+                                pf, pctx, pq, pj, pd, nq >>
 
 RunOps(self) == rb_step(self) \/ z_finish(self) \/ z_pollaw(self)
                    \/ z_pollaw_after(self) \/ rb_block(self)
@@ -2823,7 +2857,7 @@ z_rj(self) == /\ pc[self] = "z_rj"
                          /\ pc' = [pc EXCEPT ![self] = "rb_step"]
                          /\ UNCHANGED << gwaker, gwhist, sdres, slotSt, qrSent, 
                                          parkTok, rv, strong, chuteFn, ww, jq, 
-                                         jj, jwk, yq, yop, kj, pp >>
+                                         jj, jwk, yq, yop, kj, pp, pwk >>
                     ELSE /\ IF K(jj[self]) = "fdesync"
                                THEN /\ IF jaw[jj[self]] = 0
                                           THEN /\ h' = ObsStart(h, self, jj[self])
@@ -2890,7 +2924,7 @@ z_rj(self) == /\ pc[self] = "z_rj"
                                                /\ h' = h
                                     /\ UNCHANGED << sdres, slotSt, qrSent, 
                                                     parkTok, strong, chuteFn, 
-                                                    ww, yq, yop, kj, pp >>
+                                                    ww, yq, yop, kj, pp, pwk >>
                                ELSE /\ IF K(jj[self]) = "after"
                                           THEN /\ IF OpTab[jj[self]].g \in gfired
                                                      THEN /\ h' = ObsStart(h, self, jj[self])
@@ -2938,7 +2972,7 @@ z_rj(self) == /\ pc[self] = "z_rj"
                                                                qrSent, parkTok, 
                                                                strong, chuteFn, 
                                                                ww, yq, yop, kj, 
-                                                               pp >>
+                                                               pp, pwk >>
                                           ELSE /\ IF K(jj[self]) \in {"pipe", "pipe_in"}
                                                      THEN /\ IF jkind[jj[self]] = "syncdrain"
                                                                 THEN /\ sdres' = [sdres EXCEPT ![jj[self]] = TRUE]
@@ -2951,6 +2985,7 @@ z_rj(self) == /\ pc[self] = "z_rj"
                                                           /\ jwk' = [jwk EXCEPT ![self] = Head(stack[self]).jwk]
                                                           /\ stack' = [stack EXCEPT ![self] = Tail(stack[self])]
                                                           /\ UNCHANGED << gwaker, 
+                                                                          gwhist, 
                                                                           slotSt, 
                                                                           qrSent, 
                                                                           parkTok, 
@@ -2961,29 +2996,45 @@ z_rj(self) == /\ pc[self] = "z_rj"
                                                                           yq, 
                                                                           yop, 
                                                                           kj, 
-                                                                          pp >>
+                                                                          pp, 
+                                                                          pwk >>
                                                      ELSE /\ IF K(jj[self]) = "pipepoll"
-                                                                THEN /\ /\ kj' = [kj EXCEPT ![self] = jj[self]]
-                                                                        /\ pp' = [pp EXCEPT ![self] = OpTab[jj[self]].p]
-                                                                        /\ stack' = [stack EXCEPT ![self] = << [ procedure |->  "PipePoll",
-                                                                                                                 pc        |->  "z_pp_gc",
-                                                                                                                 kj        |->  kj[self],
-                                                                                                                 pp        |->  pp[self] ] >>
-                                                                                                             \o stack[self]]
-                                                                     /\ pc' = [pc EXCEPT ![self] = "pp_fn"]
-                                                                     /\ UNCHANGED << gwaker, 
-                                                                                     sdres, 
+                                                                THEN /\ IF ppStage[jj[self]] = 1 /\ OpTab[PipeOp(OpTab[jj[self]].p)].g \notin gfired
+                                                                           THEN /\ gwaker' = [gwaker EXCEPT ![OpTab[PipeOp(OpTab[jj[self]].p)].g] = jwk[self]]
+                                                                                /\ gwhist' = [gwhist EXCEPT ![OpTab[PipeOp(OpTab[jj[self]].p)].g] = Append(gwhist[OpTab[PipeOp(OpTab[jj[self]].p)].g], jwk[self])]
+                                                                                /\ rv' = [rv EXCEPT ![self] = 5]
+                                                                                /\ pc' = [pc EXCEPT ![self] = Head(stack[self]).pc]
+                                                                                /\ jq' = [jq EXCEPT ![self] = Head(stack[self]).jq]
+                                                                                /\ jj' = [jj EXCEPT ![self] = Head(stack[self]).jj]
+                                                                                /\ jwk' = [jwk EXCEPT ![self] = Head(stack[self]).jwk]
+                                                                                /\ stack' = [stack EXCEPT ![self] = Tail(stack[self])]
+                                                                                /\ UNCHANGED << kj, 
+                                                                                                pp, 
+                                                                                                pwk >>
+                                                                           ELSE /\ /\ kj' = [kj EXCEPT ![self] = jj[self]]
+                                                                                   /\ pp' = [pp EXCEPT ![self] = OpTab[jj[self]].p]
+                                                                                   /\ pwk' = [pwk EXCEPT ![self] = jwk[self]]
+                                                                                   /\ stack' = [stack EXCEPT ![self] = << [ procedure |->  "PipePoll",
+                                                                                                                            pc        |->  "z_pp_gc",
+                                                                                                                            kj        |->  kj[self],
+                                                                                                                            pp        |->  pp[self],
+                                                                                                                            pwk       |->  pwk[self] ] >>
+                                                                                                                        \o stack[self]]
+                                                                                /\ pc' = [pc EXCEPT ![self] = "z_pp_entry"]
+                                                                                /\ UNCHANGED << gwaker, 
+                                                                                                gwhist, 
+                                                                                                rv, 
+                                                                                                jq, 
+                                                                                                jj, 
+                                                                                                jwk >>
+                                                                     /\ UNCHANGED << sdres, 
                                                                                      slotSt, 
                                                                                      qrSent, 
                                                                                      parkTok, 
-                                                                                     rv, 
                                                                                      strong, 
                                                                                      chuteFn, 
                                                                                      h, 
                                                                                      ww, 
-                                                                                     jq, 
-                                                                                     jj, 
-                                                                                     jwk, 
                                                                                      yq, 
                                                                                      yop >>
                                                                 ELSE /\ IF K(jj[self]) = "chute_dropfn"
@@ -3127,11 +3178,13 @@ z_rj(self) == /\ pc[self] = "z_rj"
                                                                                                            yq, 
                                                                                                            yop >>
                                                                                 /\ UNCHANGED chuteFn
-                                                                     /\ UNCHANGED << kj, 
-                                                                                     pp >>
-                                               /\ UNCHANGED << gwhist, rsq, 
-                                                               bown, bwk, bi, 
-                                                               bcur, bw, bsp >>
+                                                                     /\ UNCHANGED << gwhist, 
+                                                                                     kj, 
+                                                                                     pp, 
+                                                                                     pwk >>
+                                               /\ UNCHANGED << rsq, bown, bwk, 
+                                                               bi, bcur, bw, 
+                                                               bsp >>
               /\ UNCHANGED << qstate, qpoll, jobs, wakeBlocked, schedule, 
                               pthreads, nspawned, palive, busy, busyLocked, 
                               inbox, chanOpen, pfin, thrHeld, maxThreads, 
@@ -3142,10 +3195,10 @@ z_rj(self) == /\ pc[self] = "z_rj"
                               ppPending, ppClosed, ppNotify, ppNC, ppBP, 
                               ppDepth, ppAlive, ppHeld, inItems, inClosed, 
                               inWaker, pollFn, pwTaken, nextPoll, ppItem, 
-                              pjLive, dead, sti, rq, sq, sj, fj, dq, dj, oq, 
-                              oop, omode, oj, tq, top, af, wf, wop, sf, sctx, 
-                              xf, cop, np, nbp, nres, dp, pf, pctx, pq, pj, pd, 
-                              nq >>
+                              pjLive, ppStage, dead, sti, rq, sq, sj, fj, dq, 
+                              dj, oq, oop, omode, oj, tq, top, af, wf, wop, sf, 
+                              sctx, xf, cop, np, nbp, nres, dp, pf, pctx, pq, 
+                              pj, pd, nq >>
 
 z_rj_ret(self) == /\ pc[self] = "z_rj_ret"
                   /\ pc' = [pc EXCEPT ![self] = Head(stack[self]).pc]
@@ -3165,11 +3218,11 @@ z_rj_ret(self) == /\ pc[self] = "z_rj_ret"
                                   ppNotify, ppNC, ppBP, ppDepth, ppAlive, 
                                   ppHeld, inItems, inClosed, inWaker, pollFn, 
                                   chuteFn, pwTaken, nextPoll, ppItem, pjLive, 
-                                  h, dead, sti, rq, sq, sj, ww, rsq, bown, bwk, 
-                                  bi, bcur, bw, bsp, fj, dq, dj, oq, oop, 
-                                  omode, oj, yq, yop, tq, top, af, wf, wop, sf, 
-                                  sctx, xf, cop, kj, pp, np, nbp, nres, dp, pf, 
-                                  pctx, pq, pj, pd, nq >>
+                                  ppStage, h, dead, sti, rq, sq, sj, ww, rsq, 
+                                  bown, bwk, bi, bcur, bw, bsp, fj, dq, dj, oq, 
+                                  oop, omode, oj, yq, yop, tq, top, af, wf, 
+                                  wop, sf, sctx, xf, cop, kj, pp, pwk, np, nbp, 
+                                  nres, dp, pf, pctx, pq, pj, pd, nq >>
 
 z_rj_ok(self) == /\ pc[self] = "z_rj_ok"
                  /\ rv' = [rv EXCEPT ![self] = 0]
@@ -3189,11 +3242,12 @@ z_rj_ok(self) == /\ pc[self] = "z_rj_ok"
                                  atomic, strong, ppPending, ppClosed, ppNotify, 
                                  ppNC, ppBP, ppDepth, ppAlive, ppHeld, inItems, 
                                  inClosed, inWaker, pollFn, chuteFn, pwTaken, 
-                                 nextPoll, ppItem, pjLive, h, dead, sti, rq, 
-                                 sq, sj, ww, rsq, bown, bwk, bi, bcur, bw, bsp, 
-                                 fj, dq, dj, oq, oop, omode, oj, yq, yop, tq, 
-                                 top, af, wf, wop, sf, sctx, xf, cop, kj, pp, 
-                                 np, nbp, nres, dp, pf, pctx, pq, pj, pd, nq >>
+                                 nextPoll, ppItem, pjLive, ppStage, h, dead, 
+                                 sti, rq, sq, sj, ww, rsq, bown, bwk, bi, bcur, 
+                                 bw, bsp, fj, dq, dj, oq, oop, omode, oj, yq, 
+                                 yop, tq, top, af, wf, wop, sf, sctx, xf, cop, 
+                                 kj, pp, pwk, np, nbp, nres, dp, pf, pctx, pq, 
+                                 pj, pd, nq >>
 
 z_pp_gc(self) == /\ pc[self] = "z_pp_gc"
                  /\ IF pollFn[OpTab[jj[self]].p] /\ rv[self] = 0 /\ ~(\/ HoldsCtx(inWaker[OpTab[jj[self]].p])
@@ -3223,11 +3277,12 @@ z_pp_gc(self) == /\ pc[self] = "z_pp_gc"
                                  dsl, atomic, strong, ppPending, ppClosed, 
                                  ppNotify, ppNC, ppBP, ppDepth, ppAlive, 
                                  ppHeld, inItems, inClosed, inWaker, chuteFn, 
-                                 pwTaken, nextPoll, ppItem, dead, sti, rq, sq, 
-                                 sj, ww, rsq, bown, bwk, bi, bcur, bw, bsp, fj, 
-                                 dq, dj, oq, oop, omode, oj, yq, yop, tq, top, 
-                                 af, wf, wop, sf, sctx, xf, cop, kj, pp, np, 
-                                 nbp, nres, dp, pf, pctx, pq, pj, pd, nq >>
+                                 pwTaken, nextPoll, ppItem, ppStage, dead, sti, 
+                                 rq, sq, sj, ww, rsq, bown, bwk, bi, bcur, bw, 
+                                 bsp, fj, dq, dj, oq, oop, omode, oj, yq, yop, 
+                                 tq, top, af, wf, wop, sf, sctx, xf, cop, kj, 
+                                 pp, pwk, np, nbp, nres, dp, pf, pctx, pq, pj, 
+                                 pd, nq >>
 
 z_slot2(self) == /\ pc[self] = "z_slot2"
                  /\ IF dnState[jj[self]] # "open"
@@ -3256,11 +3311,12 @@ z_slot2(self) == /\ pc[self] = "z_slot2"
                                  strong, ppPending, ppClosed, ppNotify, ppNC, 
                                  ppBP, ppDepth, ppAlive, ppHeld, inItems, 
                                  inClosed, inWaker, pollFn, chuteFn, pwTaken, 
-                                 nextPoll, ppItem, pjLive, h, dead, sti, rq, 
-                                 sq, sj, ww, rsq, bown, bwk, bi, bcur, bw, bsp, 
-                                 fj, dq, dj, oq, oop, omode, oj, yq, yop, tq, 
-                                 top, af, wf, wop, sf, sctx, xf, cop, kj, pp, 
-                                 np, nbp, nres, dp, pf, pctx, pq, pj, pd, nq >>
+                                 nextPoll, ppItem, pjLive, ppStage, h, dead, 
+                                 sti, rq, sq, sj, ww, rsq, bown, bwk, bi, bcur, 
+                                 bw, bsp, fj, dq, dj, oq, oop, omode, oj, yq, 
+                                 yop, tq, top, af, wf, wop, sf, sctx, xf, cop, 
+                                 kj, pp, pwk, np, nbp, nres, dp, pf, pctx, pq, 
+                                 pj, pd, nq >>
 
 sus_signal(self) == /\ pc[self] = "sus_signal"
                     /\ LET w == fwaker[jj[self]] IN
@@ -3289,12 +3345,12 @@ sus_signal(self) == /\ pc[self] = "sus_signal"
                                     ppClosed, ppNotify, ppNC, ppBP, ppDepth, 
                                     ppAlive, ppHeld, inItems, inClosed, 
                                     inWaker, pollFn, chuteFn, pwTaken, 
-                                    nextPoll, ppItem, pjLive, h, dead, sti, rq, 
-                                    sq, sj, rsq, bown, bwk, bi, bcur, bw, bsp, 
-                                    jq, jj, jwk, fj, dq, dj, oq, oop, omode, 
-                                    oj, yq, yop, tq, top, af, wf, wop, sf, 
-                                    sctx, xf, cop, kj, pp, np, nbp, nres, dp, 
-                                    pf, pctx, pq, pj, pd, nq >>
+                                    nextPoll, ppItem, pjLive, ppStage, h, dead, 
+                                    sti, rq, sq, sj, rsq, bown, bwk, bi, bcur, 
+                                    bw, bsp, jq, jj, jwk, fj, dq, dj, oq, oop, 
+                                    omode, oj, yq, yop, tq, top, af, wf, wop, 
+                                    sf, sctx, xf, cop, kj, pp, pwk, np, nbp, 
+                                    nres, dp, pf, pctx, pq, pj, pd, nq >>
 
 sus_sigdrop(self) == /\ pc[self] = "sus_sigdrop"
                      /\ jaw' = [jaw EXCEPT ![jj[self]] = 1]
@@ -3321,11 +3377,12 @@ sus_sigdrop(self) == /\ pc[self] = "sus_sigdrop"
                                      ppNC, ppBP, ppDepth, ppAlive, ppHeld, 
                                      inItems, inClosed, inWaker, pollFn, 
                                      chuteFn, pwTaken, nextPoll, ppItem, 
-                                     pjLive, h, dead, sti, rq, sq, sj, ww, rsq, 
-                                     bown, bwk, bi, bcur, bw, bsp, fj, dq, dj, 
-                                     oq, oop, omode, oj, yq, yop, tq, top, af, 
-                                     wf, wop, sf, sctx, xf, cop, kj, pp, np, 
-                                     nbp, nres, dp, pf, pctx, pq, pj, pd, nq >>
+                                     pjLive, ppStage, h, dead, sti, rq, sq, sj, 
+                                     ww, rsq, bown, bwk, bi, bcur, bw, bsp, fj, 
+                                     dq, dj, oq, oop, omode, oj, yq, yop, tq, 
+                                     top, af, wf, wop, sf, sctx, xf, cop, kj, 
+                                     pp, pwk, np, nbp, nres, dp, pf, pctx, pq, 
+                                     pj, pd, nq >>
 
 sus_inner(self) == /\ pc[self] = "sus_inner"
                    /\ TRUE
@@ -3342,12 +3399,12 @@ sus_inner(self) == /\ pc[self] = "sus_inner"
                                    strong, ppPending, ppClosed, ppNotify, ppNC, 
                                    ppBP, ppDepth, ppAlive, ppHeld, inItems, 
                                    inClosed, inWaker, pollFn, chuteFn, pwTaken, 
-                                   nextPoll, ppItem, pjLive, h, stack, dead, 
-                                   sti, rq, sq, sj, ww, rsq, bown, bwk, bi, 
-                                   bcur, bw, bsp, jq, jj, jwk, fj, dq, dj, oq, 
-                                   oop, omode, oj, yq, yop, tq, top, af, wf, 
-                                   wop, sf, sctx, xf, cop, kj, pp, np, nbp, 
-                                   nres, dp, pf, pctx, pq, pj, pd, nq >>
+                                   nextPoll, ppItem, pjLive, ppStage, h, stack, 
+                                   dead, sti, rq, sq, sj, ww, rsq, bown, bwk, 
+                                   bi, bcur, bw, bsp, jq, jj, jwk, fj, dq, dj, 
+                                   oq, oop, omode, oj, yq, yop, tq, top, af, 
+                                   wf, wop, sf, sctx, xf, cop, kj, pp, pwk, np, 
+                                   nbp, nres, dp, pf, pctx, pq, pj, pd, nq >>
 
 sus_innerdrop(self) == /\ pc[self] = "sus_innerdrop"
                        /\ rv' = [rv EXCEPT ![self] = 0]
@@ -3370,12 +3427,12 @@ sus_innerdrop(self) == /\ pc[self] = "sus_innerdrop"
                                        ppNC, ppBP, ppDepth, ppAlive, ppHeld, 
                                        inItems, inClosed, inWaker, pollFn, 
                                        chuteFn, pwTaken, nextPoll, ppItem, 
-                                       pjLive, h, dead, sti, rq, sq, sj, ww, 
-                                       rsq, bown, bwk, bi, bcur, bw, bsp, fj, 
-                                       dq, dj, oq, oop, omode, oj, yq, yop, tq, 
-                                       top, af, wf, wop, sf, sctx, xf, cop, kj, 
-                                       pp, np, nbp, nres, dp, pf, pctx, pq, pj, 
-                                       pd, nq >>
+                                       pjLive, ppStage, h, dead, sti, rq, sq, 
+                                       sj, ww, rsq, bown, bwk, bi, bcur, bw, 
+                                       bsp, fj, dq, dj, oq, oop, omode, oj, yq, 
+                                       yop, tq, top, af, wf, wop, sf, sctx, xf, 
+                                       cop, kj, pp, pwk, np, nbp, nres, dp, pf, 
+                                       pctx, pq, pj, pd, nq >>
 
 ws_take(self) == /\ pc[self] = "ws_take"
                  /\ IF fres[OpTab[jj[self]].f] = "some"
@@ -3406,11 +3463,12 @@ ws_take(self) == /\ pc[self] = "ws_take"
                                  strong, ppPending, ppClosed, ppNotify, ppNC, 
                                  ppBP, ppDepth, ppAlive, ppHeld, inItems, 
                                  inClosed, inWaker, pollFn, chuteFn, pwTaken, 
-                                 nextPoll, ppItem, pjLive, h, dead, sti, rq, 
-                                 sq, sj, ww, rsq, bown, bwk, bi, bcur, bw, bsp, 
-                                 fj, dq, dj, oq, oop, omode, oj, yq, yop, tq, 
-                                 top, af, wf, wop, sf, sctx, xf, cop, kj, pp, 
-                                 np, nbp, nres, dp, pf, pctx, pq, pj, pd, nq >>
+                                 nextPoll, ppItem, pjLive, ppStage, h, dead, 
+                                 sti, rq, sq, sj, ww, rsq, bown, bwk, bi, bcur, 
+                                 bw, bsp, fj, dq, dj, oq, oop, omode, oj, yq, 
+                                 yop, tq, top, af, wf, wop, sf, sctx, xf, cop, 
+                                 kj, pp, pwk, np, nbp, nres, dp, pf, pctx, pq, 
+                                 pj, pd, nq >>
 
 RunJob(self) == z_rj(self) \/ z_rj_ret(self) \/ z_rj_ok(self)
                    \/ z_pp_gc(self) \/ z_slot2(self) \/ sus_signal(self)
@@ -3451,11 +3509,12 @@ fj_lock(self) == /\ pc[self] = "fj_lock"
                                  ppClosed, ppNotify, ppNC, ppBP, ppDepth, 
                                  ppAlive, ppHeld, inItems, inClosed, inWaker, 
                                  pollFn, chuteFn, pwTaken, nextPoll, ppItem, 
-                                 pjLive, h, dead, sti, rq, sq, sj, rsq, bown, 
-                                 bwk, bi, bcur, bw, bsp, jq, jj, jwk, dq, dj, 
-                                 oq, oop, omode, oj, yq, yop, tq, top, af, wf, 
-                                 wop, sf, sctx, xf, cop, kj, pp, np, nbp, nres, 
-                                 dp, pf, pctx, pq, pj, pd, nq >>
+                                 pjLive, ppStage, h, dead, sti, rq, sq, sj, 
+                                 rsq, bown, bwk, bi, bcur, bw, bsp, jq, jj, 
+                                 jwk, dq, dj, oq, oop, omode, oj, yq, yop, tq, 
+                                 top, af, wf, wop, sf, sctx, xf, cop, kj, pp, 
+                                 pwk, np, nbp, nres, dp, pf, pctx, pq, pj, pd, 
+                                 nq >>
 
 z_fj_chk(self) == /\ pc[self] = "z_fj_chk"
                   /\ IF jpanic[fj[self]] /\ jkind[fj[self]] = "fut"
@@ -3476,11 +3535,11 @@ z_fj_chk(self) == /\ pc[self] = "z_fj_chk"
                                   ppNotify, ppNC, ppBP, ppDepth, ppAlive, 
                                   ppHeld, inItems, inClosed, inWaker, pollFn, 
                                   chuteFn, pwTaken, nextPoll, ppItem, pjLive, 
-                                  h, dead, sti, rq, sq, sj, ww, rsq, bown, bwk, 
-                                  bi, bcur, bw, bsp, jq, jj, jwk, dq, dj, oq, 
-                                  oop, omode, oj, yq, yop, tq, top, af, wf, 
-                                  wop, sf, sctx, xf, cop, kj, pp, np, nbp, 
-                                  nres, dp, pf, pctx, pq, pj, pd, nq >>
+                                  ppStage, h, dead, sti, rq, sq, sj, ww, rsq, 
+                                  bown, bwk, bi, bcur, bw, bsp, jq, jj, jwk, 
+                                  dq, dj, oq, oop, omode, oj, yq, yop, tq, top, 
+                                  af, wf, wop, sf, sctx, xf, cop, kj, pp, pwk, 
+                                  np, nbp, nres, dp, pf, pctx, pq, pj, pd, nq >>
 
 fj_sigdrop(self) == /\ pc[self] = "fj_sigdrop"
                     /\ pc' = [pc EXCEPT ![self] = Head(stack[self]).pc]
@@ -3499,11 +3558,12 @@ fj_sigdrop(self) == /\ pc[self] = "fj_sigdrop"
                                     ppNC, ppBP, ppDepth, ppAlive, ppHeld, 
                                     inItems, inClosed, inWaker, pollFn, 
                                     chuteFn, pwTaken, nextPoll, ppItem, pjLive, 
-                                    h, dead, sti, rq, sq, sj, ww, rsq, bown, 
-                                    bwk, bi, bcur, bw, bsp, jq, jj, jwk, dq, 
-                                    dj, oq, oop, omode, oj, yq, yop, tq, top, 
-                                    af, wf, wop, sf, sctx, xf, cop, kj, pp, np, 
-                                    nbp, nres, dp, pf, pctx, pq, pj, pd, nq >>
+                                    ppStage, h, dead, sti, rq, sq, sj, ww, rsq, 
+                                    bown, bwk, bi, bcur, bw, bsp, jq, jj, jwk, 
+                                    dq, dj, oq, oop, omode, oj, yq, yop, tq, 
+                                    top, af, wf, wop, sf, sctx, xf, cop, kj, 
+                                    pp, pwk, np, nbp, nres, dp, pf, pctx, pq, 
+                                    pj, pd, nq >>
 
 FinishJob(self) == fj_lock(self) \/ z_fj_chk(self) \/ fj_sigdrop(self)
 
@@ -3534,11 +3594,12 @@ pd_deq(self) == /\ pc[self] = "pd_deq"
                                 strong, ppPending, ppClosed, ppNotify, ppNC, 
                                 ppBP, ppDepth, ppAlive, ppHeld, inItems, 
                                 inClosed, inWaker, pollFn, chuteFn, pwTaken, 
-                                nextPoll, ppItem, pjLive, h, dead, sti, rq, sq, 
-                                sj, ww, rsq, bown, bwk, bi, bcur, bw, bsp, fj, 
-                                dq, oq, oop, omode, oj, yq, yop, tq, top, af, 
-                                wf, wop, sf, sctx, xf, cop, kj, pp, np, nbp, 
-                                nres, dp, pf, pctx, pq, pj, pd, nq >>
+                                nextPoll, ppItem, pjLive, ppStage, h, dead, 
+                                sti, rq, sq, sj, ww, rsq, bown, bwk, bi, bcur, 
+                                bw, bsp, fj, dq, oq, oop, omode, oj, yq, yop, 
+                                tq, top, af, wf, wop, sf, sctx, xf, cop, kj, 
+                                pp, pwk, np, nbp, nres, dp, pf, pctx, pq, pj, 
+                                pd, nq >>
 
 z_pd_after(self) == /\ pc[self] = "z_pd_after"
                     /\ IF rv[self] = 5
@@ -3576,11 +3637,12 @@ z_pd_after(self) == /\ pc[self] = "z_pd_after"
                                     ppNC, ppBP, ppDepth, ppAlive, ppHeld, 
                                     inItems, inClosed, inWaker, pollFn, 
                                     chuteFn, pwTaken, nextPoll, ppItem, pjLive, 
-                                    h, dead, sti, rq, sq, sj, ww, rsq, bown, 
-                                    bwk, bi, bcur, bw, bsp, jq, jj, jwk, dq, 
-                                    dj, oq, oop, omode, oj, yq, yop, tq, top, 
-                                    af, wf, wop, sf, sctx, xf, cop, kj, pp, np, 
-                                    nbp, nres, dp, pf, pctx, pq, pj, pd, nq >>
+                                    ppStage, h, dead, sti, rq, sq, sj, ww, rsq, 
+                                    bown, bwk, bi, bcur, bw, bsp, jq, jj, jwk, 
+                                    dq, dj, oq, oop, omode, oj, yq, yop, tq, 
+                                    top, af, wf, wop, sf, sctx, xf, cop, kj, 
+                                    pp, pwk, np, nbp, nres, dp, pf, pctx, pq, 
+                                    pj, pd, nq >>
 
 pd_requeue(self) == /\ pc[self] = "pd_requeue"
                     /\ jobs' = [jobs EXCEPT ![dq[self]] = << dj[self] >> \o jobs[dq[self]]]
@@ -3598,12 +3660,12 @@ pd_requeue(self) == /\ pc[self] = "pd_requeue"
                                     ppNC, ppBP, ppDepth, ppAlive, ppHeld, 
                                     inItems, inClosed, inWaker, pollFn, 
                                     chuteFn, pwTaken, nextPoll, ppItem, pjLive, 
-                                    h, stack, dead, sti, rq, sq, sj, ww, rsq, 
-                                    bown, bwk, bi, bcur, bw, bsp, jq, jj, jwk, 
-                                    fj, dq, dj, oq, oop, omode, oj, yq, yop, 
-                                    tq, top, af, wf, wop, sf, sctx, xf, cop, 
-                                    kj, pp, np, nbp, nres, dp, pf, pctx, pq, 
-                                    pj, pd, nq >>
+                                    ppStage, h, stack, dead, sti, rq, sq, sj, 
+                                    ww, rsq, bown, bwk, bi, bcur, bw, bsp, jq, 
+                                    jj, jwk, fj, dq, dj, oq, oop, omode, oj, 
+                                    yq, yop, tq, top, af, wf, wop, sf, sctx, 
+                                    xf, cop, kj, pp, pwk, np, nbp, nres, dp, 
+                                    pf, pctx, pq, pj, pd, nq >>
 
 pd_park(self) == /\ pc[self] = "pd_park"
                  /\ IF qstate[dq[self]] = "Running"
@@ -3630,12 +3692,12 @@ pd_park(self) == /\ pc[self] = "pd_park"
                                  atomic, strong, ppPending, ppClosed, ppNotify, 
                                  ppNC, ppBP, ppDepth, ppAlive, ppHeld, inItems, 
                                  inClosed, inWaker, pollFn, chuteFn, pwTaken, 
-                                 nextPoll, ppItem, pjLive, h, dead, sti, rq, 
-                                 sq, sj, ww, rsq, bown, bwk, bi, bcur, bw, bsp, 
-                                 jq, jj, jwk, fj, oq, oop, omode, oj, yq, yop, 
-                                 tq, top, af, wf, wop, sf, sctx, xf, cop, kj, 
-                                 pp, np, nbp, nres, dp, pf, pctx, pq, pj, pd, 
-                                 nq >>
+                                 nextPoll, ppItem, pjLive, ppStage, h, dead, 
+                                 sti, rq, sq, sj, ww, rsq, bown, bwk, bi, bcur, 
+                                 bw, bsp, jq, jj, jwk, fj, oq, oop, omode, oj, 
+                                 yq, yop, tq, top, af, wf, wop, sf, sctx, xf, 
+                                 cop, kj, pp, pwk, np, nbp, nres, dp, pf, pctx, 
+                                 pq, pj, pd, nq >>
 
 pd_end(self) == /\ pc[self] = "pd_end"
                 /\ IF jobs[dq[self]] = << >>
@@ -3668,11 +3730,12 @@ pd_end(self) == /\ pc[self] = "pd_end"
                                 strong, ppPending, ppClosed, ppNotify, ppNC, 
                                 ppBP, ppDepth, ppAlive, ppHeld, inItems, 
                                 inClosed, inWaker, pollFn, chuteFn, pwTaken, 
-                                nextPoll, ppItem, pjLive, h, dead, sti, rq, sq, 
-                                sj, ww, rsq, bown, bwk, bi, bcur, bw, bsp, jq, 
-                                jj, jwk, fj, oq, oop, omode, oj, yq, yop, tq, 
-                                top, af, wf, wop, sf, sctx, xf, cop, kj, pp, 
-                                np, nbp, nres, dp, pf, pctx, pq, pj, pd, nq >>
+                                nextPoll, ppItem, pjLive, ppStage, h, dead, 
+                                sti, rq, sq, sj, ww, rsq, bown, bwk, bi, bcur, 
+                                bw, bsp, jq, jj, jwk, fj, oq, oop, omode, oj, 
+                                yq, yop, tq, top, af, wf, wop, sf, sctx, xf, 
+                                cop, kj, pp, pwk, np, nbp, nres, dp, pf, pctx, 
+                                pq, pj, pd, nq >>
 
 pd_panic(self) == /\ pc[self] = "pd_panic"
                   /\ qstate' = [qstate EXCEPT ![dq[self]] = "Panicked"]
@@ -3693,11 +3756,11 @@ pd_panic(self) == /\ pc[self] = "pd_panic"
                                   ppNotify, ppNC, ppBP, ppDepth, ppAlive, 
                                   ppHeld, inItems, inClosed, inWaker, pollFn, 
                                   chuteFn, pwTaken, nextPoll, ppItem, pjLive, 
-                                  h, dead, sti, rq, sq, sj, ww, rsq, bown, bwk, 
-                                  bi, bcur, bw, bsp, jq, jj, jwk, fj, oq, oop, 
-                                  omode, oj, yq, yop, tq, top, af, wf, wop, sf, 
-                                  sctx, xf, cop, kj, pp, np, nbp, nres, dp, pf, 
-                                  pctx, pq, pj, pd, nq >>
+                                  ppStage, h, dead, sti, rq, sq, sj, ww, rsq, 
+                                  bown, bwk, bi, bcur, bw, bsp, jq, jj, jwk, 
+                                  fj, oq, oop, omode, oj, yq, yop, tq, top, af, 
+                                  wf, wop, sf, sctx, xf, cop, kj, pp, pwk, np, 
+                                  nbp, nres, dp, pf, pctx, pq, pj, pd, nq >>
 
 PoolDrain(self) == pd_deq(self) \/ z_pd_after(self) \/ pd_requeue(self)
                       \/ pd_park(self) \/ pd_end(self) \/ pd_panic(self)
@@ -3740,11 +3803,11 @@ ro_deq(self) == /\ pc[self] = "ro_deq"
                                 strong, ppPending, ppClosed, ppNotify, ppNC, 
                                 ppBP, ppDepth, ppAlive, ppHeld, inItems, 
                                 inClosed, inWaker, pollFn, chuteFn, pwTaken, 
-                                nextPoll, ppItem, pjLive, h, dead, sti, rq, sq, 
-                                sj, ww, rsq, bown, bwk, bi, bcur, bw, bsp, fj, 
-                                dq, dj, yq, yop, tq, top, af, wf, wop, sf, 
-                                sctx, xf, cop, kj, pp, np, nbp, nres, dp, pf, 
-                                pctx, pq, pj, pd, nq >>
+                                nextPoll, ppItem, pjLive, ppStage, h, dead, 
+                                sti, rq, sq, sj, ww, rsq, bown, bwk, bi, bcur, 
+                                bw, bsp, fj, dq, dj, yq, yop, tq, top, af, wf, 
+                                wop, sf, sctx, xf, cop, kj, pp, pwk, np, nbp, 
+                                nres, dp, pf, pctx, pq, pj, pd, nq >>
 
 z_ro_after(self) == /\ pc[self] = "z_ro_after"
                     /\ IF rv[self] = 5
@@ -3782,11 +3845,12 @@ z_ro_after(self) == /\ pc[self] = "z_ro_after"
                                     ppNC, ppBP, ppDepth, ppAlive, ppHeld, 
                                     inItems, inClosed, inWaker, pollFn, 
                                     chuteFn, pwTaken, nextPoll, ppItem, pjLive, 
-                                    h, dead, sti, rq, sq, sj, ww, rsq, bown, 
-                                    bwk, bi, bcur, bw, bsp, jq, jj, jwk, dq, 
-                                    dj, oq, oop, omode, oj, yq, yop, tq, top, 
-                                    af, wf, wop, sf, sctx, xf, cop, kj, pp, np, 
-                                    nbp, nres, dp, pf, pctx, pq, pj, pd, nq >>
+                                    ppStage, h, dead, sti, rq, sq, sj, ww, rsq, 
+                                    bown, bwk, bi, bcur, bw, bsp, jq, jj, jwk, 
+                                    dq, dj, oq, oop, omode, oj, yq, yop, tq, 
+                                    top, af, wf, wop, sf, sctx, xf, cop, kj, 
+                                    pp, pwk, np, nbp, nres, dp, pf, pctx, pq, 
+                                    pj, pd, nq >>
 
 z_ro_done(self) == /\ pc[self] = "z_ro_done"
                    /\ IF omode[self] = "sd" /\ ~sdres[oop[self]]
@@ -3811,11 +3875,12 @@ z_ro_done(self) == /\ pc[self] = "z_ro_done"
                                    ppPending, ppClosed, ppNotify, ppNC, ppBP, 
                                    ppDepth, ppAlive, ppHeld, inItems, inClosed, 
                                    inWaker, pollFn, chuteFn, pwTaken, nextPoll, 
-                                   ppItem, pjLive, h, dead, sti, rq, sq, sj, 
-                                   ww, rsq, bown, bwk, bi, bcur, bw, bsp, jq, 
-                                   jj, jwk, fj, dq, dj, yq, yop, tq, top, af, 
-                                   wf, wop, sf, sctx, xf, cop, kj, pp, np, nbp, 
-                                   nres, dp, pf, pctx, pq, pj, pd, nq >>
+                                   ppItem, pjLive, ppStage, h, dead, sti, rq, 
+                                   sq, sj, ww, rsq, bown, bwk, bi, bcur, bw, 
+                                   bsp, jq, jj, jwk, fj, dq, dj, yq, yop, tq, 
+                                   top, af, wf, wop, sf, sctx, xf, cop, kj, pp, 
+                                   pwk, np, nbp, nres, dp, pf, pctx, pq, pj, 
+                                   pd, nq >>
 
 z_ro_panic(self) == /\ pc[self] = "z_ro_panic"
                     /\ rv' = [rv EXCEPT ![self] = 9]
@@ -3837,12 +3902,12 @@ z_ro_panic(self) == /\ pc[self] = "z_ro_panic"
                                     ppPending, ppClosed, ppNotify, ppNC, ppBP, 
                                     ppDepth, ppAlive, ppHeld, inItems, 
                                     inClosed, inWaker, pollFn, chuteFn, 
-                                    pwTaken, nextPoll, ppItem, pjLive, h, dead, 
-                                    sti, rq, sq, sj, ww, rsq, bown, bwk, bi, 
-                                    bcur, bw, bsp, jq, jj, jwk, fj, dq, dj, yq, 
-                                    yop, tq, top, af, wf, wop, sf, sctx, xf, 
-                                    cop, kj, pp, np, nbp, nres, dp, pf, pctx, 
-                                    pq, pj, pd, nq >>
+                                    pwTaken, nextPoll, ppItem, pjLive, ppStage, 
+                                    h, dead, sti, rq, sq, sj, ww, rsq, bown, 
+                                    bwk, bi, bcur, bw, bsp, jq, jj, jwk, fj, 
+                                    dq, dj, yq, yop, tq, top, af, wf, wop, sf, 
+                                    sctx, xf, cop, kj, pp, pwk, np, nbp, nres, 
+                                    dp, pf, pctx, pq, pj, pd, nq >>
 
 ro_park(self) == /\ pc[self] = "ro_park"
                  /\ IF qstate[oq[self]] = "AwokenWhileRunning"
@@ -3858,7 +3923,7 @@ ro_park(self) == /\ pc[self] = "ro_park"
                                                                     \o stack[self]]
                             /\ pc' = [pc EXCEPT ![self] = "z_rj"]
                        ELSE /\ Assert(qstate[oq[self]] = "Running", 
-                                      "Failure of assertion at line 579, column 5.")
+                                      "Failure of assertion at line 587, column 5.")
                             /\ qstate' = [qstate EXCEPT ![oq[self]] = "WaitingForUnpark"]
                             /\ pc' = [pc EXCEPT ![self] = "ro_check"]
                             /\ UNCHANGED << stack, jq, jj, jwk >>
@@ -3873,12 +3938,12 @@ ro_park(self) == /\ pc[self] = "ro_park"
                                  dsl, atomic, strong, ppPending, ppClosed, 
                                  ppNotify, ppNC, ppBP, ppDepth, ppAlive, 
                                  ppHeld, inItems, inClosed, inWaker, pollFn, 
-                                 chuteFn, pwTaken, nextPoll, ppItem, pjLive, h, 
-                                 dead, sti, rq, sq, sj, ww, rsq, bown, bwk, bi, 
-                                 bcur, bw, bsp, fj, dq, dj, oq, oop, omode, oj, 
-                                 yq, yop, tq, top, af, wf, wop, sf, sctx, xf, 
-                                 cop, kj, pp, np, nbp, nres, dp, pf, pctx, pq, 
-                                 pj, pd, nq >>
+                                 chuteFn, pwTaken, nextPoll, ppItem, pjLive, 
+                                 ppStage, h, dead, sti, rq, sq, sj, ww, rsq, 
+                                 bown, bwk, bi, bcur, bw, bsp, fj, dq, dj, oq, 
+                                 oop, omode, oj, yq, yop, tq, top, af, wf, wop, 
+                                 sf, sctx, xf, cop, kj, pp, pwk, np, nbp, nres, 
+                                 dp, pf, pctx, pq, pj, pd, nq >>
 
 ro_check(self) == /\ pc[self] = "ro_check"
                   /\ IF qstate[oq[self]] \in {"Running", "AwokenWhileRunning"}
@@ -3893,7 +3958,7 @@ ro_check(self) == /\ pc[self] = "ro_check"
                                                                      \o stack[self]]
                              /\ pc' = [pc EXCEPT ![self] = "z_rj"]
                         ELSE /\ Assert(qstate[oq[self]] = "WaitingForUnpark", 
-                                       "Failure of assertion at line 586, column 12.")
+                                       "Failure of assertion at line 594, column 12.")
                              /\ pc' = [pc EXCEPT ![self] = "ro_parked"]
                              /\ UNCHANGED << stack, jq, jj, jwk >>
                   /\ UNCHANGED << qstate, qpoll, jobs, wakeBlocked, schedule, 
@@ -3908,11 +3973,11 @@ ro_check(self) == /\ pc[self] = "ro_check"
                                   ppNotify, ppNC, ppBP, ppDepth, ppAlive, 
                                   ppHeld, inItems, inClosed, inWaker, pollFn, 
                                   chuteFn, pwTaken, nextPoll, ppItem, pjLive, 
-                                  h, dead, sti, rq, sq, sj, ww, rsq, bown, bwk, 
-                                  bi, bcur, bw, bsp, fj, dq, dj, oq, oop, 
-                                  omode, oj, yq, yop, tq, top, af, wf, wop, sf, 
-                                  sctx, xf, cop, kj, pp, np, nbp, nres, dp, pf, 
-                                  pctx, pq, pj, pd, nq >>
+                                  ppStage, h, dead, sti, rq, sq, sj, ww, rsq, 
+                                  bown, bwk, bi, bcur, bw, bsp, fj, dq, dj, oq, 
+                                  oop, omode, oj, yq, yop, tq, top, af, wf, 
+                                  wop, sf, sctx, xf, cop, kj, pp, pwk, np, nbp, 
+                                  nres, dp, pf, pctx, pq, pj, pd, nq >>
 
 ro_parked(self) == /\ pc[self] = "ro_parked"
                    /\ parkTok[self]
@@ -3931,12 +3996,12 @@ ro_parked(self) == /\ pc[self] = "ro_parked"
                                    ppPending, ppClosed, ppNotify, ppNC, ppBP, 
                                    ppDepth, ppAlive, ppHeld, inItems, inClosed, 
                                    inWaker, pollFn, chuteFn, pwTaken, nextPoll, 
-                                   ppItem, pjLive, stack, dead, sti, rq, sq, 
-                                   sj, ww, rsq, bown, bwk, bi, bcur, bw, bsp, 
-                                   jq, jj, jwk, fj, dq, dj, oq, oop, omode, oj, 
-                                   yq, yop, tq, top, af, wf, wop, sf, sctx, xf, 
-                                   cop, kj, pp, np, nbp, nres, dp, pf, pctx, 
-                                   pq, pj, pd, nq >>
+                                   ppItem, pjLive, ppStage, stack, dead, sti, 
+                                   rq, sq, sj, ww, rsq, bown, bwk, bi, bcur, 
+                                   bw, bsp, jq, jj, jwk, fj, dq, dj, oq, oop, 
+                                   omode, oj, yq, yop, tq, top, af, wf, wop, 
+                                   sf, sctx, xf, cop, kj, pp, pwk, np, nbp, 
+                                   nres, dp, pf, pctx, pq, pj, pd, nq >>
 
 RunOne(self) == ro_deq(self) \/ z_ro_after(self) \/ z_ro_done(self)
                    \/ z_ro_panic(self) \/ ro_park(self) \/ ro_check(self)
@@ -3993,11 +4058,12 @@ sy_decide(self) == /\ pc[self] = "sy_decide"
                                    ppPending, ppClosed, ppNotify, ppNC, ppBP, 
                                    ppDepth, ppAlive, ppHeld, inItems, inClosed, 
                                    inWaker, pollFn, chuteFn, pwTaken, nextPoll, 
-                                   ppItem, pjLive, h, dead, sti, rq, sq, sj, 
-                                   ww, rsq, bown, bwk, bi, bcur, bw, bsp, fj, 
-                                   dq, dj, oq, oop, omode, oj, tq, top, af, wf, 
-                                   wop, sf, sctx, xf, cop, kj, pp, np, nbp, 
-                                   nres, dp, pf, pctx, pq, pj, pd, nq >>
+                                   ppItem, pjLive, ppStage, h, dead, sti, rq, 
+                                   sq, sj, ww, rsq, bown, bwk, bi, bcur, bw, 
+                                   bsp, fj, dq, dj, oq, oop, omode, oj, tq, 
+                                   top, af, wf, wop, sf, sctx, xf, cop, kj, pp, 
+                                   pwk, np, nbp, nres, dp, pf, pctx, pq, pj, 
+                                   pd, nq >>
 
 z_si_chk(self) == /\ pc[self] = "z_si_chk"
                   /\ IF rv[self] = 9
@@ -4015,11 +4081,12 @@ z_si_chk(self) == /\ pc[self] = "z_si_chk"
                                   ppNotify, ppNC, ppBP, ppDepth, ppAlive, 
                                   ppHeld, inItems, inClosed, inWaker, pollFn, 
                                   chuteFn, pwTaken, nextPoll, ppItem, pjLive, 
-                                  h, stack, dead, sti, rq, sq, sj, ww, rsq, 
-                                  bown, bwk, bi, bcur, bw, bsp, jq, jj, jwk, 
-                                  fj, dq, dj, oq, oop, omode, oj, yq, yop, tq, 
-                                  top, af, wf, wop, sf, sctx, xf, cop, kj, pp, 
-                                  np, nbp, nres, dp, pf, pctx, pq, pj, pd, nq >>
+                                  ppStage, h, stack, dead, sti, rq, sq, sj, ww, 
+                                  rsq, bown, bwk, bi, bcur, bw, bsp, jq, jj, 
+                                  jwk, fj, dq, dj, oq, oop, omode, oj, yq, yop, 
+                                  tq, top, af, wf, wop, sf, sctx, xf, cop, kj, 
+                                  pp, pwk, np, nbp, nres, dp, pf, pctx, pq, pj, 
+                                  pd, nq >>
 
 si_idle(self) == /\ pc[self] = "si_idle"
                  /\ qstate' = [qstate EXCEPT ![yq[self]] = "Idle"]
@@ -4040,12 +4107,12 @@ si_idle(self) == /\ pc[self] = "si_idle"
                                  dsl, atomic, strong, ppPending, ppClosed, 
                                  ppNotify, ppNC, ppBP, ppDepth, ppAlive, 
                                  ppHeld, inItems, inClosed, inWaker, pollFn, 
-                                 chuteFn, pwTaken, nextPoll, ppItem, pjLive, h, 
-                                 dead, sti, sq, sj, ww, rsq, bown, bwk, bi, 
-                                 bcur, bw, bsp, jq, jj, jwk, fj, dq, dj, oq, 
-                                 oop, omode, oj, yq, yop, tq, top, af, wf, wop, 
-                                 sf, sctx, xf, cop, kj, pp, np, nbp, nres, dp, 
-                                 pf, pctx, pq, pj, pd, nq >>
+                                 chuteFn, pwTaken, nextPoll, ppItem, pjLive, 
+                                 ppStage, h, dead, sti, sq, sj, ww, rsq, bown, 
+                                 bwk, bi, bcur, bw, bsp, jq, jj, jwk, fj, dq, 
+                                 dj, oq, oop, omode, oj, yq, yop, tq, top, af, 
+                                 wf, wop, sf, sctx, xf, cop, kj, pp, pwk, np, 
+                                 nbp, nres, dp, pf, pctx, pq, pj, pd, nq >>
 
 z_si_ret(self) == /\ pc[self] = "z_si_ret"
                   /\ rv' = [rv EXCEPT ![self] = 0]
@@ -4065,11 +4132,11 @@ z_si_ret(self) == /\ pc[self] = "z_si_ret"
                                   ppNotify, ppNC, ppBP, ppDepth, ppAlive, 
                                   ppHeld, inItems, inClosed, inWaker, pollFn, 
                                   chuteFn, pwTaken, nextPoll, ppItem, pjLive, 
-                                  h, dead, sti, rq, sq, sj, ww, rsq, bown, bwk, 
-                                  bi, bcur, bw, bsp, jq, jj, jwk, fj, dq, dj, 
-                                  oq, oop, omode, oj, tq, top, af, wf, wop, sf, 
-                                  sctx, xf, cop, kj, pp, np, nbp, nres, dp, pf, 
-                                  pctx, pq, pj, pd, nq >>
+                                  ppStage, h, dead, sti, rq, sq, sj, ww, rsq, 
+                                  bown, bwk, bi, bcur, bw, bsp, jq, jj, jwk, 
+                                  fj, dq, dj, oq, oop, omode, oj, tq, top, af, 
+                                  wf, wop, sf, sctx, xf, cop, kj, pp, pwk, np, 
+                                  nbp, nres, dp, pf, pctx, pq, pj, pd, nq >>
 
 sd_push(self) == /\ pc[self] = "sd_push"
                  /\ jkind' = [jkind EXCEPT ![yop[self]] = "syncdrain"]
@@ -4097,12 +4164,12 @@ sd_push(self) == /\ pc[self] = "sd_push"
                                  dsl, atomic, strong, ppPending, ppClosed, 
                                  ppNotify, ppNC, ppBP, ppDepth, ppAlive, 
                                  ppHeld, inItems, inClosed, inWaker, pollFn, 
-                                 chuteFn, pwTaken, nextPoll, ppItem, pjLive, h, 
-                                 dead, sti, rq, sq, sj, ww, rsq, bown, bwk, bi, 
-                                 bcur, bw, bsp, jq, jj, jwk, fj, dq, dj, yq, 
-                                 yop, tq, top, af, wf, wop, sf, sctx, xf, cop, 
-                                 kj, pp, np, nbp, nres, dp, pf, pctx, pq, pj, 
-                                 pd, nq >>
+                                 chuteFn, pwTaken, nextPoll, ppItem, pjLive, 
+                                 ppStage, h, dead, sti, rq, sq, sj, ww, rsq, 
+                                 bown, bwk, bi, bcur, bw, bsp, jq, jj, jwk, fj, 
+                                 dq, dj, yq, yop, tq, top, af, wf, wop, sf, 
+                                 sctx, xf, cop, kj, pp, pwk, np, nbp, nres, dp, 
+                                 pf, pctx, pq, pj, pd, nq >>
 
 z_sd_chk(self) == /\ pc[self] = "z_sd_chk"
                   /\ IF rv[self] = 9
@@ -4120,11 +4187,12 @@ z_sd_chk(self) == /\ pc[self] = "z_sd_chk"
                                   ppNotify, ppNC, ppBP, ppDepth, ppAlive, 
                                   ppHeld, inItems, inClosed, inWaker, pollFn, 
                                   chuteFn, pwTaken, nextPoll, ppItem, pjLive, 
-                                  h, stack, dead, sti, rq, sq, sj, ww, rsq, 
-                                  bown, bwk, bi, bcur, bw, bsp, jq, jj, jwk, 
-                                  fj, dq, dj, oq, oop, omode, oj, yq, yop, tq, 
-                                  top, af, wf, wop, sf, sctx, xf, cop, kj, pp, 
-                                  np, nbp, nres, dp, pf, pctx, pq, pj, pd, nq >>
+                                  ppStage, h, stack, dead, sti, rq, sq, sj, ww, 
+                                  rsq, bown, bwk, bi, bcur, bw, bsp, jq, jj, 
+                                  jwk, fj, dq, dj, oq, oop, omode, oj, yq, yop, 
+                                  tq, top, af, wf, wop, sf, sctx, xf, cop, kj, 
+                                  pp, pwk, np, nbp, nres, dp, pf, pctx, pq, pj, 
+                                  pd, nq >>
 
 sd_idle(self) == /\ pc[self] = "sd_idle"
                  /\ qstate' = [qstate EXCEPT ![yq[self]] = "Idle"]
@@ -4145,12 +4213,12 @@ sd_idle(self) == /\ pc[self] = "sd_idle"
                                  dsl, atomic, strong, ppPending, ppClosed, 
                                  ppNotify, ppNC, ppBP, ppDepth, ppAlive, 
                                  ppHeld, inItems, inClosed, inWaker, pollFn, 
-                                 chuteFn, pwTaken, nextPoll, ppItem, pjLive, h, 
-                                 dead, sti, sq, sj, ww, rsq, bown, bwk, bi, 
-                                 bcur, bw, bsp, jq, jj, jwk, fj, dq, dj, oq, 
-                                 oop, omode, oj, yq, yop, tq, top, af, wf, wop, 
-                                 sf, sctx, xf, cop, kj, pp, np, nbp, nres, dp, 
-                                 pf, pctx, pq, pj, pd, nq >>
+                                 chuteFn, pwTaken, nextPoll, ppItem, pjLive, 
+                                 ppStage, h, dead, sti, sq, sj, ww, rsq, bown, 
+                                 bwk, bi, bcur, bw, bsp, jq, jj, jwk, fj, dq, 
+                                 dj, oq, oop, omode, oj, yq, yop, tq, top, af, 
+                                 wf, wop, sf, sctx, xf, cop, kj, pp, pwk, np, 
+                                 nbp, nres, dp, pf, pctx, pq, pj, pd, nq >>
 
 sb_reg(self) == /\ pc[self] = "sb_reg"
                 /\ wakeBlocked' = [wakeBlocked EXCEPT ![yq[self]] = Append(wakeBlocked[yq[self]], yop[self])]
@@ -4167,12 +4235,12 @@ sb_reg(self) == /\ pc[self] = "sb_reg"
                                 strong, ppPending, ppClosed, ppNotify, ppNC, 
                                 ppBP, ppDepth, ppAlive, ppHeld, inItems, 
                                 inClosed, inWaker, pollFn, chuteFn, pwTaken, 
-                                nextPoll, ppItem, pjLive, h, stack, dead, sti, 
-                                rq, sq, sj, ww, rsq, bown, bwk, bi, bcur, bw, 
-                                bsp, jq, jj, jwk, fj, dq, dj, oq, oop, omode, 
-                                oj, yq, yop, tq, top, af, wf, wop, sf, sctx, 
-                                xf, cop, kj, pp, np, nbp, nres, dp, pf, pctx, 
-                                pq, pj, pd, nq >>
+                                nextPoll, ppItem, pjLive, ppStage, h, stack, 
+                                dead, sti, rq, sq, sj, ww, rsq, bown, bwk, bi, 
+                                bcur, bw, bsp, jq, jj, jwk, fj, dq, dj, oq, 
+                                oop, omode, oj, yq, yop, tq, top, af, wf, wop, 
+                                sf, sctx, xf, cop, kj, pp, pwk, np, nbp, nres, 
+                                dp, pf, pctx, pq, pj, pd, nq >>
 
 sb_push(self) == /\ pc[self] = "sb_push"
                  /\ jkind' = [jkind EXCEPT ![yop[self]] = "syncbg"]
@@ -4197,12 +4265,12 @@ sb_push(self) == /\ pc[self] = "sb_push"
                                  dsl, atomic, strong, ppPending, ppClosed, 
                                  ppNotify, ppNC, ppBP, ppDepth, ppAlive, 
                                  ppHeld, inItems, inClosed, inWaker, pollFn, 
-                                 chuteFn, pwTaken, nextPoll, ppItem, pjLive, h, 
-                                 dead, sti, sq, sj, ww, rsq, bown, bwk, bi, 
-                                 bcur, bw, bsp, jq, jj, jwk, fj, dq, dj, oq, 
-                                 oop, omode, oj, yq, yop, tq, top, af, wf, wop, 
-                                 sf, sctx, xf, cop, kj, pp, np, nbp, nres, dp, 
-                                 pf, pctx, pq, pj, pd, nq >>
+                                 chuteFn, pwTaken, nextPoll, ppItem, pjLive, 
+                                 ppStage, h, dead, sti, sq, sj, ww, rsq, bown, 
+                                 bwk, bi, bcur, bw, bsp, jq, jj, jwk, fj, dq, 
+                                 dj, oq, oop, omode, oj, yq, yop, tq, top, af, 
+                                 wf, wop, sf, sctx, xf, cop, kj, pp, pwk, np, 
+                                 nbp, nres, dp, pf, pctx, pq, pj, pd, nq >>
 
 sb_lock(self) == /\ pc[self] = "sb_lock"
                  /\ IF ready[yop[self]]
@@ -4230,12 +4298,12 @@ sb_lock(self) == /\ pc[self] = "sb_lock"
                                  ppClosed, ppNotify, ppNC, ppBP, ppDepth, 
                                  ppAlive, ppHeld, inItems, inClosed, inWaker, 
                                  pollFn, chuteFn, pwTaken, nextPoll, ppItem, 
-                                 pjLive, h, stack, dead, sti, rq, sq, sj, ww, 
-                                 rsq, bown, bwk, bi, bcur, bw, bsp, jq, jj, 
-                                 jwk, fj, dq, dj, oq, oop, omode, oj, yq, yop, 
-                                 tq, top, af, wf, wop, sf, sctx, xf, cop, kj, 
-                                 pp, np, nbp, nres, dp, pf, pctx, pq, pj, pd, 
-                                 nq >>
+                                 pjLive, ppStage, h, stack, dead, sti, rq, sq, 
+                                 sj, ww, rsq, bown, bwk, bi, bcur, bw, bsp, jq, 
+                                 jj, jwk, fj, dq, dj, oq, oop, omode, oj, yq, 
+                                 yop, tq, top, af, wf, wop, sf, sctx, xf, cop, 
+                                 kj, pp, pwk, np, nbp, nres, dp, pf, pctx, pq, 
+                                 pj, pd, nq >>
 
 sb_claim(self) == /\ pc[self] = "sb_claim"
                   /\ IF qstate[yq[self]] \in {"Pending", "Idle"}
@@ -4256,11 +4324,12 @@ sb_claim(self) == /\ pc[self] = "sb_claim"
                                   ppNotify, ppNC, ppBP, ppDepth, ppAlive, 
                                   ppHeld, inItems, inClosed, inWaker, pollFn, 
                                   chuteFn, pwTaken, nextPoll, ppItem, pjLive, 
-                                  h, stack, dead, sti, rq, sq, sj, ww, rsq, 
-                                  bown, bwk, bi, bcur, bw, bsp, jq, jj, jwk, 
-                                  fj, dq, dj, oq, oop, omode, oj, yq, yop, tq, 
-                                  top, af, wf, wop, sf, sctx, xf, cop, kj, pp, 
-                                  np, nbp, nres, dp, pf, pctx, pq, pj, pd, nq >>
+                                  ppStage, h, stack, dead, sti, rq, sq, sj, ww, 
+                                  rsq, bown, bwk, bi, bcur, bw, bsp, jq, jj, 
+                                  jwk, fj, dq, dj, oq, oop, omode, oj, yq, yop, 
+                                  tq, top, af, wf, wop, sf, sctx, xf, cop, kj, 
+                                  pp, pwk, np, nbp, nres, dp, pf, pctx, pq, pj, 
+                                  pd, nq >>
 
 sb_chk(self) == /\ pc[self] = "sb_chk"
                 /\ IF ~ready[yop[self]]
@@ -4289,11 +4358,12 @@ sb_chk(self) == /\ pc[self] = "sb_chk"
                                 atomic, strong, ppPending, ppClosed, ppNotify, 
                                 ppNC, ppBP, ppDepth, ppAlive, ppHeld, inItems, 
                                 inClosed, inWaker, pollFn, chuteFn, pwTaken, 
-                                nextPoll, ppItem, pjLive, h, dead, sti, rq, sq, 
-                                sj, ww, rsq, bown, bwk, bi, bcur, bw, bsp, jq, 
-                                jj, jwk, fj, dq, dj, yq, yop, tq, top, af, wf, 
-                                wop, sf, sctx, xf, cop, kj, pp, np, nbp, nres, 
-                                dp, pf, pctx, pq, pj, pd, nq >>
+                                nextPoll, ppItem, pjLive, ppStage, h, dead, 
+                                sti, rq, sq, sj, ww, rsq, bown, bwk, bi, bcur, 
+                                bw, bsp, jq, jj, jwk, fj, dq, dj, yq, yop, tq, 
+                                top, af, wf, wop, sf, sctx, xf, cop, kj, pp, 
+                                pwk, np, nbp, nres, dp, pf, pctx, pq, pj, pd, 
+                                nq >>
 
 sb_idle(self) == /\ pc[self] = "sb_idle"
                  /\ qstate' = [qstate EXCEPT ![yq[self]] = "Idle"]
@@ -4314,12 +4384,12 @@ sb_idle(self) == /\ pc[self] = "sb_idle"
                                  dsl, atomic, strong, ppPending, ppClosed, 
                                  ppNotify, ppNC, ppBP, ppDepth, ppAlive, 
                                  ppHeld, inItems, inClosed, inWaker, pollFn, 
-                                 chuteFn, pwTaken, nextPoll, ppItem, pjLive, h, 
-                                 dead, sti, sq, sj, ww, rsq, bown, bwk, bi, 
-                                 bcur, bw, bsp, jq, jj, jwk, fj, dq, dj, oq, 
-                                 oop, omode, oj, yq, yop, tq, top, af, wf, wop, 
-                                 sf, sctx, xf, cop, kj, pp, np, nbp, nres, dp, 
-                                 pf, pctx, pq, pj, pd, nq >>
+                                 chuteFn, pwTaken, nextPoll, ppItem, pjLive, 
+                                 ppStage, h, dead, sti, sq, sj, ww, rsq, bown, 
+                                 bwk, bi, bcur, bw, bsp, jq, jj, jwk, fj, dq, 
+                                 dj, oq, oop, omode, oj, yq, yop, tq, top, af, 
+                                 wf, wop, sf, sctx, xf, cop, kj, pp, pwk, np, 
+                                 nbp, nres, dp, pf, pctx, pq, pj, pd, nq >>
 
 z_sb_chk(self) == /\ pc[self] = "z_sb_chk"
                   /\ IF rv[self] = 9
@@ -4346,11 +4416,11 @@ z_sb_chk(self) == /\ pc[self] = "z_sb_chk"
                                   ppNotify, ppNC, ppBP, ppDepth, ppAlive, 
                                   ppHeld, inItems, inClosed, inWaker, pollFn, 
                                   chuteFn, pwTaken, nextPoll, ppItem, pjLive, 
-                                  h, dead, sti, rq, sq, sj, ww, rsq, bown, bwk, 
-                                  bi, bcur, bw, bsp, jq, jj, jwk, fj, dq, dj, 
-                                  oq, oop, omode, oj, tq, top, af, wf, wop, sf, 
-                                  sctx, xf, cop, kj, pp, np, nbp, nres, dp, pf, 
-                                  pctx, pq, pj, pd, nq >>
+                                  ppStage, h, dead, sti, rq, sq, sj, ww, rsq, 
+                                  bown, bwk, bi, bcur, bw, bsp, jq, jj, jwk, 
+                                  fj, dq, dj, oq, oop, omode, oj, tq, top, af, 
+                                  wf, wop, sf, sctx, xf, cop, kj, pp, pwk, np, 
+                                  nbp, nres, dp, pf, pctx, pq, pj, pd, nq >>
 
 sb_wait(self) == /\ pc[self] = "sb_wait"
                  /\ cnotif[yop[self]]
@@ -4389,11 +4459,12 @@ sb_wait(self) == /\ pc[self] = "sb_wait"
                                  ppClosed, ppNotify, ppNC, ppBP, ppDepth, 
                                  ppAlive, ppHeld, inItems, inClosed, inWaker, 
                                  pollFn, chuteFn, pwTaken, nextPoll, ppItem, 
-                                 pjLive, stack, dead, sti, rq, sq, sj, ww, rsq, 
-                                 bown, bwk, bi, bcur, bw, bsp, jq, jj, jwk, fj, 
-                                 dq, dj, oq, oop, omode, oj, yq, yop, tq, top, 
-                                 af, wf, wop, sf, sctx, xf, cop, kj, pp, np, 
-                                 nbp, nres, dp, pf, pctx, pq, pj, pd, nq >>
+                                 pjLive, ppStage, stack, dead, sti, rq, sq, sj, 
+                                 ww, rsq, bown, bwk, bi, bcur, bw, bsp, jq, jj, 
+                                 jwk, fj, dq, dj, oq, oop, omode, oj, yq, yop, 
+                                 tq, top, af, wf, wop, sf, sctx, xf, cop, kj, 
+                                 pp, pwk, np, nbp, nres, dp, pf, pctx, pq, pj, 
+                                 pd, nq >>
 
 sb_fin(self) == /\ pc[self] = "sb_fin"
                 /\ wakeBlocked' = [wakeBlocked EXCEPT ![yq[self]] = SelectSeq(wakeBlocked[yq[self]], LAMBDA x : (x # yop[self] /\ CvAlive(x)) \/ (x = yop[self] /\ \E t \in Procs : yop[self] \in SeqSet(rwb[t])))]
@@ -4413,11 +4484,12 @@ sb_fin(self) == /\ pc[self] = "sb_fin"
                                 strong, ppPending, ppClosed, ppNotify, ppNC, 
                                 ppBP, ppDepth, ppAlive, ppHeld, inItems, 
                                 inClosed, inWaker, pollFn, chuteFn, pwTaken, 
-                                nextPoll, ppItem, pjLive, h, dead, sti, rq, sq, 
-                                sj, ww, rsq, bown, bwk, bi, bcur, bw, bsp, jq, 
-                                jj, jwk, fj, dq, dj, oq, oop, omode, oj, tq, 
-                                top, af, wf, wop, sf, sctx, xf, cop, kj, pp, 
-                                np, nbp, nres, dp, pf, pctx, pq, pj, pd, nq >>
+                                nextPoll, ppItem, pjLive, ppStage, h, dead, 
+                                sti, rq, sq, sj, ww, rsq, bown, bwk, bi, bcur, 
+                                bw, bsp, jq, jj, jwk, fj, dq, dj, oq, oop, 
+                                omode, oj, tq, top, af, wf, wop, sf, sctx, xf, 
+                                cop, kj, pp, pwk, np, nbp, nres, dp, pf, pctx, 
+                                pq, pj, pd, nq >>
 
 sy_panic(self) == /\ pc[self] = "sy_panic"
                   /\ qstate' = [qstate EXCEPT ![yq[self]] = "Panicked"]
@@ -4438,11 +4510,11 @@ sy_panic(self) == /\ pc[self] = "sy_panic"
                                   ppNotify, ppNC, ppBP, ppDepth, ppAlive, 
                                   ppHeld, inItems, inClosed, inWaker, pollFn, 
                                   chuteFn, pwTaken, nextPoll, ppItem, pjLive, 
-                                  h, dead, sti, rq, sq, sj, ww, rsq, bown, bwk, 
-                                  bi, bcur, bw, bsp, jq, jj, jwk, fj, dq, dj, 
-                                  oq, oop, omode, oj, tq, top, af, wf, wop, sf, 
-                                  sctx, xf, cop, kj, pp, np, nbp, nres, dp, pf, 
-                                  pctx, pq, pj, pd, nq >>
+                                  ppStage, h, dead, sti, rq, sq, sj, ww, rsq, 
+                                  bown, bwk, bi, bcur, bw, bsp, jq, jj, jwk, 
+                                  fj, dq, dj, oq, oop, omode, oj, tq, top, af, 
+                                  wf, wop, sf, sctx, xf, cop, kj, pp, pwk, np, 
+                                  nbp, nres, dp, pf, pctx, pq, pj, pd, nq >>
 
 Sync(self) == sy_decide(self) \/ z_si_chk(self) \/ si_idle(self)
                  \/ z_si_ret(self) \/ sd_push(self) \/ z_sd_chk(self)
@@ -4501,11 +4573,12 @@ ts_decide(self) == /\ pc[self] = "ts_decide"
                                    ppPending, ppClosed, ppNotify, ppNC, ppBP, 
                                    ppDepth, ppAlive, ppHeld, inItems, inClosed, 
                                    inWaker, pollFn, chuteFn, pwTaken, nextPoll, 
-                                   ppItem, pjLive, h, dead, sti, rq, sq, sj, 
-                                   ww, rsq, bown, bwk, bi, bcur, bw, bsp, fj, 
-                                   dq, dj, oq, oop, omode, oj, yq, yop, af, wf, 
-                                   wop, sf, sctx, xf, cop, kj, pp, np, nbp, 
-                                   nres, dp, pf, pctx, pq, pj, pd, nq >>
+                                   ppItem, pjLive, ppStage, h, dead, sti, rq, 
+                                   sq, sj, ww, rsq, bown, bwk, bi, bcur, bw, 
+                                   bsp, fj, dq, dj, oq, oop, omode, oj, yq, 
+                                   yop, af, wf, wop, sf, sctx, xf, cop, kj, pp, 
+                                   pwk, np, nbp, nres, dp, pf, pctx, pq, pj, 
+                                   pd, nq >>
 
 z_ts_chk(self) == /\ pc[self] = "z_ts_chk"
                   /\ IF rv[self] = 9
@@ -4523,11 +4596,12 @@ z_ts_chk(self) == /\ pc[self] = "z_ts_chk"
                                   ppNotify, ppNC, ppBP, ppDepth, ppAlive, 
                                   ppHeld, inItems, inClosed, inWaker, pollFn, 
                                   chuteFn, pwTaken, nextPoll, ppItem, pjLive, 
-                                  h, stack, dead, sti, rq, sq, sj, ww, rsq, 
-                                  bown, bwk, bi, bcur, bw, bsp, jq, jj, jwk, 
-                                  fj, dq, dj, oq, oop, omode, oj, yq, yop, tq, 
-                                  top, af, wf, wop, sf, sctx, xf, cop, kj, pp, 
-                                  np, nbp, nres, dp, pf, pctx, pq, pj, pd, nq >>
+                                  ppStage, h, stack, dead, sti, rq, sq, sj, ww, 
+                                  rsq, bown, bwk, bi, bcur, bw, bsp, jq, jj, 
+                                  jwk, fj, dq, dj, oq, oop, omode, oj, yq, yop, 
+                                  tq, top, af, wf, wop, sf, sctx, xf, cop, kj, 
+                                  pp, pwk, np, nbp, nres, dp, pf, pctx, pq, pj, 
+                                  pd, nq >>
 
 ts_idle(self) == /\ pc[self] = "ts_idle"
                  /\ qstate' = [qstate EXCEPT ![tq[self]] = "Idle"]
@@ -4548,12 +4622,12 @@ ts_idle(self) == /\ pc[self] = "ts_idle"
                                  dsl, atomic, strong, ppPending, ppClosed, 
                                  ppNotify, ppNC, ppBP, ppDepth, ppAlive, 
                                  ppHeld, inItems, inClosed, inWaker, pollFn, 
-                                 chuteFn, pwTaken, nextPoll, ppItem, pjLive, h, 
-                                 dead, sti, sq, sj, ww, rsq, bown, bwk, bi, 
-                                 bcur, bw, bsp, jq, jj, jwk, fj, dq, dj, oq, 
-                                 oop, omode, oj, yq, yop, tq, top, af, wf, wop, 
-                                 sf, sctx, xf, cop, kj, pp, np, nbp, nres, dp, 
-                                 pf, pctx, pq, pj, pd, nq >>
+                                 chuteFn, pwTaken, nextPoll, ppItem, pjLive, 
+                                 ppStage, h, dead, sti, sq, sj, ww, rsq, bown, 
+                                 bwk, bi, bcur, bw, bsp, jq, jj, jwk, fj, dq, 
+                                 dj, oq, oop, omode, oj, yq, yop, tq, top, af, 
+                                 wf, wop, sf, sctx, xf, cop, kj, pp, pwk, np, 
+                                 nbp, nres, dp, pf, pctx, pq, pj, pd, nq >>
 
 z_ts_ret(self) == /\ pc[self] = "z_ts_ret"
                   /\ rv' = [rv EXCEPT ![self] = 0]
@@ -4573,11 +4647,11 @@ z_ts_ret(self) == /\ pc[self] = "z_ts_ret"
                                   ppNotify, ppNC, ppBP, ppDepth, ppAlive, 
                                   ppHeld, inItems, inClosed, inWaker, pollFn, 
                                   chuteFn, pwTaken, nextPoll, ppItem, pjLive, 
-                                  h, dead, sti, rq, sq, sj, ww, rsq, bown, bwk, 
-                                  bi, bcur, bw, bsp, jq, jj, jwk, fj, dq, dj, 
-                                  oq, oop, omode, oj, yq, yop, af, wf, wop, sf, 
-                                  sctx, xf, cop, kj, pp, np, nbp, nres, dp, pf, 
-                                  pctx, pq, pj, pd, nq >>
+                                  ppStage, h, dead, sti, rq, sq, sj, ww, rsq, 
+                                  bown, bwk, bi, bcur, bw, bsp, jq, jj, jwk, 
+                                  fj, dq, dj, oq, oop, omode, oj, yq, yop, af, 
+                                  wf, wop, sf, sctx, xf, cop, kj, pp, pwk, np, 
+                                  nbp, nres, dp, pf, pctx, pq, pj, pd, nq >>
 
 ts_panic(self) == /\ pc[self] = "ts_panic"
                   /\ qstate' = [qstate EXCEPT ![tq[self]] = "Panicked"]
@@ -4598,11 +4672,11 @@ ts_panic(self) == /\ pc[self] = "ts_panic"
                                   ppNotify, ppNC, ppBP, ppDepth, ppAlive, 
                                   ppHeld, inItems, inClosed, inWaker, pollFn, 
                                   chuteFn, pwTaken, nextPoll, ppItem, pjLive, 
-                                  h, dead, sti, rq, sq, sj, ww, rsq, bown, bwk, 
-                                  bi, bcur, bw, bsp, jq, jj, jwk, fj, dq, dj, 
-                                  oq, oop, omode, oj, yq, yop, af, wf, wop, sf, 
-                                  sctx, xf, cop, kj, pp, np, nbp, nres, dp, pf, 
-                                  pctx, pq, pj, pd, nq >>
+                                  ppStage, h, dead, sti, rq, sq, sj, ww, rsq, 
+                                  bown, bwk, bi, bcur, bw, bsp, jq, jj, jwk, 
+                                  fj, dq, dj, oq, oop, omode, oj, yq, yop, af, 
+                                  wf, wop, sf, sctx, xf, cop, kj, pp, pwk, np, 
+                                  nbp, nres, dp, pf, pctx, pq, pj, pd, nq >>
 
 TrySync(self) == ts_decide(self) \/ z_ts_chk(self) \/ ts_idle(self)
                     \/ z_ts_ret(self) \/ ts_panic(self)
@@ -4645,11 +4719,12 @@ z_aw_poll(self) == /\ pc[self] = "z_aw_poll"
                                    strong, ppPending, ppClosed, ppNotify, ppNC, 
                                    ppBP, ppDepth, ppAlive, ppHeld, inItems, 
                                    inClosed, inWaker, pollFn, chuteFn, pwTaken, 
-                                   nextPoll, ppItem, pjLive, h, dead, sti, rq, 
-                                   sq, sj, ww, rsq, bown, bwk, bi, bcur, bw, 
-                                   bsp, jq, jj, jwk, fj, dq, dj, oq, oop, 
-                                   omode, oj, yq, yop, tq, top, af, wf, wop, 
-                                   xf, cop, kj, pp, np, nbp, nres, dp, nq >>
+                                   nextPoll, ppItem, pjLive, ppStage, h, dead, 
+                                   sti, rq, sq, sj, ww, rsq, bown, bwk, bi, 
+                                   bcur, bw, bsp, jq, jj, jwk, fj, dq, dj, oq, 
+                                   oop, omode, oj, yq, yop, tq, top, af, wf, 
+                                   wop, xf, cop, kj, pp, pwk, np, nbp, nres, 
+                                   dp, nq >>
 
 z_aw_after(self) == /\ pc[self] = "z_aw_after"
                     /\ IF rv[self] = 5
@@ -4675,11 +4750,12 @@ z_aw_after(self) == /\ pc[self] = "z_aw_after"
                                     ppNC, ppBP, ppDepth, ppAlive, ppHeld, 
                                     inItems, inClosed, inWaker, pollFn, 
                                     chuteFn, pwTaken, nextPoll, ppItem, pjLive, 
-                                    dead, sti, rq, sq, sj, ww, rsq, bown, bwk, 
-                                    bi, bcur, bw, bsp, jq, jj, jwk, fj, dq, dj, 
-                                    oq, oop, omode, oj, yq, yop, tq, top, wf, 
-                                    wop, sf, sctx, xf, cop, kj, pp, np, nbp, 
-                                    nres, dp, pf, pctx, pq, pj, pd, nq >>
+                                    ppStage, dead, sti, rq, sq, sj, ww, rsq, 
+                                    bown, bwk, bi, bcur, bw, bsp, jq, jj, jwk, 
+                                    fj, dq, dj, oq, oop, omode, oj, yq, yop, 
+                                    tq, top, wf, wop, sf, sctx, xf, cop, kj, 
+                                    pp, pwk, np, nbp, nres, dp, pf, pctx, pq, 
+                                    pj, pd, nq >>
 
 aw_park(self) == /\ pc[self] = "aw_park"
                  /\ parkTok[self]
@@ -4696,12 +4772,12 @@ aw_park(self) == /\ pc[self] = "aw_park"
                                  strong, ppPending, ppClosed, ppNotify, ppNC, 
                                  ppBP, ppDepth, ppAlive, ppHeld, inItems, 
                                  inClosed, inWaker, pollFn, chuteFn, pwTaken, 
-                                 nextPoll, ppItem, pjLive, h, stack, dead, sti, 
-                                 rq, sq, sj, ww, rsq, bown, bwk, bi, bcur, bw, 
-                                 bsp, jq, jj, jwk, fj, dq, dj, oq, oop, omode, 
-                                 oj, yq, yop, tq, top, af, wf, wop, sf, sctx, 
-                                 xf, cop, kj, pp, np, nbp, nres, dp, pf, pctx, 
-                                 pq, pj, pd, nq >>
+                                 nextPoll, ppItem, pjLive, ppStage, h, stack, 
+                                 dead, sti, rq, sq, sj, ww, rsq, bown, bwk, bi, 
+                                 bcur, bw, bsp, jq, jj, jwk, fj, dq, dj, oq, 
+                                 oop, omode, oj, yq, yop, tq, top, af, wf, wop, 
+                                 sf, sctx, xf, cop, kj, pp, pwk, np, nbp, nres, 
+                                 dp, pf, pctx, pq, pj, pd, nq >>
 
 Await(self) == z_aw_poll(self) \/ z_aw_after(self) \/ aw_park(self)
 
@@ -4744,11 +4820,12 @@ fs_take(self) == /\ pc[self] = "fs_take"
                                  atomic, strong, ppPending, ppClosed, ppNotify, 
                                  ppNC, ppBP, ppDepth, ppAlive, ppHeld, inItems, 
                                  inClosed, inWaker, pollFn, chuteFn, pwTaken, 
-                                 nextPoll, ppItem, pjLive, dead, sti, rq, sq, 
-                                 sj, ww, rsq, bown, bwk, bi, bcur, bw, bsp, jq, 
-                                 jj, jwk, fj, dq, dj, oq, oop, omode, oj, tq, 
-                                 top, af, sf, sctx, xf, cop, kj, pp, np, nbp, 
-                                 nres, dp, pf, pctx, pq, pj, pd, nq >>
+                                 nextPoll, ppItem, pjLive, ppStage, dead, sti, 
+                                 rq, sq, sj, ww, rsq, bown, bwk, bi, bcur, bw, 
+                                 bsp, jq, jj, jwk, fj, dq, dj, oq, oop, omode, 
+                                 oj, tq, top, af, sf, sctx, xf, cop, kj, pp, 
+                                 pwk, np, nbp, nres, dp, pf, pctx, pq, pj, pd, 
+                                 nq >>
 
 z_fs_after(self) == /\ pc[self] = "z_fs_after"
                     /\ IF rv[self] = 0
@@ -4772,11 +4849,12 @@ z_fs_after(self) == /\ pc[self] = "z_fs_after"
                                     ppNC, ppBP, ppDepth, ppAlive, ppHeld, 
                                     inItems, inClosed, inWaker, pollFn, 
                                     chuteFn, pwTaken, nextPoll, ppItem, pjLive, 
-                                    dead, sti, rq, sq, sj, ww, rsq, bown, bwk, 
-                                    bi, bcur, bw, bsp, jq, jj, jwk, fj, dq, dj, 
-                                    oq, oop, omode, oj, yq, yop, tq, top, af, 
-                                    sf, sctx, xf, cop, kj, pp, np, nbp, nres, 
-                                    dp, pf, pctx, pq, pj, pd, nq >>
+                                    ppStage, dead, sti, rq, sq, sj, ww, rsq, 
+                                    bown, bwk, bi, bcur, bw, bsp, jq, jj, jwk, 
+                                    fj, dq, dj, oq, oop, omode, oj, yq, yop, 
+                                    tq, top, af, sf, sctx, xf, cop, kj, pp, 
+                                    pwk, np, nbp, nres, dp, pf, pctx, pq, pj, 
+                                    pd, nq >>
 
 WaitSync(self) == fs_take(self) \/ z_fs_after(self)
 
@@ -4853,10 +4931,10 @@ z_ps(self) == /\ pc[self] = "z_ps"
                               ppPending, ppClosed, ppNotify, ppNC, ppBP, 
                               ppDepth, ppAlive, ppHeld, inItems, inClosed, 
                               inWaker, pollFn, chuteFn, pwTaken, nextPoll, 
-                              ppItem, pjLive, h, dead, sti, rq, sq, sj, ww, jq, 
-                              jj, jwk, fj, dq, dj, oq, oop, omode, oj, yq, yop, 
-                              tq, top, af, wf, wop, xf, cop, kj, pp, np, nbp, 
-                              nres, dp, nq >>
+                              ppItem, pjLive, ppStage, h, dead, sti, rq, sq, 
+                              sj, ww, jq, jj, jwk, fj, dq, dj, oq, oop, omode, 
+                              oj, yq, yop, tq, top, af, wf, wop, xf, cop, kj, 
+                              pp, pwk, np, nbp, nres, dp, nq >>
 
 z_ps_q(self) == /\ pc[self] = "z_ps_q"
                 /\ IF rv[self] \in {2, 4}
@@ -4910,10 +4988,11 @@ z_ps_q(self) == /\ pc[self] = "z_ps_q"
                                 ppPending, ppClosed, ppNotify, ppNC, ppBP, 
                                 ppDepth, ppAlive, ppHeld, inItems, inClosed, 
                                 inWaker, pollFn, chuteFn, pwTaken, nextPoll, 
-                                ppItem, pjLive, dead, sti, rq, sq, sj, ww, jq, 
-                                jj, jwk, fj, dq, dj, oq, oop, omode, oj, yq, 
-                                yop, tq, top, af, wf, wop, xf, cop, kj, pp, np, 
-                                nbp, nres, dp, pf, pctx, pq, pj, pd, nq >>
+                                ppItem, pjLive, ppStage, dead, sti, rq, sq, sj, 
+                                ww, jq, jj, jwk, fj, dq, dj, oq, oop, omode, 
+                                oj, yq, yop, tq, top, af, wf, wop, xf, cop, kj, 
+                                pp, pwk, np, nbp, nres, dp, pf, pctx, pq, pj, 
+                                pd, nq >>
 
 z_ps_f(self) == /\ pc[self] = "z_ps_f"
                 /\ IF rv[self] = 5
@@ -4961,11 +5040,11 @@ z_ps_f(self) == /\ pc[self] = "z_ps_f"
                                 ppPending, ppClosed, ppNotify, ppNC, ppBP, 
                                 ppDepth, ppAlive, ppHeld, inItems, inClosed, 
                                 inWaker, pollFn, chuteFn, pwTaken, nextPoll, 
-                                ppItem, pjLive, h, dead, sti, rq, sq, sj, rsq, 
-                                bown, bwk, bi, bcur, bw, bsp, jq, jj, jwk, fj, 
-                                dq, dj, oq, oop, omode, oj, yq, yop, tq, top, 
-                                af, wf, wop, xf, cop, kj, pp, np, nbp, nres, 
-                                dp, pf, pctx, pq, pj, pd, nq >>
+                                ppItem, pjLive, ppStage, h, dead, sti, rq, sq, 
+                                sj, rsq, bown, bwk, bi, bcur, bw, bsp, jq, jj, 
+                                jwk, fj, dq, dj, oq, oop, omode, oj, yq, yop, 
+                                tq, top, af, wf, wop, xf, cop, kj, pp, pwk, np, 
+                                nbp, nres, dp, pf, pctx, pq, pj, pd, nq >>
 
 z_ps_s(self) == /\ pc[self] = "z_ps_s"
                 /\ /\ pctx' = [pctx EXCEPT ![self] = sctx[self]]
@@ -4993,11 +5072,12 @@ z_ps_s(self) == /\ pc[self] = "z_ps_s"
                                 atomic, strong, ppPending, ppClosed, ppNotify, 
                                 ppNC, ppBP, ppDepth, ppAlive, ppHeld, inItems, 
                                 inClosed, inWaker, pollFn, chuteFn, pwTaken, 
-                                nextPoll, ppItem, pjLive, h, dead, sti, rq, sq, 
-                                sj, ww, rsq, bown, bwk, bi, bcur, bw, bsp, jq, 
-                                jj, jwk, fj, dq, dj, oq, oop, omode, oj, yq, 
-                                yop, tq, top, af, wf, wop, sf, sctx, xf, cop, 
-                                kj, pp, np, nbp, nres, dp, nq >>
+                                nextPoll, ppItem, pjLive, ppStage, h, dead, 
+                                sti, rq, sq, sj, ww, rsq, bown, bwk, bi, bcur, 
+                                bw, bsp, jq, jj, jwk, fj, dq, dj, oq, oop, 
+                                omode, oj, yq, yop, tq, top, af, wf, wop, sf, 
+                                sctx, xf, cop, kj, pp, pwk, np, nbp, nres, dp, 
+                                nq >>
 
 z_ps_s2(self) == /\ pc[self] = "z_ps_s2"
                  /\ IF rv[self] = 5
@@ -5023,12 +5103,12 @@ z_ps_s2(self) == /\ pc[self] = "z_ps_s2"
                                  atomic, strong, ppPending, ppClosed, ppNotify, 
                                  ppNC, ppBP, ppDepth, ppAlive, ppHeld, inItems, 
                                  inClosed, inWaker, pollFn, chuteFn, pwTaken, 
-                                 nextPoll, ppItem, pjLive, h, dead, sti, rq, 
-                                 sq, sj, ww, rsq, bown, bwk, bi, bcur, bw, bsp, 
-                                 jq, jj, jwk, fj, dq, dj, oq, oop, omode, oj, 
-                                 yq, yop, tq, top, af, wf, wop, xf, cop, kj, 
-                                 pp, np, nbp, nres, dp, pf, pctx, pq, pj, pd, 
-                                 nq >>
+                                 nextPoll, ppItem, pjLive, ppStage, h, dead, 
+                                 sti, rq, sq, sj, ww, rsq, bown, bwk, bi, bcur, 
+                                 bw, bsp, jq, jj, jwk, fj, dq, dj, oq, oop, 
+                                 omode, oj, yq, yop, tq, top, af, wf, wop, xf, 
+                                 cop, kj, pp, pwk, np, nbp, nres, dp, pf, pctx, 
+                                 pq, pj, pd, nq >>
 
 z_ps_panic(self) == /\ pc[self] = "z_ps_panic"
                     /\ rv' = [rv EXCEPT ![self] = 2]
@@ -5048,12 +5128,12 @@ z_ps_panic(self) == /\ pc[self] = "z_ps_panic"
                                     ppPending, ppClosed, ppNotify, ppNC, ppBP, 
                                     ppDepth, ppAlive, ppHeld, inItems, 
                                     inClosed, inWaker, pollFn, chuteFn, 
-                                    pwTaken, nextPoll, ppItem, pjLive, h, dead, 
-                                    sti, rq, sq, sj, ww, rsq, bown, bwk, bi, 
-                                    bcur, bw, bsp, jq, jj, jwk, fj, dq, dj, oq, 
-                                    oop, omode, oj, yq, yop, tq, top, af, wf, 
-                                    wop, xf, cop, kj, pp, np, nbp, nres, dp, 
-                                    pf, pctx, pq, pj, pd, nq >>
+                                    pwTaken, nextPoll, ppItem, pjLive, ppStage, 
+                                    h, dead, sti, rq, sq, sj, ww, rsq, bown, 
+                                    bwk, bi, bcur, bw, bsp, jq, jj, jwk, fj, 
+                                    dq, dj, oq, oop, omode, oj, yq, yop, tq, 
+                                    top, af, wf, wop, xf, cop, kj, pp, pwk, np, 
+                                    nbp, nres, dp, pf, pctx, pq, pj, pd, nq >>
 
 PollSync(self) == z_ps(self) \/ z_ps_q(self) \/ z_ps_f(self)
                      \/ z_ps_s(self) \/ z_ps_s2(self) \/ z_ps_panic(self)
@@ -5093,11 +5173,11 @@ z_df(self) == /\ pc[self] = "z_df"
                               ppPending, ppClosed, ppNotify, ppNC, ppBP, 
                               ppDepth, ppAlive, ppHeld, inItems, inClosed, 
                               inWaker, pollFn, chuteFn, pwTaken, nextPoll, 
-                              ppItem, pjLive, dead, sti, rq, sq, sj, rsq, bown, 
-                              bwk, bi, bcur, bw, bsp, jq, jj, jwk, fj, dq, dj, 
-                              oq, oop, omode, oj, yq, yop, tq, top, af, wf, 
-                              wop, sf, sctx, cop, kj, pp, np, nbp, nres, dp, 
-                              pf, pctx, pq, pj, pd, nq >>
+                              ppItem, pjLive, ppStage, dead, sti, rq, sq, sj, 
+                              rsq, bown, bwk, bi, bcur, bw, bsp, jq, jj, jwk, 
+                              fj, dq, dj, oq, oop, omode, oj, yq, yop, tq, top, 
+                              af, wf, wop, sf, sctx, cop, kj, pp, pwk, np, nbp, 
+                              nres, dp, pf, pctx, pq, pj, pd, nq >>
 
 z_df2(self) == /\ pc[self] = "z_df2"
                /\ rv' = [rv EXCEPT ![self] = 0]
@@ -5115,11 +5195,12 @@ z_df2(self) == /\ pc[self] = "z_df2"
                                atomic, strong, ppPending, ppClosed, ppNotify, 
                                ppNC, ppBP, ppDepth, ppAlive, ppHeld, inItems, 
                                inClosed, inWaker, pollFn, chuteFn, pwTaken, 
-                               nextPoll, ppItem, pjLive, h, dead, sti, rq, sq, 
-                               sj, ww, rsq, bown, bwk, bi, bcur, bw, bsp, jq, 
-                               jj, jwk, fj, dq, dj, oq, oop, omode, oj, yq, 
-                               yop, tq, top, af, wf, wop, sf, sctx, cop, kj, 
-                               pp, np, nbp, nres, dp, pf, pctx, pq, pj, pd, nq >>
+                               nextPoll, ppItem, pjLive, ppStage, h, dead, sti, 
+                               rq, sq, sj, ww, rsq, bown, bwk, bi, bcur, bw, 
+                               bsp, jq, jj, jwk, fj, dq, dj, oq, oop, omode, 
+                               oj, yq, yop, tq, top, af, wf, wop, sf, sctx, 
+                               cop, kj, pp, pwk, np, nbp, nres, dp, pf, pctx, 
+                               pq, pj, pd, nq >>
 
 DropFuture(self) == z_df(self) \/ z_df2(self)
 
@@ -5148,11 +5229,12 @@ z_pcr1(self) == /\ pc[self] = "z_pcr1"
                                 dnWaker, parkTok, rv, rwb, rneed, dsl, atomic, 
                                 ppPending, ppClosed, ppNotify, ppNC, ppBP, 
                                 ppDepth, ppHeld, inItems, inClosed, inWaker, 
-                                chuteFn, pwTaken, ppItem, h, dead, sti, rq, ww, 
-                                rsq, bown, bwk, bi, bcur, bw, bsp, jq, jj, jwk, 
-                                fj, dq, dj, oq, oop, omode, oj, yq, yop, tq, 
-                                top, af, wf, wop, sf, sctx, xf, cop, kj, pp, 
-                                np, nbp, nres, dp, pf, pctx, pq, pj, pd, nq >>
+                                chuteFn, pwTaken, ppItem, ppStage, h, dead, 
+                                sti, rq, ww, rsq, bown, bwk, bi, bcur, bw, bsp, 
+                                jq, jj, jwk, fj, dq, dj, oq, oop, omode, oj, 
+                                yq, yop, tq, top, af, wf, wop, sf, sctx, xf, 
+                                cop, kj, pp, pwk, np, nbp, nres, dp, pf, pctx, 
+                                pq, pj, pd, nq >>
 
 z_pcr2(self) == /\ pc[self] = "z_pcr2"
                 /\ strong' = [strong EXCEPT ![O(cop[self])] = strong[O(cop[self])] - 1]
@@ -5175,11 +5257,12 @@ z_pcr2(self) == /\ pc[self] = "z_pcr2"
                                 atomic, ppPending, ppClosed, ppNotify, ppNC, 
                                 ppBP, ppDepth, ppAlive, ppHeld, inItems, 
                                 inClosed, inWaker, pollFn, chuteFn, pwTaken, 
-                                nextPoll, ppItem, pjLive, h, dead, sti, rq, sq, 
-                                sj, ww, rsq, bown, bwk, bi, bcur, bw, bsp, jq, 
-                                jj, jwk, fj, dq, dj, oq, oop, omode, oj, tq, 
-                                top, af, wf, wop, sf, sctx, xf, cop, kj, pp, 
-                                np, nbp, nres, dp, pf, pctx, pq, pj, pd, nq >>
+                                nextPoll, ppItem, pjLive, ppStage, h, dead, 
+                                sti, rq, sq, sj, ww, rsq, bown, bwk, bi, bcur, 
+                                bw, bsp, jq, jj, jwk, fj, dq, dj, oq, oop, 
+                                omode, oj, tq, top, af, wf, wop, sf, sctx, xf, 
+                                cop, kj, pp, pwk, np, nbp, nres, dp, pf, pctx, 
+                                pq, pj, pd, nq >>
 
 z_pcr3(self) == /\ pc[self] = "z_pcr3"
                 /\ pc' = [pc EXCEPT ![self] = Head(stack[self]).pc]
@@ -5196,14 +5279,38 @@ z_pcr3(self) == /\ pc[self] = "z_pcr3"
                                 atomic, strong, ppPending, ppClosed, ppNotify, 
                                 ppNC, ppBP, ppDepth, ppAlive, ppHeld, inItems, 
                                 inClosed, inWaker, pollFn, chuteFn, pwTaken, 
-                                nextPoll, ppItem, pjLive, h, dead, sti, rq, sq, 
-                                sj, ww, rsq, bown, bwk, bi, bcur, bw, bsp, jq, 
-                                jj, jwk, fj, dq, dj, oq, oop, omode, oj, yq, 
-                                yop, tq, top, af, wf, wop, sf, sctx, xf, kj, 
-                                pp, np, nbp, nres, dp, pf, pctx, pq, pj, pd, 
-                                nq >>
+                                nextPoll, ppItem, pjLive, ppStage, h, dead, 
+                                sti, rq, sq, sj, ww, rsq, bown, bwk, bi, bcur, 
+                                bw, bsp, jq, jj, jwk, fj, dq, dj, oq, oop, 
+                                omode, oj, yq, yop, tq, top, af, wf, wop, sf, 
+                                sctx, xf, kj, pp, pwk, np, nbp, nres, dp, pf, 
+                                pctx, pq, pj, pd, nq >>
 
 PipeCreate(self) == z_pcr1(self) \/ z_pcr2(self) \/ z_pcr3(self)
+
+z_pp_entry(self) == /\ pc[self] = "z_pp_entry"
+                    /\ IF ppStage[kj[self]] = 1
+                          THEN /\ pc' = [pc EXCEPT ![self] = "pp_resumed"]
+                          ELSE /\ pc' = [pc EXCEPT ![self] = "pp_fn"]
+                    /\ UNCHANGED << qstate, qpoll, jobs, wakeBlocked, schedule, 
+                                    pthreads, nspawned, palive, busy, 
+                                    busyLocked, inbox, chanOpen, pfin, thrHeld, 
+                                    maxThreads, jkind, jaw, fres, fwaker, 
+                                    gfired, gwaker, gthreads, gwhist, dwSt, 
+                                    dwW, dblTaken, dblW1, dblW2, nextDW, ready, 
+                                    cwait, cnotif, cvHeld, sdres, jpanic, sfst, 
+                                    slotSt, qrSent, qrWaker, dnState, dnWaker, 
+                                    parkTok, rv, rwb, rneed, dsl, atomic, 
+                                    strong, ppPending, ppClosed, ppNotify, 
+                                    ppNC, ppBP, ppDepth, ppAlive, ppHeld, 
+                                    inItems, inClosed, inWaker, pollFn, 
+                                    chuteFn, pwTaken, nextPoll, ppItem, pjLive, 
+                                    ppStage, h, stack, dead, sti, rq, sq, sj, 
+                                    ww, rsq, bown, bwk, bi, bcur, bw, bsp, jq, 
+                                    jj, jwk, fj, dq, dj, oq, oop, omode, oj, 
+                                    yq, yop, tq, top, af, wf, wop, sf, sctx, 
+                                    xf, cop, kj, pp, pwk, np, nbp, nres, dp, 
+                                    pf, pctx, pq, pj, pd, nq >>
 
 pp_fn(self) == /\ pc[self] = "pp_fn"
                /\ IF ~pollFn[pp[self]]
@@ -5211,6 +5318,7 @@ pp_fn(self) == /\ pc[self] = "pp_fn"
                           /\ pc' = [pc EXCEPT ![self] = Head(stack[self]).pc]
                           /\ kj' = [kj EXCEPT ![self] = Head(stack[self]).kj]
                           /\ pp' = [pp EXCEPT ![self] = Head(stack[self]).pp]
+                          /\ pwk' = [pwk EXCEPT ![self] = Head(stack[self]).pwk]
                           /\ stack' = [stack EXCEPT ![self] = Tail(stack[self])]
                           /\ UNCHANGED ppHeld
                      ELSE /\ IF K(PipeOp(pp[self])) = "pipe_in"
@@ -5221,7 +5329,7 @@ pp_fn(self) == /\ pc[self] = "pp_fn"
                                                 /\ UNCHANGED ppHeld
                                            ELSE /\ ppHeld' = [ppHeld EXCEPT ![pp[self]] = ppHeld[pp[self]] + 1]
                                                 /\ pc' = [pc EXCEPT ![self] = "pp_bp"]
-                          /\ UNCHANGED << rv, stack, kj, pp >>
+                          /\ UNCHANGED << rv, stack, kj, pp, pwk >>
                /\ UNCHANGED << qstate, qpoll, jobs, wakeBlocked, schedule, 
                                pthreads, nspawned, palive, busy, busyLocked, 
                                inbox, chanOpen, pfin, thrHeld, maxThreads, 
@@ -5233,11 +5341,11 @@ pp_fn(self) == /\ pc[self] = "pp_fn"
                                atomic, strong, ppPending, ppClosed, ppNotify, 
                                ppNC, ppBP, ppDepth, ppAlive, inItems, inClosed, 
                                inWaker, pollFn, chuteFn, pwTaken, nextPoll, 
-                               ppItem, pjLive, h, dead, sti, rq, sq, sj, ww, 
-                               rsq, bown, bwk, bi, bcur, bw, bsp, jq, jj, jwk, 
-                               fj, dq, dj, oq, oop, omode, oj, yq, yop, tq, 
-                               top, af, wf, wop, sf, sctx, xf, cop, np, nbp, 
-                               nres, dp, pf, pctx, pq, pj, pd, nq >>
+                               ppItem, pjLive, ppStage, h, dead, sti, rq, sq, 
+                               sj, ww, rsq, bown, bwk, bi, bcur, bw, bsp, jq, 
+                               jj, jwk, fj, dq, dj, oq, oop, omode, oj, yq, 
+                               yop, tq, top, af, wf, wop, sf, sctx, xf, cop, 
+                               np, nbp, nres, dp, pf, pctx, pq, pj, pd, nq >>
 
 pp_bp(self) == /\ pc[self] = "pp_bp"
                /\ IF Len(ppPending[pp[self]]) >= ppDepth[pp[self]]
@@ -5247,11 +5355,12 @@ pp_bp(self) == /\ pc[self] = "pp_bp"
                           /\ pc' = [pc EXCEPT ![self] = Head(stack[self]).pc]
                           /\ kj' = [kj EXCEPT ![self] = Head(stack[self]).kj]
                           /\ pp' = [pp EXCEPT ![self] = Head(stack[self]).pp]
+                          /\ pwk' = [pwk EXCEPT ![self] = Head(stack[self]).pwk]
                           /\ stack' = [stack EXCEPT ![self] = Tail(stack[self])]
                      ELSE /\ IF ppClosed[pp[self]]
                                 THEN /\ pc' = [pc EXCEPT ![self] = "pp_closed"]
                                 ELSE /\ pc' = [pc EXCEPT ![self] = "pp_clear"]
-                          /\ UNCHANGED << rv, ppBP, ppHeld, stack, kj, pp >>
+                          /\ UNCHANGED << rv, ppBP, ppHeld, stack, kj, pp, pwk >>
                /\ UNCHANGED << qstate, qpoll, jobs, wakeBlocked, schedule, 
                                pthreads, nspawned, palive, busy, busyLocked, 
                                inbox, chanOpen, pfin, thrHeld, maxThreads, 
@@ -5263,11 +5372,11 @@ pp_bp(self) == /\ pc[self] = "pp_bp"
                                atomic, strong, ppPending, ppClosed, ppNotify, 
                                ppNC, ppDepth, ppAlive, inItems, inClosed, 
                                inWaker, pollFn, chuteFn, pwTaken, nextPoll, 
-                               ppItem, pjLive, h, dead, sti, rq, sq, sj, ww, 
-                               rsq, bown, bwk, bi, bcur, bw, bsp, jq, jj, jwk, 
-                               fj, dq, dj, oq, oop, omode, oj, yq, yop, tq, 
-                               top, af, wf, wop, sf, sctx, xf, cop, np, nbp, 
-                               nres, dp, pf, pctx, pq, pj, pd, nq >>
+                               ppItem, pjLive, ppStage, h, dead, sti, rq, sq, 
+                               sj, ww, rsq, bown, bwk, bi, bcur, bw, bsp, jq, 
+                               jj, jwk, fj, dq, dj, oq, oop, omode, oj, yq, 
+                               yop, tq, top, af, wf, wop, sf, sctx, xf, cop, 
+                               np, nbp, nres, dp, pf, pctx, pq, pj, pd, nq >>
 
 pp_clear(self) == /\ pc[self] = "pp_clear"
                   /\ IF FixD5 /\ ppClosed[pp[self]]
@@ -5288,11 +5397,11 @@ pp_clear(self) == /\ pc[self] = "pp_clear"
                                   dsl, atomic, strong, ppPending, ppClosed, 
                                   ppNotify, ppBP, ppDepth, ppAlive, inItems, 
                                   inClosed, inWaker, pollFn, chuteFn, pwTaken, 
-                                  nextPoll, ppItem, pjLive, h, stack, dead, 
-                                  sti, rq, sq, sj, ww, rsq, bown, bwk, bi, 
-                                  bcur, bw, bsp, jq, jj, jwk, fj, dq, dj, oq, 
-                                  oop, omode, oj, yq, yop, tq, top, af, wf, 
-                                  wop, sf, sctx, xf, cop, kj, pp, np, nbp, 
+                                  nextPoll, ppItem, pjLive, ppStage, h, stack, 
+                                  dead, sti, rq, sq, sj, ww, rsq, bown, bwk, 
+                                  bi, bcur, bw, bsp, jq, jj, jwk, fj, dq, dj, 
+                                  oq, oop, omode, oj, yq, yop, tq, top, af, wf, 
+                                  wop, sf, sctx, xf, cop, kj, pp, pwk, np, nbp, 
                                   nres, dp, pf, pctx, pq, pj, pd, nq >>
 
 pp_in(self) == /\ pc[self] = "pp_in"
@@ -5318,11 +5427,12 @@ pp_in(self) == /\ pc[self] = "pp_in"
                                atomic, strong, ppPending, ppClosed, ppNotify, 
                                ppNC, ppBP, ppDepth, ppAlive, ppHeld, inClosed, 
                                inWaker, pollFn, chuteFn, pwTaken, nextPoll, 
-                               pjLive, stack, dead, sti, rq, sq, sj, ww, rsq, 
-                               bown, bwk, bi, bcur, bw, bsp, jq, jj, jwk, fj, 
-                               dq, dj, oq, oop, omode, oj, yq, yop, tq, top, 
-                               af, wf, wop, sf, sctx, xf, cop, kj, pp, np, nbp, 
-                               nres, dp, pf, pctx, pq, pj, pd, nq >>
+                               pjLive, ppStage, stack, dead, sti, rq, sq, sj, 
+                               ww, rsq, bown, bwk, bi, bcur, bw, bsp, jq, jj, 
+                               jwk, fj, dq, dj, oq, oop, omode, oj, yq, yop, 
+                               tq, top, af, wf, wop, sf, sctx, xf, cop, kj, pp, 
+                               pwk, np, nbp, nres, dp, pf, pctx, pq, pj, pd, 
+                               nq >>
 
 pp_in2(self) == /\ pc[self] = "pp_in2"
                 /\ inWaker' = [inWaker EXCEPT ![pp[self]] = PW(kj[self])]
@@ -5348,23 +5458,24 @@ pp_in2(self) == /\ pc[self] = "pp_in2"
                                 atomic, strong, ppPending, ppClosed, ppNotify, 
                                 ppNC, ppBP, ppDepth, ppAlive, ppHeld, inClosed, 
                                 pollFn, chuteFn, pwTaken, nextPoll, pjLive, 
-                                stack, dead, sti, rq, sq, sj, ww, rsq, bown, 
-                                bwk, bi, bcur, bw, bsp, jq, jj, jwk, fj, dq, 
-                                dj, oq, oop, omode, oj, yq, yop, tq, top, af, 
-                                wf, wop, sf, sctx, xf, cop, kj, pp, np, nbp, 
-                                nres, dp, pf, pctx, pq, pj, pd, nq >>
+                                ppStage, stack, dead, sti, rq, sq, sj, ww, rsq, 
+                                bown, bwk, bi, bcur, bw, bsp, jq, jj, jwk, fj, 
+                                dq, dj, oq, oop, omode, oj, yq, yop, tq, top, 
+                                af, wf, wop, sf, sctx, xf, cop, kj, pp, pwk, 
+                                np, nbp, nres, dp, pf, pctx, pq, pj, pd, nq >>
 
 pp_reg(self) == /\ pc[self] = "pp_reg"
                 /\ IF FixD5 /\ ppClosed[pp[self]]
                       THEN /\ ppHeld' = [ppHeld EXCEPT ![pp[self]] = ppHeld[pp[self]] - 1]
                            /\ pc' = [pc EXCEPT ![self] = "pp_dealloc"]
-                           /\ UNCHANGED << rv, ppNC, stack, kj, pp >>
+                           /\ UNCHANGED << rv, ppNC, stack, kj, pp, pwk >>
                       ELSE /\ ppNC' = [ppNC EXCEPT ![pp[self]] = PW(kj[self])]
                            /\ ppHeld' = [ppHeld EXCEPT ![pp[self]] = ppHeld[pp[self]] - 1]
                            /\ rv' = [rv EXCEPT ![self] = 0]
                            /\ pc' = [pc EXCEPT ![self] = Head(stack[self]).pc]
                            /\ kj' = [kj EXCEPT ![self] = Head(stack[self]).kj]
                            /\ pp' = [pp EXCEPT ![self] = Head(stack[self]).pp]
+                           /\ pwk' = [pwk EXCEPT ![self] = Head(stack[self]).pwk]
                            /\ stack' = [stack EXCEPT ![self] = Tail(stack[self])]
                 /\ UNCHANGED << qstate, qpoll, jobs, wakeBlocked, schedule, 
                                 pthreads, nspawned, palive, busy, busyLocked, 
@@ -5377,11 +5488,11 @@ pp_reg(self) == /\ pc[self] = "pp_reg"
                                 atomic, strong, ppPending, ppClosed, ppNotify, 
                                 ppBP, ppDepth, ppAlive, inItems, inClosed, 
                                 inWaker, pollFn, chuteFn, pwTaken, nextPoll, 
-                                ppItem, pjLive, h, dead, sti, rq, sq, sj, ww, 
-                                rsq, bown, bwk, bi, bcur, bw, bsp, jq, jj, jwk, 
-                                fj, dq, dj, oq, oop, omode, oj, yq, yop, tq, 
-                                top, af, wf, wop, sf, sctx, xf, cop, np, nbp, 
-                                nres, dp, pf, pctx, pq, pj, pd, nq >>
+                                ppItem, pjLive, ppStage, h, dead, sti, rq, sq, 
+                                sj, ww, rsq, bown, bwk, bi, bcur, bw, bsp, jq, 
+                                jj, jwk, fj, dq, dj, oq, oop, omode, oj, yq, 
+                                yop, tq, top, af, wf, wop, sf, sctx, xf, cop, 
+                                np, nbp, nres, dp, pf, pctx, pq, pj, pd, nq >>
 
 pp_end(self) == /\ pc[self] = "pp_end"
                 /\ ppClosed' = [ppClosed EXCEPT ![pp[self]] = TRUE]
@@ -5399,12 +5510,13 @@ pp_end(self) == /\ pc[self] = "pp_end"
                                 dnState, dnWaker, rv, rwb, rneed, dsl, atomic, 
                                 strong, ppPending, ppNC, ppBP, ppDepth, 
                                 ppAlive, inItems, inClosed, inWaker, pollFn, 
-                                chuteFn, pwTaken, nextPoll, ppItem, pjLive, h, 
-                                stack, dead, sti, rq, sq, sj, ww, rsq, bown, 
-                                bwk, bi, bcur, bw, bsp, jq, jj, jwk, fj, dq, 
-                                dj, oq, oop, omode, oj, yq, yop, tq, top, af, 
-                                wf, wop, sf, sctx, xf, cop, kj, pp, np, nbp, 
-                                nres, dp, pf, pctx, pq, pj, pd, nq >>
+                                chuteFn, pwTaken, nextPoll, ppItem, pjLive, 
+                                ppStage, h, stack, dead, sti, rq, sq, sj, ww, 
+                                rsq, bown, bwk, bi, bcur, bw, bsp, jq, jj, jwk, 
+                                fj, dq, dj, oq, oop, omode, oj, yq, yop, tq, 
+                                top, af, wf, wop, sf, sctx, xf, cop, kj, pp, 
+                                pwk, np, nbp, nres, dp, pf, pctx, pq, pj, pd, 
+                                nq >>
 
 pp_closed(self) == /\ pc[self] = "pp_closed"
                    /\ parkTok' = Unpark(parkTok, TaskOf(ppNotify[pp[self]]))
@@ -5423,11 +5535,12 @@ pp_closed(self) == /\ pc[self] = "pp_closed"
                                    ppPending, ppClosed, ppNC, ppBP, ppDepth, 
                                    ppAlive, inItems, inClosed, inWaker, pollFn, 
                                    chuteFn, pwTaken, nextPoll, ppItem, pjLive, 
-                                   h, stack, dead, sti, rq, sq, sj, ww, rsq, 
-                                   bown, bwk, bi, bcur, bw, bsp, jq, jj, jwk, 
-                                   fj, dq, dj, oq, oop, omode, oj, yq, yop, tq, 
-                                   top, af, wf, wop, sf, sctx, xf, cop, kj, pp, 
-                                   np, nbp, nres, dp, pf, pctx, pq, pj, pd, nq >>
+                                   ppStage, h, stack, dead, sti, rq, sq, sj, 
+                                   ww, rsq, bown, bwk, bi, bcur, bw, bsp, jq, 
+                                   jj, jwk, fj, dq, dj, oq, oop, omode, oj, yq, 
+                                   yop, tq, top, af, wf, wop, sf, sctx, xf, 
+                                   cop, kj, pp, pwk, np, nbp, nres, dp, pf, 
+                                   pctx, pq, pj, pd, nq >>
 
 pp_proc(self) == /\ pc[self] = "pp_proc"
                  /\ h' = ObsProcStart(h, self, pp[self], ppItem[kj[self]])
@@ -5444,34 +5557,78 @@ pp_proc(self) == /\ pc[self] = "pp_proc"
                                  ppNotify, ppNC, ppBP, ppDepth, ppAlive, 
                                  ppHeld, inItems, inClosed, inWaker, pollFn, 
                                  chuteFn, pwTaken, nextPoll, ppItem, pjLive, 
-                                 stack, dead, sti, rq, sq, sj, ww, rsq, bown, 
-                                 bwk, bi, bcur, bw, bsp, jq, jj, jwk, fj, dq, 
-                                 dj, oq, oop, omode, oj, yq, yop, tq, top, af, 
-                                 wf, wop, sf, sctx, xf, cop, kj, pp, np, nbp, 
-                                 nres, dp, pf, pctx, pq, pj, pd, nq >>
+                                 ppStage, stack, dead, sti, rq, sq, sj, ww, 
+                                 rsq, bown, bwk, bi, bcur, bw, bsp, jq, jj, 
+                                 jwk, fj, dq, dj, oq, oop, omode, oj, yq, yop, 
+                                 tq, top, af, wf, wop, sf, sctx, xf, cop, kj, 
+                                 pp, pwk, np, nbp, nres, dp, pf, pctx, pq, pj, 
+                                 pd, nq >>
 
 pp_body(self) == /\ pc[self] = "pp_body"
-                 /\ h' = ObsProcEnd(h, self, pp[self], ppItem[kj[self]])
-                 /\ IF K(PipeOp(pp[self])) = "pipe_in"
-                       THEN /\ pc' = [pc EXCEPT ![self] = "pi_in"]
-                       ELSE /\ pc' = [pc EXCEPT ![self] = "pp_push"]
+                 /\ IF OpTab[PipeOp(pp[self])].g # 0 /\ OpTab[PipeOp(pp[self])].g \notin gfired
+                       THEN /\ gwaker' = [gwaker EXCEPT ![OpTab[PipeOp(pp[self])].g] = pwk[self]]
+                            /\ gwhist' = [gwhist EXCEPT ![OpTab[PipeOp(pp[self])].g] = Append(gwhist[OpTab[PipeOp(pp[self])].g], pwk[self])]
+                            /\ ppStage' = [ppStage EXCEPT ![kj[self]] = 1]
+                            /\ rv' = [rv EXCEPT ![self] = 5]
+                            /\ pc' = [pc EXCEPT ![self] = Head(stack[self]).pc]
+                            /\ kj' = [kj EXCEPT ![self] = Head(stack[self]).kj]
+                            /\ pp' = [pp EXCEPT ![self] = Head(stack[self]).pp]
+                            /\ pwk' = [pwk EXCEPT ![self] = Head(stack[self]).pwk]
+                            /\ stack' = [stack EXCEPT ![self] = Tail(stack[self])]
+                            /\ h' = h
+                       ELSE /\ IF OpTab[PipeOp(pp[self])].g # 0
+                                  THEN /\ ppStage' = [ppStage EXCEPT ![kj[self]] = 1]
+                                       /\ pc' = [pc EXCEPT ![self] = "pp_resumed"]
+                                       /\ h' = h
+                                  ELSE /\ h' = ObsProcEnd(h, self, pp[self], ppItem[kj[self]])
+                                       /\ IF K(PipeOp(pp[self])) = "pipe_in"
+                                             THEN /\ pc' = [pc EXCEPT ![self] = "pi_in"]
+                                             ELSE /\ pc' = [pc EXCEPT ![self] = "pp_push"]
+                                       /\ UNCHANGED ppStage
+                            /\ UNCHANGED << gwaker, gwhist, rv, stack, kj, pp, 
+                                            pwk >>
                  /\ UNCHANGED << qstate, qpoll, jobs, wakeBlocked, schedule, 
                                  pthreads, nspawned, palive, busy, busyLocked, 
                                  inbox, chanOpen, pfin, thrHeld, maxThreads, 
-                                 jkind, jaw, fres, fwaker, gfired, gwaker, 
-                                 gthreads, gwhist, dwSt, dwW, dblTaken, dblW1, 
-                                 dblW2, nextDW, ready, cwait, cnotif, cvHeld, 
-                                 sdres, jpanic, sfst, slotSt, qrSent, qrWaker, 
-                                 dnState, dnWaker, parkTok, rv, rwb, rneed, 
-                                 dsl, atomic, strong, ppPending, ppClosed, 
-                                 ppNotify, ppNC, ppBP, ppDepth, ppAlive, 
-                                 ppHeld, inItems, inClosed, inWaker, pollFn, 
-                                 chuteFn, pwTaken, nextPoll, ppItem, pjLive, 
-                                 stack, dead, sti, rq, sq, sj, ww, rsq, bown, 
-                                 bwk, bi, bcur, bw, bsp, jq, jj, jwk, fj, dq, 
-                                 dj, oq, oop, omode, oj, yq, yop, tq, top, af, 
-                                 wf, wop, sf, sctx, xf, cop, kj, pp, np, nbp, 
-                                 nres, dp, pf, pctx, pq, pj, pd, nq >>
+                                 jkind, jaw, fres, fwaker, gfired, gthreads, 
+                                 dwSt, dwW, dblTaken, dblW1, dblW2, nextDW, 
+                                 ready, cwait, cnotif, cvHeld, sdres, jpanic, 
+                                 sfst, slotSt, qrSent, qrWaker, dnState, 
+                                 dnWaker, parkTok, rwb, rneed, dsl, atomic, 
+                                 strong, ppPending, ppClosed, ppNotify, ppNC, 
+                                 ppBP, ppDepth, ppAlive, ppHeld, inItems, 
+                                 inClosed, inWaker, pollFn, chuteFn, pwTaken, 
+                                 nextPoll, ppItem, pjLive, dead, sti, rq, sq, 
+                                 sj, ww, rsq, bown, bwk, bi, bcur, bw, bsp, jq, 
+                                 jj, jwk, fj, dq, dj, oq, oop, omode, oj, yq, 
+                                 yop, tq, top, af, wf, wop, sf, sctx, xf, cop, 
+                                 np, nbp, nres, dp, pf, pctx, pq, pj, pd, nq >>
+
+pp_resumed(self) == /\ pc[self] = "pp_resumed"
+                    /\ ppStage' = [ppStage EXCEPT ![kj[self]] = 0]
+                    /\ h' = ObsProcEnd(h, self, pp[self], ppItem[kj[self]])
+                    /\ IF K(PipeOp(pp[self])) = "pipe_in"
+                          THEN /\ pc' = [pc EXCEPT ![self] = "pi_in"]
+                          ELSE /\ pc' = [pc EXCEPT ![self] = "pp_push"]
+                    /\ UNCHANGED << qstate, qpoll, jobs, wakeBlocked, schedule, 
+                                    pthreads, nspawned, palive, busy, 
+                                    busyLocked, inbox, chanOpen, pfin, thrHeld, 
+                                    maxThreads, jkind, jaw, fres, fwaker, 
+                                    gfired, gwaker, gthreads, gwhist, dwSt, 
+                                    dwW, dblTaken, dblW1, dblW2, nextDW, ready, 
+                                    cwait, cnotif, cvHeld, sdres, jpanic, sfst, 
+                                    slotSt, qrSent, qrWaker, dnState, dnWaker, 
+                                    parkTok, rv, rwb, rneed, dsl, atomic, 
+                                    strong, ppPending, ppClosed, ppNotify, 
+                                    ppNC, ppBP, ppDepth, ppAlive, ppHeld, 
+                                    inItems, inClosed, inWaker, pollFn, 
+                                    chuteFn, pwTaken, nextPoll, ppItem, pjLive, 
+                                    stack, dead, sti, rq, sq, sj, ww, rsq, 
+                                    bown, bwk, bi, bcur, bw, bsp, jq, jj, jwk, 
+                                    fj, dq, dj, oq, oop, omode, oj, yq, yop, 
+                                    tq, top, af, wf, wop, sf, sctx, xf, cop, 
+                                    kj, pp, pwk, np, nbp, nres, dp, pf, pctx, 
+                                    pq, pj, pd, nq >>
 
 pp_push(self) == /\ pc[self] = "pp_push"
                  /\ ppPending' = [ppPending EXCEPT ![pp[self]] = Append(ppPending[pp[self]], 10 * ppItem[kj[self]])]
@@ -5489,12 +5646,12 @@ pp_push(self) == /\ pc[self] = "pp_push"
                                  strong, ppClosed, ppNC, ppBP, ppDepth, 
                                  ppAlive, ppHeld, inItems, inClosed, inWaker, 
                                  pollFn, chuteFn, pwTaken, nextPoll, ppItem, 
-                                 pjLive, h, stack, dead, sti, rq, sq, sj, ww, 
-                                 rsq, bown, bwk, bi, bcur, bw, bsp, jq, jj, 
-                                 jwk, fj, dq, dj, oq, oop, omode, oj, yq, yop, 
-                                 tq, top, af, wf, wop, sf, sctx, xf, cop, kj, 
-                                 pp, np, nbp, nres, dp, pf, pctx, pq, pj, pd, 
-                                 nq >>
+                                 pjLive, ppStage, h, stack, dead, sti, rq, sq, 
+                                 sj, ww, rsq, bown, bwk, bi, bcur, bw, bsp, jq, 
+                                 jj, jwk, fj, dq, dj, oq, oop, omode, oj, yq, 
+                                 yop, tq, top, af, wf, wop, sf, sctx, xf, cop, 
+                                 kj, pp, pwk, np, nbp, nres, dp, pf, pctx, pq, 
+                                 pj, pd, nq >>
 
 pi_in(self) == /\ pc[self] = "pi_in"
                /\ IF inItems[pp[self]] # << >>
@@ -5519,11 +5676,12 @@ pi_in(self) == /\ pc[self] = "pi_in"
                                atomic, strong, ppPending, ppClosed, ppNotify, 
                                ppNC, ppBP, ppDepth, ppAlive, ppHeld, inClosed, 
                                inWaker, pollFn, chuteFn, pwTaken, nextPoll, 
-                               pjLive, stack, dead, sti, rq, sq, sj, ww, rsq, 
-                               bown, bwk, bi, bcur, bw, bsp, jq, jj, jwk, fj, 
-                               dq, dj, oq, oop, omode, oj, yq, yop, tq, top, 
-                               af, wf, wop, sf, sctx, xf, cop, kj, pp, np, nbp, 
-                               nres, dp, pf, pctx, pq, pj, pd, nq >>
+                               pjLive, ppStage, stack, dead, sti, rq, sq, sj, 
+                               ww, rsq, bown, bwk, bi, bcur, bw, bsp, jq, jj, 
+                               jwk, fj, dq, dj, oq, oop, omode, oj, yq, yop, 
+                               tq, top, af, wf, wop, sf, sctx, xf, cop, kj, pp, 
+                               pwk, np, nbp, nres, dp, pf, pctx, pq, pj, pd, 
+                               nq >>
 
 pi_in2(self) == /\ pc[self] = "pi_in2"
                 /\ inWaker' = [inWaker EXCEPT ![pp[self]] = PW(kj[self])]
@@ -5531,15 +5689,16 @@ pi_in2(self) == /\ pc[self] = "pi_in2"
                       THEN /\ ppItem' = [ppItem EXCEPT ![kj[self]] = Head(inItems[pp[self]])]
                            /\ inItems' = [inItems EXCEPT ![pp[self]] = Tail(inItems[pp[self]])]
                            /\ pc' = [pc EXCEPT ![self] = "pp_proc"]
-                           /\ UNCHANGED << rv, h, stack, kj, pp >>
+                           /\ UNCHANGED << rv, h, stack, kj, pp, pwk >>
                       ELSE /\ IF inClosed[pp[self]]
                                  THEN /\ h' = PFlag(h, pp[self], "in_end")
                                       /\ pc' = [pc EXCEPT ![self] = "pp_dealloc"]
-                                      /\ UNCHANGED << rv, stack, kj, pp >>
+                                      /\ UNCHANGED << rv, stack, kj, pp, pwk >>
                                  ELSE /\ rv' = [rv EXCEPT ![self] = 0]
                                       /\ pc' = [pc EXCEPT ![self] = Head(stack[self]).pc]
                                       /\ kj' = [kj EXCEPT ![self] = Head(stack[self]).kj]
                                       /\ pp' = [pp EXCEPT ![self] = Head(stack[self]).pp]
+                                      /\ pwk' = [pwk EXCEPT ![self] = Head(stack[self]).pwk]
                                       /\ stack' = [stack EXCEPT ![self] = Tail(stack[self])]
                                       /\ h' = h
                            /\ UNCHANGED << inItems, ppItem >>
@@ -5554,11 +5713,11 @@ pi_in2(self) == /\ pc[self] = "pi_in2"
                                 atomic, strong, ppPending, ppClosed, ppNotify, 
                                 ppNC, ppBP, ppDepth, ppAlive, ppHeld, inClosed, 
                                 pollFn, chuteFn, pwTaken, nextPoll, pjLive, 
-                                dead, sti, rq, sq, sj, ww, rsq, bown, bwk, bi, 
-                                bcur, bw, bsp, jq, jj, jwk, fj, dq, dj, oq, 
-                                oop, omode, oj, yq, yop, tq, top, af, wf, wop, 
-                                sf, sctx, xf, cop, np, nbp, nres, dp, pf, pctx, 
-                                pq, pj, pd, nq >>
+                                ppStage, dead, sti, rq, sq, sj, ww, rsq, bown, 
+                                bwk, bi, bcur, bw, bsp, jq, jj, jwk, fj, dq, 
+                                dj, oq, oop, omode, oj, yq, yop, tq, top, af, 
+                                wf, wop, sf, sctx, xf, cop, np, nbp, nres, dp, 
+                                pf, pctx, pq, pj, pd, nq >>
 
 pp_dealloc(self) == /\ pc[self] = "pp_dealloc"
                     /\ IF pollFn[pp[self]]
@@ -5570,6 +5729,7 @@ pp_dealloc(self) == /\ pc[self] = "pp_dealloc"
                     /\ pc' = [pc EXCEPT ![self] = Head(stack[self]).pc]
                     /\ kj' = [kj EXCEPT ![self] = Head(stack[self]).kj]
                     /\ pp' = [pp EXCEPT ![self] = Head(stack[self]).pp]
+                    /\ pwk' = [pwk EXCEPT ![self] = Head(stack[self]).pwk]
                     /\ stack' = [stack EXCEPT ![self] = Tail(stack[self])]
                     /\ UNCHANGED << qstate, qpoll, jobs, wakeBlocked, schedule, 
                                     pthreads, nspawned, palive, busy, 
@@ -5583,18 +5743,19 @@ pp_dealloc(self) == /\ pc[self] = "pp_dealloc"
                                     ppPending, ppClosed, ppNotify, ppNC, ppBP, 
                                     ppDepth, ppAlive, ppHeld, inItems, 
                                     inClosed, inWaker, chuteFn, pwTaken, 
-                                    nextPoll, ppItem, pjLive, dead, sti, rq, 
-                                    sq, sj, ww, rsq, bown, bwk, bi, bcur, bw, 
-                                    bsp, jq, jj, jwk, fj, dq, dj, oq, oop, 
-                                    omode, oj, yq, yop, tq, top, af, wf, wop, 
-                                    sf, sctx, xf, cop, np, nbp, nres, dp, pf, 
-                                    pctx, pq, pj, pd, nq >>
+                                    nextPoll, ppItem, pjLive, ppStage, dead, 
+                                    sti, rq, sq, sj, ww, rsq, bown, bwk, bi, 
+                                    bcur, bw, bsp, jq, jj, jwk, fj, dq, dj, oq, 
+                                    oop, omode, oj, yq, yop, tq, top, af, wf, 
+                                    wop, sf, sctx, xf, cop, np, nbp, nres, dp, 
+                                    pf, pctx, pq, pj, pd, nq >>
 
-PipePoll(self) == pp_fn(self) \/ pp_bp(self) \/ pp_clear(self)
-                     \/ pp_in(self) \/ pp_in2(self) \/ pp_reg(self)
-                     \/ pp_end(self) \/ pp_closed(self) \/ pp_proc(self)
-                     \/ pp_body(self) \/ pp_push(self) \/ pi_in(self)
-                     \/ pi_in2(self) \/ pp_dealloc(self)
+PipePoll(self) == z_pp_entry(self) \/ pp_fn(self) \/ pp_bp(self)
+                     \/ pp_clear(self) \/ pp_in(self) \/ pp_in2(self)
+                     \/ pp_reg(self) \/ pp_end(self) \/ pp_closed(self)
+                     \/ pp_proc(self) \/ pp_body(self) \/ pp_resumed(self)
+                     \/ pp_push(self) \/ pi_in(self) \/ pi_in2(self)
+                     \/ pp_dealloc(self)
 
 cn_poll(self) == /\ pc[self] = "cn_poll"
                  /\ nbp' = [nbp EXCEPT ![self] = ppBP[np[self]]]
@@ -5632,11 +5793,11 @@ cn_poll(self) == /\ pc[self] = "cn_poll"
                                  atomic, strong, ppClosed, ppNC, ppDepth, 
                                  ppAlive, ppHeld, inItems, inClosed, inWaker, 
                                  pollFn, chuteFn, pwTaken, nextPoll, ppItem, 
-                                 pjLive, h, dead, sti, rq, sq, sj, rsq, bown, 
-                                 bwk, bi, bcur, bw, bsp, jq, jj, jwk, fj, dq, 
-                                 dj, oq, oop, omode, oj, yq, yop, tq, top, af, 
-                                 wf, wop, sf, sctx, xf, cop, kj, pp, np, dp, 
-                                 pf, pctx, pq, pj, pd, nq >>
+                                 pjLive, ppStage, h, dead, sti, rq, sq, sj, 
+                                 rsq, bown, bwk, bi, bcur, bw, bsp, jq, jj, 
+                                 jwk, fj, dq, dj, oq, oop, omode, oj, yq, yop, 
+                                 tq, top, af, wf, wop, sf, sctx, xf, cop, kj, 
+                                 pp, pwk, np, dp, pf, pctx, pq, pj, pd, nq >>
 
 z_cn_after(self) == /\ pc[self] = "z_cn_after"
                     /\ IF rv[self] = 5
@@ -5661,11 +5822,11 @@ z_cn_after(self) == /\ pc[self] = "z_cn_after"
                                     ppNC, ppBP, ppDepth, ppAlive, ppHeld, 
                                     inItems, inClosed, inWaker, pollFn, 
                                     chuteFn, pwTaken, nextPoll, ppItem, pjLive, 
-                                    dead, sti, rq, sq, sj, ww, rsq, bown, bwk, 
-                                    bi, bcur, bw, bsp, jq, jj, jwk, fj, dq, dj, 
-                                    oq, oop, omode, oj, yq, yop, tq, top, af, 
-                                    wf, wop, sf, sctx, xf, cop, kj, pp, dp, pf, 
-                                    pctx, pq, pj, pd, nq >>
+                                    ppStage, dead, sti, rq, sq, sj, ww, rsq, 
+                                    bown, bwk, bi, bcur, bw, bsp, jq, jj, jwk, 
+                                    fj, dq, dj, oq, oop, omode, oj, yq, yop, 
+                                    tq, top, af, wf, wop, sf, sctx, xf, cop, 
+                                    kj, pp, pwk, dp, pf, pctx, pq, pj, pd, nq >>
 
 cn_park(self) == /\ pc[self] = "cn_park"
                  /\ parkTok[self]
@@ -5682,12 +5843,12 @@ cn_park(self) == /\ pc[self] = "cn_park"
                                  strong, ppPending, ppClosed, ppNotify, ppNC, 
                                  ppBP, ppDepth, ppAlive, ppHeld, inItems, 
                                  inClosed, inWaker, pollFn, chuteFn, pwTaken, 
-                                 nextPoll, ppItem, pjLive, h, stack, dead, sti, 
-                                 rq, sq, sj, ww, rsq, bown, bwk, bi, bcur, bw, 
-                                 bsp, jq, jj, jwk, fj, dq, dj, oq, oop, omode, 
-                                 oj, yq, yop, tq, top, af, wf, wop, sf, sctx, 
-                                 xf, cop, kj, pp, np, nbp, nres, dp, pf, pctx, 
-                                 pq, pj, pd, nq >>
+                                 nextPoll, ppItem, pjLive, ppStage, h, stack, 
+                                 dead, sti, rq, sq, sj, ww, rsq, bown, bwk, bi, 
+                                 bcur, bw, bsp, jq, jj, jwk, fj, dq, dj, oq, 
+                                 oop, omode, oj, yq, yop, tq, top, af, wf, wop, 
+                                 sf, sctx, xf, cop, kj, pp, pwk, np, nbp, nres, 
+                                 dp, pf, pctx, pq, pj, pd, nq >>
 
 PipeNext(self) == cn_poll(self) \/ z_cn_after(self) \/ cn_park(self)
 
@@ -5715,11 +5876,12 @@ ps_drop(self) == /\ pc[self] = "ps_drop"
                                  dsl, strong, ppNotify, ppNC, ppBP, ppDepth, 
                                  ppAlive, ppHeld, inItems, inClosed, inWaker, 
                                  pollFn, chuteFn, pwTaken, nextPoll, ppItem, 
-                                 pjLive, h, dead, sti, rq, sq, sj, rsq, bown, 
-                                 bwk, bi, bcur, bw, bsp, jq, jj, jwk, fj, dq, 
-                                 dj, oq, oop, omode, oj, yq, yop, tq, top, af, 
-                                 wf, wop, sf, sctx, xf, cop, kj, pp, np, nbp, 
-                                 nres, dp, pf, pctx, pq, pj, pd, nq >>
+                                 pjLive, ppStage, h, dead, sti, rq, sq, sj, 
+                                 rsq, bown, bwk, bi, bcur, bw, bsp, jq, jj, 
+                                 jwk, fj, dq, dj, oq, oop, omode, oj, yq, yop, 
+                                 tq, top, af, wf, wop, sf, sctx, xf, cop, kj, 
+                                 pp, pwk, np, nbp, nres, dp, pf, pctx, pq, pj, 
+                                 pd, nq >>
 
 z_ps2(self) == /\ pc[self] = "z_ps2"
                /\ ppNC' = [ppNC EXCEPT ![dp[self]] = NoW]
@@ -5743,11 +5905,11 @@ z_ps2(self) == /\ pc[self] = "z_ps2"
                                ppPending, ppClosed, ppNotify, ppBP, ppDepth, 
                                ppAlive, ppHeld, inItems, inClosed, inWaker, 
                                pollFn, chuteFn, pwTaken, nextPoll, ppItem, 
-                               pjLive, h, dead, sti, rq, ww, rsq, bown, bwk, 
-                               bi, bcur, bw, bsp, jq, jj, jwk, fj, dq, dj, oq, 
-                               oop, omode, oj, yq, yop, tq, top, af, wf, wop, 
-                               sf, sctx, xf, cop, kj, pp, np, nbp, nres, dp, 
-                               pf, pctx, pq, pj, pd, nq >>
+                               pjLive, ppStage, h, dead, sti, rq, ww, rsq, 
+                               bown, bwk, bi, bcur, bw, bsp, jq, jj, jwk, fj, 
+                               dq, dj, oq, oop, omode, oj, yq, yop, tq, top, 
+                               af, wf, wop, sf, sctx, xf, cop, kj, pp, pwk, np, 
+                               nbp, nres, dp, pf, pctx, pq, pj, pd, nq >>
 
 z_ps3(self) == /\ pc[self] = "z_ps3"
                /\ atomic' = [atomic EXCEPT ![self] = FALSE]
@@ -5765,11 +5927,12 @@ z_ps3(self) == /\ pc[self] = "z_ps3"
                                strong, ppPending, ppClosed, ppNotify, ppNC, 
                                ppBP, ppDepth, ppHeld, inItems, inClosed, 
                                inWaker, pollFn, chuteFn, pwTaken, nextPoll, 
-                               ppItem, pjLive, h, stack, dead, sti, rq, sq, sj, 
-                               ww, rsq, bown, bwk, bi, bcur, bw, bsp, jq, jj, 
-                               jwk, fj, dq, dj, oq, oop, omode, oj, yq, yop, 
-                               tq, top, af, wf, wop, sf, sctx, xf, cop, kj, pp, 
-                               np, nbp, nres, dp, pf, pctx, pq, pj, pd, nq >>
+                               ppItem, pjLive, ppStage, h, stack, dead, sti, 
+                               rq, sq, sj, ww, rsq, bown, bwk, bi, bcur, bw, 
+                               bsp, jq, jj, jwk, fj, dq, dj, oq, oop, omode, 
+                               oj, yq, yop, tq, top, af, wf, wop, sf, sctx, xf, 
+                               cop, kj, pp, pwk, np, nbp, nres, dp, pf, pctx, 
+                               pq, pj, pd, nq >>
 
 z_ps_gc(self) == /\ pc[self] = "z_ps_gc"
                  /\ IF pollFn[dp[self]] /\ ~CtxAlive(dp[self])
@@ -5791,12 +5954,12 @@ z_ps_gc(self) == /\ pc[self] = "z_ps_gc"
                                  dsl, atomic, strong, ppPending, ppClosed, 
                                  ppNotify, ppNC, ppBP, ppDepth, ppAlive, 
                                  ppHeld, inItems, inClosed, inWaker, chuteFn, 
-                                 pwTaken, nextPoll, ppItem, pjLive, dead, sti, 
-                                 rq, sq, sj, ww, rsq, bown, bwk, bi, bcur, bw, 
-                                 bsp, jq, jj, jwk, fj, dq, dj, oq, oop, omode, 
-                                 oj, yq, yop, tq, top, af, wf, wop, sf, sctx, 
-                                 xf, cop, kj, pp, np, nbp, nres, pf, pctx, pq, 
-                                 pj, pd, nq >>
+                                 pwTaken, nextPoll, ppItem, pjLive, ppStage, 
+                                 dead, sti, rq, sq, sj, ww, rsq, bown, bwk, bi, 
+                                 bcur, bw, bsp, jq, jj, jwk, fj, dq, dj, oq, 
+                                 oop, omode, oj, yq, yop, tq, top, af, wf, wop, 
+                                 sf, sctx, xf, cop, kj, pp, pwk, np, nbp, nres, 
+                                 pf, pctx, pq, pj, pd, nq >>
 
 PipeDrop(self) == ps_drop(self) \/ z_ps2(self) \/ z_ps3(self)
                      \/ z_ps_gc(self)
@@ -5815,12 +5978,12 @@ ds_max(self) == /\ pc[self] = "ds_max"
                                 atomic, strong, ppPending, ppClosed, ppNotify, 
                                 ppNC, ppBP, ppDepth, ppAlive, ppHeld, inItems, 
                                 inClosed, inWaker, pollFn, chuteFn, pwTaken, 
-                                nextPoll, ppItem, pjLive, h, stack, dead, sti, 
-                                rq, sq, sj, ww, rsq, bown, bwk, bi, bcur, bw, 
-                                bsp, jq, jj, jwk, fj, dq, dj, oq, oop, omode, 
-                                oj, yq, yop, tq, top, af, wf, wop, sf, sctx, 
-                                xf, cop, kj, pp, np, nbp, nres, dp, pf, pctx, 
-                                pq, pj, pd, nq >>
+                                nextPoll, ppItem, pjLive, ppStage, h, stack, 
+                                dead, sti, rq, sq, sj, ww, rsq, bown, bwk, bi, 
+                                bcur, bw, bsp, jq, jj, jwk, fj, dq, dj, oq, 
+                                oop, omode, oj, yq, yop, tq, top, af, wf, wop, 
+                                sf, sctx, xf, cop, kj, pp, pwk, np, nbp, nres, 
+                                dp, pf, pctx, pq, pj, pd, nq >>
 
 ds_pop(self) == /\ pc[self] = "ds_pop"
                 /\ thrHeld = ""
@@ -5844,11 +6007,12 @@ ds_pop(self) == /\ pc[self] = "ds_pop"
                                 ppClosed, ppNotify, ppNC, ppBP, ppDepth, 
                                 ppAlive, ppHeld, inItems, inClosed, inWaker, 
                                 pollFn, chuteFn, pwTaken, nextPoll, ppItem, 
-                                pjLive, h, dead, sti, rq, sq, sj, ww, rsq, 
-                                bown, bwk, bi, bcur, bw, bsp, jq, jj, jwk, fj, 
-                                dq, dj, oq, oop, omode, oj, yq, yop, tq, top, 
-                                af, wf, wop, sf, sctx, xf, cop, kj, pp, np, 
-                                nbp, nres, dp, pf, pctx, pq, pj, pd, nq >>
+                                pjLive, ppStage, h, dead, sti, rq, sq, sj, ww, 
+                                rsq, bown, bwk, bi, bcur, bw, bsp, jq, jj, jwk, 
+                                fj, dq, dj, oq, oop, omode, oj, yq, yop, tq, 
+                                top, af, wf, wop, sf, sctx, xf, cop, kj, pp, 
+                                pwk, np, nbp, nres, dp, pf, pctx, pq, pj, pd, 
+                                nq >>
 
 ds_join(self) == /\ pc[self] = "ds_join"
                  /\ pfin[Head(dsl[self])]
@@ -5871,12 +6035,12 @@ ds_join(self) == /\ pc[self] = "ds_join"
                                  strong, ppPending, ppClosed, ppNotify, ppNC, 
                                  ppBP, ppDepth, ppAlive, ppHeld, inItems, 
                                  inClosed, inWaker, pollFn, chuteFn, pwTaken, 
-                                 nextPoll, ppItem, pjLive, dead, sti, rq, sq, 
-                                 sj, ww, rsq, bown, bwk, bi, bcur, bw, bsp, jq, 
-                                 jj, jwk, fj, dq, dj, oq, oop, omode, oj, yq, 
-                                 yop, tq, top, af, wf, wop, sf, sctx, xf, cop, 
-                                 kj, pp, np, nbp, nres, dp, pf, pctx, pq, pj, 
-                                 pd, nq >>
+                                 nextPoll, ppItem, pjLive, ppStage, dead, sti, 
+                                 rq, sq, sj, ww, rsq, bown, bwk, bi, bcur, bw, 
+                                 bsp, jq, jj, jwk, fj, dq, dj, oq, oop, omode, 
+                                 oj, yq, yop, tq, top, af, wf, wop, sf, sctx, 
+                                 xf, cop, kj, pp, pwk, np, nbp, nres, dp, pf, 
+                                 pctx, pq, pj, pd, nq >>
 
 Despawn(self) == ds_max(self) \/ ds_pop(self) \/ ds_join(self)
 
@@ -5951,11 +6115,12 @@ pf_decide(self) == /\ pc[self] = "pf_decide"
                                    ppPending, ppClosed, ppNotify, ppNC, ppBP, 
                                    ppDepth, ppAlive, ppHeld, inItems, inClosed, 
                                    inWaker, pollFn, chuteFn, pwTaken, nextPoll, 
-                                   ppItem, pjLive, h, dead, sti, rq, sq, sj, 
-                                   ww, rsq, bown, bwk, bi, bcur, bw, bsp, jq, 
-                                   jj, jwk, fj, dq, dj, oq, oop, omode, oj, yq, 
-                                   yop, tq, top, af, wf, wop, sf, sctx, xf, 
-                                   cop, kj, pp, np, nbp, nres, dp, nq >>
+                                   ppItem, pjLive, ppStage, h, dead, sti, rq, 
+                                   sq, sj, ww, rsq, bown, bwk, bi, bcur, bw, 
+                                   bsp, jq, jj, jwk, fj, dq, dj, oq, oop, 
+                                   omode, oj, yq, yop, tq, top, af, wf, wop, 
+                                   sf, sctx, xf, cop, kj, pp, pwk, np, nbp, 
+                                   nres, dp, nq >>
 
 dq_res(self) == /\ pc[self] = "dq_res"
                 /\ IF fres[pf[self]] = "some"
@@ -5979,12 +6144,12 @@ dq_res(self) == /\ pc[self] = "dq_res"
                                 strong, ppPending, ppClosed, ppNotify, ppNC, 
                                 ppBP, ppDepth, ppAlive, ppHeld, inItems, 
                                 inClosed, inWaker, pollFn, chuteFn, pwTaken, 
-                                nextPoll, ppItem, pjLive, h, stack, dead, sti, 
-                                rq, sq, sj, ww, rsq, bown, bwk, bi, bcur, bw, 
-                                bsp, jq, jj, jwk, fj, dq, dj, oq, oop, omode, 
-                                oj, yq, yop, tq, top, af, wf, wop, sf, sctx, 
-                                xf, cop, kj, pp, np, nbp, nres, dp, pf, pctx, 
-                                pq, pj, pd, nq >>
+                                nextPoll, ppItem, pjLive, ppStage, h, stack, 
+                                dead, sti, rq, sq, sj, ww, rsq, bown, bwk, bi, 
+                                bcur, bw, bsp, jq, jj, jwk, fj, dq, dj, oq, 
+                                oop, omode, oj, yq, yop, tq, top, af, wf, wop, 
+                                sf, sctx, xf, cop, kj, pp, pwk, np, nbp, nres, 
+                                dp, pf, pctx, pq, pj, pd, nq >>
 
 dq_deq(self) == /\ pc[self] = "dq_deq"
                 /\ IF qstate[pq[self]] \in Waiting \/ jobs[pq[self]] = << >>
@@ -6016,11 +6181,12 @@ dq_deq(self) == /\ pc[self] = "dq_deq"
                                 strong, ppPending, ppClosed, ppNotify, ppNC, 
                                 ppBP, ppDepth, ppAlive, ppHeld, inItems, 
                                 inClosed, inWaker, pollFn, chuteFn, pwTaken, 
-                                nextPoll, ppItem, pjLive, h, dead, sti, rq, sq, 
-                                sj, ww, rsq, bown, bwk, bi, bcur, bw, bsp, fj, 
-                                dq, dj, oq, oop, omode, oj, yq, yop, tq, top, 
-                                af, wf, wop, sf, sctx, xf, cop, kj, pp, np, 
-                                nbp, nres, dp, pf, pctx, pq, nq >>
+                                nextPoll, ppItem, pjLive, ppStage, h, dead, 
+                                sti, rq, sq, sj, ww, rsq, bown, bwk, bi, bcur, 
+                                bw, bsp, fj, dq, dj, oq, oop, omode, oj, yq, 
+                                yop, tq, top, af, wf, wop, sf, sctx, xf, cop, 
+                                kj, pp, pwk, np, nbp, nres, dp, pf, pctx, pq, 
+                                nq >>
 
 z_dq_after(self) == /\ pc[self] = "z_dq_after"
                     /\ IF rv[self] = 5
@@ -6058,11 +6224,12 @@ z_dq_after(self) == /\ pc[self] = "z_dq_after"
                                     ppNC, ppBP, ppDepth, ppAlive, ppHeld, 
                                     inItems, inClosed, inWaker, pollFn, 
                                     chuteFn, pwTaken, nextPoll, ppItem, pjLive, 
-                                    h, dead, sti, rq, sq, sj, ww, rsq, bown, 
-                                    bwk, bi, bcur, bw, bsp, jq, jj, jwk, dq, 
-                                    dj, oq, oop, omode, oj, yq, yop, tq, top, 
-                                    af, wf, wop, sf, sctx, xf, cop, kj, pp, np, 
-                                    nbp, nres, dp, pf, pctx, pq, pj, pd, nq >>
+                                    ppStage, h, dead, sti, rq, sq, sj, ww, rsq, 
+                                    bown, bwk, bi, bcur, bw, bsp, jq, jj, jwk, 
+                                    dq, dj, oq, oop, omode, oj, yq, yop, tq, 
+                                    top, af, wf, wop, sf, sctx, xf, cop, kj, 
+                                    pp, pwk, np, nbp, nres, dp, pf, pctx, pq, 
+                                    pj, pd, nq >>
 
 dq_requeue(self) == /\ pc[self] = "dq_requeue"
                     /\ jobs' = [jobs EXCEPT ![pq[self]] = << pj[self] >> \o jobs[pq[self]]]
@@ -6080,12 +6247,12 @@ dq_requeue(self) == /\ pc[self] = "dq_requeue"
                                     ppNC, ppBP, ppDepth, ppAlive, ppHeld, 
                                     inItems, inClosed, inWaker, pollFn, 
                                     chuteFn, pwTaken, nextPoll, ppItem, pjLive, 
-                                    h, stack, dead, sti, rq, sq, sj, ww, rsq, 
-                                    bown, bwk, bi, bcur, bw, bsp, jq, jj, jwk, 
-                                    fj, dq, dj, oq, oop, omode, oj, yq, yop, 
-                                    tq, top, af, wf, wop, sf, sctx, xf, cop, 
-                                    kj, pp, np, nbp, nres, dp, pf, pctx, pq, 
-                                    pj, pd, nq >>
+                                    ppStage, h, stack, dead, sti, rq, sq, sj, 
+                                    ww, rsq, bown, bwk, bi, bcur, bw, bsp, jq, 
+                                    jj, jwk, fj, dq, dj, oq, oop, omode, oj, 
+                                    yq, yop, tq, top, af, wf, wop, sf, sctx, 
+                                    xf, cop, kj, pp, pwk, np, nbp, nres, dp, 
+                                    pf, pctx, pq, pj, pd, nq >>
 
 dq_res2(self) == /\ pc[self] = "dq_res2"
                  /\ IF fres[pf[self]] = "some"
@@ -6109,12 +6276,12 @@ dq_res2(self) == /\ pc[self] = "dq_res2"
                                  atomic, strong, ppPending, ppClosed, ppNotify, 
                                  ppNC, ppBP, ppDepth, ppAlive, ppHeld, inItems, 
                                  inClosed, inWaker, pollFn, chuteFn, pwTaken, 
-                                 nextPoll, ppItem, pjLive, h, stack, dead, sti, 
-                                 rq, sq, sj, ww, rsq, bown, bwk, bi, bcur, bw, 
-                                 bsp, jq, jj, jwk, fj, dq, dj, oq, oop, omode, 
-                                 oj, yq, yop, tq, top, af, wf, wop, sf, sctx, 
-                                 xf, cop, kj, pp, np, nbp, nres, dp, pf, pctx, 
-                                 pq, pj, pd, nq >>
+                                 nextPoll, ppItem, pjLive, ppStage, h, stack, 
+                                 dead, sti, rq, sq, sj, ww, rsq, bown, bwk, bi, 
+                                 bcur, bw, bsp, jq, jj, jwk, fj, dq, dj, oq, 
+                                 oop, omode, oj, yq, yop, tq, top, af, wf, wop, 
+                                 sf, sctx, xf, cop, kj, pp, pwk, np, nbp, nres, 
+                                 dp, pf, pctx, pq, pj, pd, nq >>
 
 dq_waitwake(self) == /\ pc[self] = "dq_waitwake"
                      /\ qstate' = [qstate EXCEPT ![pq[self]] = "WaitingForWake"]
@@ -6132,12 +6299,13 @@ dq_waitwake(self) == /\ pc[self] = "dq_waitwake"
                                      ppNotify, ppNC, ppBP, ppDepth, ppAlive, 
                                      ppHeld, inItems, inClosed, inWaker, 
                                      pollFn, chuteFn, pwTaken, nextPoll, 
-                                     ppItem, pjLive, h, stack, dead, sti, rq, 
-                                     sq, sj, ww, rsq, bown, bwk, bi, bcur, bw, 
-                                     bsp, jq, jj, jwk, fj, dq, dj, oq, oop, 
-                                     omode, oj, yq, yop, tq, top, af, wf, wop, 
-                                     sf, sctx, xf, cop, kj, pp, np, nbp, nres, 
-                                     dp, pf, pctx, pq, pj, pd, nq >>
+                                     ppItem, pjLive, ppStage, h, stack, dead, 
+                                     sti, rq, sq, sj, ww, rsq, bown, bwk, bi, 
+                                     bcur, bw, bsp, jq, jj, jwk, fj, dq, dj, 
+                                     oq, oop, omode, oj, yq, yop, tq, top, af, 
+                                     wf, wop, sf, sctx, xf, cop, kj, pp, pwk, 
+                                     np, nbp, nres, dp, pf, pctx, pq, pj, pd, 
+                                     nq >>
 
 dq_ww1(self) == /\ pc[self] = "dq_ww1"
                 /\ IF dwSt[pd[self]] = "Woken"
@@ -6163,12 +6331,12 @@ dq_ww1(self) == /\ pc[self] = "dq_ww1"
                                 strong, ppPending, ppClosed, ppNotify, ppNC, 
                                 ppBP, ppDepth, ppAlive, ppHeld, inItems, 
                                 inClosed, inWaker, pollFn, chuteFn, pwTaken, 
-                                nextPoll, ppItem, pjLive, h, dead, sti, rq, sq, 
-                                sj, rsq, bown, bwk, bi, bcur, bw, bsp, jq, jj, 
-                                jwk, fj, dq, dj, oq, oop, omode, oj, yq, yop, 
-                                tq, top, af, wf, wop, sf, sctx, xf, cop, kj, 
-                                pp, np, nbp, nres, dp, pf, pctx, pq, pj, pd, 
-                                nq >>
+                                nextPoll, ppItem, pjLive, ppStage, h, dead, 
+                                sti, rq, sq, sj, rsq, bown, bwk, bi, bcur, bw, 
+                                bsp, jq, jj, jwk, fj, dq, dj, oq, oop, omode, 
+                                oj, yq, yop, tq, top, af, wf, wop, sf, sctx, 
+                                xf, cop, kj, pp, pwk, np, nbp, nres, dp, pf, 
+                                pctx, pq, pj, pd, nq >>
 
 z_dq_ready(self) == /\ pc[self] = "z_dq_ready"
                     /\ pc' = [pc EXCEPT ![self] = Head(stack[self]).pc]
@@ -6191,11 +6359,11 @@ z_dq_ready(self) == /\ pc[self] = "z_dq_ready"
                                     ppNC, ppBP, ppDepth, ppAlive, ppHeld, 
                                     inItems, inClosed, inWaker, pollFn, 
                                     chuteFn, pwTaken, nextPoll, ppItem, pjLive, 
-                                    h, dead, sti, rq, sq, sj, ww, rsq, bown, 
-                                    bwk, bi, bcur, bw, bsp, jq, jj, jwk, fj, 
-                                    dq, dj, oq, oop, omode, oj, yq, yop, tq, 
-                                    top, af, wf, wop, sf, sctx, xf, cop, kj, 
-                                    pp, np, nbp, nres, dp, nq >>
+                                    ppStage, h, dead, sti, rq, sq, sj, ww, rsq, 
+                                    bown, bwk, bi, bcur, bw, bsp, jq, jj, jwk, 
+                                    fj, dq, dj, oq, oop, omode, oj, yq, yop, 
+                                    tq, top, af, wf, wop, sf, sctx, xf, cop, 
+                                    kj, pp, pwk, np, nbp, nres, dp, nq >>
 
 dq_setwaker(self) == /\ pc[self] = "dq_setwaker"
                      /\ fwaker' = [fwaker EXCEPT ![pf[self]] = pctx[self]]
@@ -6213,12 +6381,13 @@ dq_setwaker(self) == /\ pc[self] = "dq_setwaker"
                                      ppNotify, ppNC, ppBP, ppDepth, ppAlive, 
                                      ppHeld, inItems, inClosed, inWaker, 
                                      pollFn, chuteFn, pwTaken, nextPoll, 
-                                     ppItem, pjLive, h, stack, dead, sti, rq, 
-                                     sq, sj, ww, rsq, bown, bwk, bi, bcur, bw, 
-                                     bsp, jq, jj, jwk, fj, dq, dj, oq, oop, 
-                                     omode, oj, yq, yop, tq, top, af, wf, wop, 
-                                     sf, sctx, xf, cop, kj, pp, np, nbp, nres, 
-                                     dp, pf, pctx, pq, pj, pd, nq >>
+                                     ppItem, pjLive, ppStage, h, stack, dead, 
+                                     sti, rq, sq, sj, ww, rsq, bown, bwk, bi, 
+                                     bcur, bw, bsp, jq, jj, jwk, fj, dq, dj, 
+                                     oq, oop, omode, oj, yq, yop, tq, top, af, 
+                                     wf, wop, sf, sctx, xf, cop, kj, pp, pwk, 
+                                     np, nbp, nres, dp, pf, pctx, pq, pj, pd, 
+                                     nq >>
 
 dq_waitpoll(self) == /\ pc[self] = "dq_waitpoll"
                      /\ qstate' = [qstate EXCEPT ![pq[self]] = "WaitingForPoll"]
@@ -6237,12 +6406,12 @@ dq_waitpoll(self) == /\ pc[self] = "dq_waitpoll"
                                      ppNC, ppBP, ppDepth, ppAlive, ppHeld, 
                                      inItems, inClosed, inWaker, pollFn, 
                                      chuteFn, pwTaken, nextPoll, ppItem, 
-                                     pjLive, h, stack, dead, sti, rq, sq, sj, 
-                                     ww, rsq, bown, bwk, bi, bcur, bw, bsp, jq, 
-                                     jj, jwk, fj, dq, dj, oq, oop, omode, oj, 
-                                     yq, yop, tq, top, af, wf, wop, sf, sctx, 
-                                     xf, cop, kj, pp, np, nbp, nres, dp, pf, 
-                                     pctx, pq, pj, pd, nq >>
+                                     pjLive, ppStage, h, stack, dead, sti, rq, 
+                                     sq, sj, ww, rsq, bown, bwk, bi, bcur, bw, 
+                                     bsp, jq, jj, jwk, fj, dq, dj, oq, oop, 
+                                     omode, oj, yq, yop, tq, top, af, wf, wop, 
+                                     sf, sctx, xf, cop, kj, pp, pwk, np, nbp, 
+                                     nres, dp, pf, pctx, pq, pj, pd, nq >>
 
 dq_ww2(self) == /\ pc[self] = "dq_ww2"
                 /\ dblW1' = [dblW1 EXCEPT ![pd[self]] = WQ(pq[self])]
@@ -6270,11 +6439,12 @@ dq_ww2(self) == /\ pc[self] = "dq_ww2"
                                 ppPending, ppClosed, ppNotify, ppNC, ppBP, 
                                 ppDepth, ppAlive, ppHeld, inItems, inClosed, 
                                 inWaker, pollFn, chuteFn, pwTaken, nextPoll, 
-                                ppItem, pjLive, h, dead, sti, rq, sq, sj, rsq, 
-                                bown, bwk, bi, bcur, bw, bsp, jq, jj, jwk, fj, 
-                                dq, dj, oq, oop, omode, oj, yq, yop, tq, top, 
-                                af, wf, wop, sf, sctx, xf, cop, kj, pp, np, 
-                                nbp, nres, dp, pf, pctx, pq, pj, pd, nq >>
+                                ppItem, pjLive, ppStage, h, dead, sti, rq, sq, 
+                                sj, rsq, bown, bwk, bi, bcur, bw, bsp, jq, jj, 
+                                jwk, fj, dq, dj, oq, oop, omode, oj, yq, yop, 
+                                tq, top, af, wf, wop, sf, sctx, xf, cop, kj, 
+                                pp, pwk, np, nbp, nres, dp, pf, pctx, pq, pj, 
+                                pd, nq >>
 
 z_dq_pending(self) == /\ pc[self] = "z_dq_pending"
                       /\ rv' = [rv EXCEPT ![self] = 5]
@@ -6298,12 +6468,12 @@ z_dq_pending(self) == /\ pc[self] = "z_dq_pending"
                                       ppClosed, ppNotify, ppNC, ppBP, ppDepth, 
                                       ppAlive, ppHeld, inItems, inClosed, 
                                       inWaker, pollFn, chuteFn, pwTaken, 
-                                      nextPoll, ppItem, pjLive, h, dead, sti, 
-                                      rq, sq, sj, ww, rsq, bown, bwk, bi, bcur, 
-                                      bw, bsp, jq, jj, jwk, fj, dq, dj, oq, 
-                                      oop, omode, oj, yq, yop, tq, top, af, wf, 
-                                      wop, sf, sctx, xf, cop, kj, pp, np, nbp, 
-                                      nres, dp, nq >>
+                                      nextPoll, ppItem, pjLive, ppStage, h, 
+                                      dead, sti, rq, sq, sj, ww, rsq, bown, 
+                                      bwk, bi, bcur, bw, bsp, jq, jj, jwk, fj, 
+                                      dq, dj, oq, oop, omode, oj, yq, yop, tq, 
+                                      top, af, wf, wop, sf, sctx, xf, cop, kj, 
+                                      pp, pwk, np, nbp, nres, dp, nq >>
 
 dq_empty_w(self) == /\ pc[self] = "dq_empty_w"
                     /\ fwaker' = [fwaker EXCEPT ![pf[self]] = pctx[self]]
@@ -6321,12 +6491,12 @@ dq_empty_w(self) == /\ pc[self] = "dq_empty_w"
                                     ppNC, ppBP, ppDepth, ppAlive, ppHeld, 
                                     inItems, inClosed, inWaker, pollFn, 
                                     chuteFn, pwTaken, nextPoll, ppItem, pjLive, 
-                                    h, stack, dead, sti, rq, sq, sj, ww, rsq, 
-                                    bown, bwk, bi, bcur, bw, bsp, jq, jj, jwk, 
-                                    fj, dq, dj, oq, oop, omode, oj, yq, yop, 
-                                    tq, top, af, wf, wop, sf, sctx, xf, cop, 
-                                    kj, pp, np, nbp, nres, dp, pf, pctx, pq, 
-                                    pj, pd, nq >>
+                                    ppStage, h, stack, dead, sti, rq, sq, sj, 
+                                    ww, rsq, bown, bwk, bi, bcur, bw, bsp, jq, 
+                                    jj, jwk, fj, dq, dj, oq, oop, omode, oj, 
+                                    yq, yop, tq, top, af, wf, wop, sf, sctx, 
+                                    xf, cop, kj, pp, pwk, np, nbp, nres, dp, 
+                                    pf, pctx, pq, pj, pd, nq >>
 
 dq_empty_idle(self) == /\ pc[self] = "dq_empty_idle"
                        /\ qstate' = [qstate EXCEPT ![pq[self]] = "Idle"]
@@ -6350,12 +6520,12 @@ dq_empty_idle(self) == /\ pc[self] = "dq_empty_idle"
                                        ppNC, ppBP, ppDepth, ppAlive, ppHeld, 
                                        inItems, inClosed, inWaker, pollFn, 
                                        chuteFn, pwTaken, nextPoll, ppItem, 
-                                       pjLive, h, dead, sti, sq, sj, ww, rsq, 
-                                       bown, bwk, bi, bcur, bw, bsp, jq, jj, 
-                                       jwk, fj, dq, dj, oq, oop, omode, oj, yq, 
-                                       yop, tq, top, af, wf, wop, sf, sctx, xf, 
-                                       cop, kj, pp, np, nbp, nres, dp, pf, 
-                                       pctx, pq, pj, pd, nq >>
+                                       pjLive, ppStage, h, dead, sti, sq, sj, 
+                                       ww, rsq, bown, bwk, bi, bcur, bw, bsp, 
+                                       jq, jj, jwk, fj, dq, dj, oq, oop, omode, 
+                                       oj, yq, yop, tq, top, af, wf, wop, sf, 
+                                       sctx, xf, cop, kj, pp, pwk, np, nbp, 
+                                       nres, dp, pf, pctx, pq, pj, pd, nq >>
 
 dq_idle(self) == /\ pc[self] = "dq_idle"
                  /\ qstate' = [qstate EXCEPT ![pq[self]] = "Idle"]
@@ -6376,12 +6546,12 @@ dq_idle(self) == /\ pc[self] = "dq_idle"
                                  dsl, atomic, strong, ppPending, ppClosed, 
                                  ppNotify, ppNC, ppBP, ppDepth, ppAlive, 
                                  ppHeld, inItems, inClosed, inWaker, pollFn, 
-                                 chuteFn, pwTaken, nextPoll, ppItem, pjLive, h, 
-                                 dead, sti, sq, sj, ww, rsq, bown, bwk, bi, 
-                                 bcur, bw, bsp, jq, jj, jwk, fj, dq, dj, oq, 
-                                 oop, omode, oj, yq, yop, tq, top, af, wf, wop, 
-                                 sf, sctx, xf, cop, kj, pp, np, nbp, nres, dp, 
-                                 pf, pctx, pq, pj, pd, nq >>
+                                 chuteFn, pwTaken, nextPoll, ppItem, pjLive, 
+                                 ppStage, h, dead, sti, sq, sj, ww, rsq, bown, 
+                                 bwk, bi, bcur, bw, bsp, jq, jj, jwk, fj, dq, 
+                                 dj, oq, oop, omode, oj, yq, yop, tq, top, af, 
+                                 wf, wop, sf, sctx, xf, cop, kj, pp, pwk, np, 
+                                 nbp, nres, dp, pf, pctx, pq, pj, pd, nq >>
 
 dq_panic(self) == /\ pc[self] = "dq_panic"
                   /\ qstate' = [qstate EXCEPT ![pq[self]] = "Panicked"]
@@ -6405,11 +6575,11 @@ dq_panic(self) == /\ pc[self] = "dq_panic"
                                   ppNotify, ppNC, ppBP, ppDepth, ppAlive, 
                                   ppHeld, inItems, inClosed, inWaker, pollFn, 
                                   chuteFn, pwTaken, nextPoll, ppItem, pjLive, 
-                                  h, dead, sti, rq, sq, sj, ww, rsq, bown, bwk, 
-                                  bi, bcur, bw, bsp, jq, jj, jwk, fj, dq, dj, 
-                                  oq, oop, omode, oj, yq, yop, tq, top, af, wf, 
-                                  wop, sf, sctx, xf, cop, kj, pp, np, nbp, 
-                                  nres, dp, nq >>
+                                  ppStage, h, dead, sti, rq, sq, sj, ww, rsq, 
+                                  bown, bwk, bi, bcur, bw, bsp, jq, jj, jwk, 
+                                  fj, dq, dj, oq, oop, omode, oj, yq, yop, tq, 
+                                  top, af, wf, wop, sf, sctx, xf, cop, kj, pp, 
+                                  pwk, np, nbp, nres, dp, nq >>
 
 PollFuture(self) == pf_decide(self) \/ dq_res(self) \/ dq_deq(self)
                        \/ z_dq_after(self) \/ dq_requeue(self)
@@ -6450,11 +6620,12 @@ c_start(self) == /\ pc[self] = "c_start"
                                  dsl, atomic, strong, ppPending, ppClosed, 
                                  ppNotify, ppNC, ppBP, ppDepth, ppAlive, 
                                  ppHeld, inItems, inClosed, inWaker, pollFn, 
-                                 chuteFn, pwTaken, nextPoll, ppItem, pjLive, h, 
-                                 dead, sti, rq, sq, sj, ww, jq, jj, jwk, fj, 
-                                 dq, dj, oq, oop, omode, oj, yq, yop, tq, top, 
-                                 af, wf, wop, sf, sctx, xf, cop, kj, pp, np, 
-                                 nbp, nres, dp, pf, pctx, pq, pj, pd, nq >>
+                                 chuteFn, pwTaken, nextPoll, ppItem, pjLive, 
+                                 ppStage, h, dead, sti, rq, sq, sj, ww, jq, jj, 
+                                 jwk, fj, dq, dj, oq, oop, omode, oj, yq, yop, 
+                                 tq, top, af, wf, wop, sf, sctx, xf, cop, kj, 
+                                 pp, pwk, np, nbp, nres, dp, pf, pctx, pq, pj, 
+                                 pd, nq >>
 
 z_c_exit(self) == /\ pc[self] = "z_c_exit"
                   /\ h' = ObsExit(h, self, 0, 0)
@@ -6471,11 +6642,12 @@ z_c_exit(self) == /\ pc[self] = "z_c_exit"
                                   ppNotify, ppNC, ppBP, ppDepth, ppAlive, 
                                   ppHeld, inItems, inClosed, inWaker, pollFn, 
                                   chuteFn, pwTaken, nextPoll, ppItem, pjLive, 
-                                  stack, dead, sti, rq, sq, sj, ww, rsq, bown, 
-                                  bwk, bi, bcur, bw, bsp, jq, jj, jwk, fj, dq, 
-                                  dj, oq, oop, omode, oj, yq, yop, tq, top, af, 
-                                  wf, wop, sf, sctx, xf, cop, kj, pp, np, nbp, 
-                                  nres, dp, pf, pctx, pq, pj, pd, nq >>
+                                  ppStage, stack, dead, sti, rq, sq, sj, ww, 
+                                  rsq, bown, bwk, bi, bcur, bw, bsp, jq, jj, 
+                                  jwk, fj, dq, dj, oq, oop, omode, oj, yq, yop, 
+                                  tq, top, af, wf, wop, sf, sctx, xf, cop, kj, 
+                                  pp, pwk, np, nbp, nres, dp, pf, pctx, pq, pj, 
+                                  pd, nq >>
 
 caller(self) == c_start(self) \/ z_c_exit(self)
 
@@ -6501,11 +6673,12 @@ pt_recv(self) == /\ pc[self] = "pt_recv"
                                  ppNotify, ppNC, ppBP, ppDepth, ppAlive, 
                                  ppHeld, inItems, inClosed, inWaker, pollFn, 
                                  chuteFn, pwTaken, nextPoll, ppItem, pjLive, 
-                                 stack, dead, sti, rq, sq, sj, ww, rsq, bown, 
-                                 bwk, bi, bcur, bw, bsp, jq, jj, jwk, fj, dq, 
-                                 dj, oq, oop, omode, oj, yq, yop, tq, top, af, 
-                                 wf, wop, sf, sctx, xf, cop, kj, pp, np, nbp, 
-                                 nres, dp, pf, pctx, pq, pj, pd, nq >>
+                                 ppStage, stack, dead, sti, rq, sq, sj, ww, 
+                                 rsq, bown, bwk, bi, bcur, bw, bsp, jq, jj, 
+                                 jwk, fj, dq, dj, oq, oop, omode, oj, yq, yop, 
+                                 tq, top, af, wf, wop, sf, sctx, xf, cop, kj, 
+                                 pp, pwk, np, nbp, nres, dp, pf, pctx, pq, pj, 
+                                 pd, nq >>
 
 pt_next(self) == /\ pc[self] = "pt_next"
                  /\ LET r == NTR(schedule) IN
@@ -6529,11 +6702,12 @@ pt_next(self) == /\ pc[self] = "pt_next"
                                  ppClosed, ppNotify, ppNC, ppBP, ppDepth, 
                                  ppAlive, ppHeld, inItems, inClosed, inWaker, 
                                  pollFn, chuteFn, pwTaken, nextPoll, ppItem, 
-                                 pjLive, h, stack, dead, sti, rq, sq, sj, ww, 
-                                 rsq, bown, bwk, bi, bcur, bw, bsp, jq, jj, 
-                                 jwk, fj, dq, dj, oq, oop, omode, oj, yq, yop, 
-                                 tq, top, af, wf, wop, sf, sctx, xf, cop, kj, 
-                                 pp, np, nbp, nres, dp, pf, pctx, pq, pj, pd >>
+                                 pjLive, ppStage, h, stack, dead, sti, rq, sq, 
+                                 sj, ww, rsq, bown, bwk, bi, bcur, bw, bsp, jq, 
+                                 jj, jwk, fj, dq, dj, oq, oop, omode, oj, yq, 
+                                 yop, tq, top, af, wf, wop, sf, sctx, xf, cop, 
+                                 kj, pp, pwk, np, nbp, nres, dp, pf, pctx, pq, 
+                                 pj, pd >>
 
 pt_after(self) == /\ pc[self] = "pt_after"
                   /\ busyLocked' = [busyLocked EXCEPT ![self] = FALSE]
@@ -6562,11 +6736,11 @@ pt_after(self) == /\ pc[self] = "pt_after"
                                   ppNotify, ppNC, ppBP, ppDepth, ppAlive, 
                                   ppHeld, inItems, inClosed, inWaker, pollFn, 
                                   chuteFn, pwTaken, nextPoll, ppItem, pjLive, 
-                                  h, dead, sti, rq, sq, sj, ww, rsq, bown, bwk, 
-                                  bi, bcur, bw, bsp, jq, jj, jwk, fj, oq, oop, 
-                                  omode, oj, yq, yop, tq, top, af, wf, wop, sf, 
-                                  sctx, xf, cop, kj, pp, np, nbp, nres, dp, pf, 
-                                  pctx, pq, pj, pd, nq >>
+                                  ppStage, h, dead, sti, rq, sq, sj, ww, rsq, 
+                                  bown, bwk, bi, bcur, bw, bsp, jq, jj, jwk, 
+                                  fj, oq, oop, omode, oj, yq, yop, tq, top, af, 
+                                  wf, wop, sf, sctx, xf, cop, kj, pp, pwk, np, 
+                                  nbp, nres, dp, pf, pctx, pq, pj, pd, nq >>
 
 z_pt_chk(self) == /\ pc[self] = "z_pt_chk"
                   /\ IF rv[self] = 9
@@ -6587,11 +6761,12 @@ z_pt_chk(self) == /\ pc[self] = "z_pt_chk"
                                   ppNotify, ppNC, ppBP, ppDepth, ppAlive, 
                                   ppHeld, inItems, inClosed, inWaker, pollFn, 
                                   chuteFn, pwTaken, nextPoll, ppItem, pjLive, 
-                                  stack, dead, sti, rq, sq, sj, ww, rsq, bown, 
-                                  bwk, bi, bcur, bw, bsp, jq, jj, jwk, fj, dq, 
-                                  dj, oq, oop, omode, oj, yq, yop, tq, top, af, 
-                                  wf, wop, sf, sctx, xf, cop, kj, pp, np, nbp, 
-                                  nres, dp, pf, pctx, pq, pj, pd, nq >>
+                                  ppStage, stack, dead, sti, rq, sq, sj, ww, 
+                                  rsq, bown, bwk, bi, bcur, bw, bsp, jq, jj, 
+                                  jwk, fj, dq, dj, oq, oop, omode, oj, yq, yop, 
+                                  tq, top, af, wf, wop, sf, sctx, xf, cop, kj, 
+                                  pp, pwk, np, nbp, nres, dp, pf, pctx, pq, pj, 
+                                  pd, nq >>
 
 z_pt_done(self) == /\ pc[self] = "z_pt_done"
                    /\ TRUE
@@ -6608,12 +6783,12 @@ z_pt_done(self) == /\ pc[self] = "z_pt_done"
                                    strong, ppPending, ppClosed, ppNotify, ppNC, 
                                    ppBP, ppDepth, ppAlive, ppHeld, inItems, 
                                    inClosed, inWaker, pollFn, chuteFn, pwTaken, 
-                                   nextPoll, ppItem, pjLive, h, stack, dead, 
-                                   sti, rq, sq, sj, ww, rsq, bown, bwk, bi, 
-                                   bcur, bw, bsp, jq, jj, jwk, fj, dq, dj, oq, 
-                                   oop, omode, oj, yq, yop, tq, top, af, wf, 
-                                   wop, sf, sctx, xf, cop, kj, pp, np, nbp, 
-                                   nres, dp, pf, pctx, pq, pj, pd, nq >>
+                                   nextPoll, ppItem, pjLive, ppStage, h, stack, 
+                                   dead, sti, rq, sq, sj, ww, rsq, bown, bwk, 
+                                   bi, bcur, bw, bsp, jq, jj, jwk, fj, dq, dj, 
+                                   oq, oop, omode, oj, yq, yop, tq, top, af, 
+                                   wf, wop, sf, sctx, xf, cop, kj, pp, pwk, np, 
+                                   nbp, nres, dp, pf, pctx, pq, pj, pd, nq >>
 
 pool(self) == pt_recv(self) \/ pt_next(self) \/ pt_after(self)
                  \/ z_pt_chk(self) \/ z_pt_done(self)
